@@ -1,0 +1,5355 @@
+# 0 "test/test_bitv.c"
+# 1 "/repo/aldor/aldor/src//"
+# 0 "<built-in>"
+# 0 "<command-line>"
+# 1 "/usr/include/stdc-predef.h" 1 3 4
+# 0 "<command-line>" 2
+# 1 "test/test_bitv.c"
+# 1 "./axlobs.h" 1
+# 19 "./axlobs.h"
+# 1 "./axlgen.h" 1
+# 17 "./axlgen.h"
+# 1 "./axlgen0.h" 1
+# 16 "./axlgen0.h"
+# 1 "./editlevels.h" 1
+# 17 "./axlgen0.h" 2
+# 18 "./axlgen.h" 2
+# 1 "./list.h" 1
+# 12 "./list.h"
+# 1 "./cport.h" 1
+# 12 "./cport.h"
+# 1 "./stdc.h" 1
+# 17 "./stdc.h"
+# 1 "./platform.h" 1
+# 185 "./platform.h"
+# 1 "/usr/include/features.h" 1 3 4
+# 392 "/usr/include/features.h" 3 4
+# 1 "/usr/include/features-time64.h" 1 3 4
+# 20 "/usr/include/features-time64.h" 3 4
+# 1 "/usr/include/x86_64-linux-gnu/bits/wordsize.h" 1 3 4
+# 21 "/usr/include/features-time64.h" 2 3 4
+# 1 "/usr/include/x86_64-linux-gnu/bits/timesize.h" 1 3 4
+# 19 "/usr/include/x86_64-linux-gnu/bits/timesize.h" 3 4
+# 1 "/usr/include/x86_64-linux-gnu/bits/wordsize.h" 1 3 4
+# 20 "/usr/include/x86_64-linux-gnu/bits/timesize.h" 2 3 4
+# 22 "/usr/include/features-time64.h" 2 3 4
+# 393 "/usr/include/features.h" 2 3 4
+# 489 "/usr/include/features.h" 3 4
+# 1 "/usr/include/x86_64-linux-gnu/sys/cdefs.h" 1 3 4
+# 561 "/usr/include/x86_64-linux-gnu/sys/cdefs.h" 3 4
+# 1 "/usr/include/x86_64-linux-gnu/bits/wordsize.h" 1 3 4
+# 562 "/usr/include/x86_64-linux-gnu/sys/cdefs.h" 2 3 4
+# 1 "/usr/include/x86_64-linux-gnu/bits/long-double.h" 1 3 4
+# 563 "/usr/include/x86_64-linux-gnu/sys/cdefs.h" 2 3 4
+# 490 "/usr/include/features.h" 2 3 4
+# 513 "/usr/include/features.h" 3 4
+# 1 "/usr/include/x86_64-linux-gnu/gnu/stubs.h" 1 3 4
+# 10 "/usr/include/x86_64-linux-gnu/gnu/stubs.h" 3 4
+# 1 "/usr/include/x86_64-linux-gnu/gnu/stubs-64.h" 1 3 4
+# 11 "/usr/include/x86_64-linux-gnu/gnu/stubs.h" 2 3 4
+# 514 "/usr/include/features.h" 2 3 4
+# 186 "./platform.h" 2
+# 18 "./stdc.h" 2
+# 1 "./cconfig.h" 1
+# 19 "./stdc.h" 2
+
+
+
+
+
+# 1 "./assert.h0" 1
+# 17 "./assert.h0"
+# 1 "./features.h0" 1
+# 18 "./assert.h0" 2
+
+
+
+void _do_assert(char *str, char *file, int line);
+# 30 "./assert.h0"
+extern int _dont_assert;
+# 25 "./stdc.h" 2
+# 1 "./ctype.h0" 1
+# 20 "./ctype.h0"
+# 1 "/usr/include/ctype.h" 1 3 4
+# 26 "/usr/include/ctype.h" 3 4
+# 1 "/usr/include/x86_64-linux-gnu/bits/types.h" 1 3 4
+# 27 "/usr/include/x86_64-linux-gnu/bits/types.h" 3 4
+# 1 "/usr/include/x86_64-linux-gnu/bits/wordsize.h" 1 3 4
+# 28 "/usr/include/x86_64-linux-gnu/bits/types.h" 2 3 4
+# 1 "/usr/include/x86_64-linux-gnu/bits/timesize.h" 1 3 4
+# 19 "/usr/include/x86_64-linux-gnu/bits/timesize.h" 3 4
+# 1 "/usr/include/x86_64-linux-gnu/bits/wordsize.h" 1 3 4
+# 20 "/usr/include/x86_64-linux-gnu/bits/timesize.h" 2 3 4
+# 29 "/usr/include/x86_64-linux-gnu/bits/types.h" 2 3 4
+
+
+
+# 31 "/usr/include/x86_64-linux-gnu/bits/types.h" 3 4
+typedef unsigned char __u_char;
+typedef unsigned short int __u_short;
+typedef unsigned int __u_int;
+typedef unsigned long int __u_long;
+
+
+typedef signed char __int8_t;
+typedef unsigned char __uint8_t;
+typedef signed short int __int16_t;
+typedef unsigned short int __uint16_t;
+typedef signed int __int32_t;
+typedef unsigned int __uint32_t;
+
+typedef signed long int __int64_t;
+typedef unsigned long int __uint64_t;
+
+
+
+
+
+
+typedef __int8_t __int_least8_t;
+typedef __uint8_t __uint_least8_t;
+typedef __int16_t __int_least16_t;
+typedef __uint16_t __uint_least16_t;
+typedef __int32_t __int_least32_t;
+typedef __uint32_t __uint_least32_t;
+typedef __int64_t __int_least64_t;
+typedef __uint64_t __uint_least64_t;
+
+
+
+typedef long int __quad_t;
+typedef unsigned long int __u_quad_t;
+
+
+
+
+
+
+
+typedef long int __intmax_t;
+typedef unsigned long int __uintmax_t;
+# 141 "/usr/include/x86_64-linux-gnu/bits/types.h" 3 4
+# 1 "/usr/include/x86_64-linux-gnu/bits/typesizes.h" 1 3 4
+# 142 "/usr/include/x86_64-linux-gnu/bits/types.h" 2 3 4
+# 1 "/usr/include/x86_64-linux-gnu/bits/time64.h" 1 3 4
+# 143 "/usr/include/x86_64-linux-gnu/bits/types.h" 2 3 4
+
+
+typedef unsigned long int __dev_t;
+typedef unsigned int __uid_t;
+typedef unsigned int __gid_t;
+typedef unsigned long int __ino_t;
+typedef unsigned long int __ino64_t;
+typedef unsigned int __mode_t;
+typedef unsigned long int __nlink_t;
+typedef long int __off_t;
+typedef long int __off64_t;
+typedef int __pid_t;
+typedef struct { int __val[2]; } __fsid_t;
+typedef long int __clock_t;
+typedef unsigned long int __rlim_t;
+typedef unsigned long int __rlim64_t;
+typedef unsigned int __id_t;
+typedef long int __time_t;
+typedef unsigned int __useconds_t;
+typedef long int __suseconds_t;
+typedef long int __suseconds64_t;
+
+typedef int __daddr_t;
+typedef int __key_t;
+
+
+typedef int __clockid_t;
+
+
+typedef void * __timer_t;
+
+
+typedef long int __blksize_t;
+
+
+
+
+typedef long int __blkcnt_t;
+typedef long int __blkcnt64_t;
+
+
+typedef unsigned long int __fsblkcnt_t;
+typedef unsigned long int __fsblkcnt64_t;
+
+
+typedef unsigned long int __fsfilcnt_t;
+typedef unsigned long int __fsfilcnt64_t;
+
+
+typedef long int __fsword_t;
+
+typedef long int __ssize_t;
+
+
+typedef long int __syscall_slong_t;
+
+typedef unsigned long int __syscall_ulong_t;
+
+
+
+typedef __off64_t __loff_t;
+typedef char *__caddr_t;
+
+
+typedef long int __intptr_t;
+
+
+typedef unsigned int __socklen_t;
+
+
+
+
+typedef int __sig_atomic_t;
+# 27 "/usr/include/ctype.h" 2 3 4
+
+
+# 39 "/usr/include/ctype.h" 3 4
+# 1 "/usr/include/x86_64-linux-gnu/bits/endian.h" 1 3 4
+# 35 "/usr/include/x86_64-linux-gnu/bits/endian.h" 3 4
+# 1 "/usr/include/x86_64-linux-gnu/bits/endianness.h" 1 3 4
+# 36 "/usr/include/x86_64-linux-gnu/bits/endian.h" 2 3 4
+# 40 "/usr/include/ctype.h" 2 3 4
+
+
+
+
+
+
+enum
+{
+  _ISupper = ((0) < 8 ? ((1 << (0)) << 8) : ((1 << (0)) >> 8)),
+  _ISlower = ((1) < 8 ? ((1 << (1)) << 8) : ((1 << (1)) >> 8)),
+  _ISalpha = ((2) < 8 ? ((1 << (2)) << 8) : ((1 << (2)) >> 8)),
+  _ISdigit = ((3) < 8 ? ((1 << (3)) << 8) : ((1 << (3)) >> 8)),
+  _ISxdigit = ((4) < 8 ? ((1 << (4)) << 8) : ((1 << (4)) >> 8)),
+  _ISspace = ((5) < 8 ? ((1 << (5)) << 8) : ((1 << (5)) >> 8)),
+  _ISprint = ((6) < 8 ? ((1 << (6)) << 8) : ((1 << (6)) >> 8)),
+  _ISgraph = ((7) < 8 ? ((1 << (7)) << 8) : ((1 << (7)) >> 8)),
+  _ISblank = ((8) < 8 ? ((1 << (8)) << 8) : ((1 << (8)) >> 8)),
+  _IScntrl = ((9) < 8 ? ((1 << (9)) << 8) : ((1 << (9)) >> 8)),
+  _ISpunct = ((10) < 8 ? ((1 << (10)) << 8) : ((1 << (10)) >> 8)),
+  _ISalnum = ((11) < 8 ? ((1 << (11)) << 8) : ((1 << (11)) >> 8))
+};
+# 79 "/usr/include/ctype.h" 3 4
+extern const unsigned short int **__ctype_b_loc (void)
+     __attribute__ ((__nothrow__ , __leaf__)) __attribute__ ((__const__));
+extern const __int32_t **__ctype_tolower_loc (void)
+     __attribute__ ((__nothrow__ , __leaf__)) __attribute__ ((__const__));
+extern const __int32_t **__ctype_toupper_loc (void)
+     __attribute__ ((__nothrow__ , __leaf__)) __attribute__ ((__const__));
+# 108 "/usr/include/ctype.h" 3 4
+extern int isalnum (int) __attribute__ ((__nothrow__ , __leaf__));
+extern int isalpha (int) __attribute__ ((__nothrow__ , __leaf__));
+extern int iscntrl (int) __attribute__ ((__nothrow__ , __leaf__));
+extern int isdigit (int) __attribute__ ((__nothrow__ , __leaf__));
+extern int islower (int) __attribute__ ((__nothrow__ , __leaf__));
+extern int isgraph (int) __attribute__ ((__nothrow__ , __leaf__));
+extern int isprint (int) __attribute__ ((__nothrow__ , __leaf__));
+extern int ispunct (int) __attribute__ ((__nothrow__ , __leaf__));
+extern int isspace (int) __attribute__ ((__nothrow__ , __leaf__));
+extern int isupper (int) __attribute__ ((__nothrow__ , __leaf__));
+extern int isxdigit (int) __attribute__ ((__nothrow__ , __leaf__));
+
+
+
+extern int tolower (int __c) __attribute__ ((__nothrow__ , __leaf__));
+
+
+extern int toupper (int __c) __attribute__ ((__nothrow__ , __leaf__));
+
+
+
+
+extern int isblank (int) __attribute__ ((__nothrow__ , __leaf__));
+# 327 "/usr/include/ctype.h" 3 4
+
+# 21 "./ctype.h0" 2
+# 38 "./ctype.h0"
+   
+# 38 "./ctype.h0"
+  extern short __uppercase[], __lowercase[];
+# 26 "./stdc.h" 2
+# 1 "./errno.h0" 1
+# 13 "./errno.h0"
+# 1 "/usr/include/errno.h" 1 3 4
+# 28 "/usr/include/errno.h" 3 4
+# 1 "/usr/include/x86_64-linux-gnu/bits/errno.h" 1 3 4
+# 26 "/usr/include/x86_64-linux-gnu/bits/errno.h" 3 4
+# 1 "/usr/include/linux/errno.h" 1 3 4
+# 1 "/usr/include/x86_64-linux-gnu/asm/errno.h" 1 3 4
+# 1 "/usr/include/asm-generic/errno.h" 1 3 4
+
+
+
+
+# 1 "/usr/include/asm-generic/errno-base.h" 1 3 4
+# 6 "/usr/include/asm-generic/errno.h" 2 3 4
+# 2 "/usr/include/x86_64-linux-gnu/asm/errno.h" 2 3 4
+# 2 "/usr/include/linux/errno.h" 2 3 4
+# 27 "/usr/include/x86_64-linux-gnu/bits/errno.h" 2 3 4
+# 29 "/usr/include/errno.h" 2 3 4
+
+
+
+
+
+
+
+
+
+# 37 "/usr/include/errno.h" 3 4
+extern int *__errno_location (void) __attribute__ ((__nothrow__ , __leaf__)) __attribute__ ((__const__));
+# 52 "/usr/include/errno.h" 3 4
+
+# 14 "./errno.h0" 2
+# 27 "./stdc.h" 2
+# 1 "./float.h0" 1
+# 13 "./float.h0"
+# 1 "/usr/lib/gcc/x86_64-linux-gnu/12/include/float.h" 1 3 4
+# 14 "./float.h0" 2
+# 28 "./stdc.h" 2
+# 1 "./limits.h0" 1
+# 20 "./limits.h0"
+# 1 "/usr/lib/gcc/x86_64-linux-gnu/12/include/limits.h" 1 3 4
+# 34 "/usr/lib/gcc/x86_64-linux-gnu/12/include/limits.h" 3 4
+# 1 "/usr/lib/gcc/x86_64-linux-gnu/12/include/syslimits.h" 1 3 4
+
+
+
+
+
+
+# 1 "/usr/lib/gcc/x86_64-linux-gnu/12/include/limits.h" 1 3 4
+# 203 "/usr/lib/gcc/x86_64-linux-gnu/12/include/limits.h" 3 4
+# 1 "/usr/include/limits.h" 1 3 4
+# 26 "/usr/include/limits.h" 3 4
+# 1 "/usr/include/x86_64-linux-gnu/bits/libc-header-start.h" 1 3 4
+# 27 "/usr/include/limits.h" 2 3 4
+# 204 "/usr/lib/gcc/x86_64-linux-gnu/12/include/limits.h" 2 3 4
+# 8 "/usr/lib/gcc/x86_64-linux-gnu/12/include/syslimits.h" 2 3 4
+# 35 "/usr/lib/gcc/x86_64-linux-gnu/12/include/limits.h" 2 3 4
+# 21 "./limits.h0" 2
+# 29 "./stdc.h" 2
+# 1 "./locale.h0" 1
+# 13 "./locale.h0"
+# 1 "/usr/include/locale.h" 1 3 4
+# 28 "/usr/include/locale.h" 3 4
+# 1 "/usr/lib/gcc/x86_64-linux-gnu/12/include/stddef.h" 1 3 4
+# 29 "/usr/include/locale.h" 2 3 4
+# 1 "/usr/include/x86_64-linux-gnu/bits/locale.h" 1 3 4
+# 30 "/usr/include/locale.h" 2 3 4
+
+
+# 51 "/usr/include/locale.h" 3 4
+struct lconv
+{
+
+
+  char *decimal_point;
+  char *thousands_sep;
+
+
+
+
+
+  char *grouping;
+
+
+
+
+
+  char *int_curr_symbol;
+  char *currency_symbol;
+  char *mon_decimal_point;
+  char *mon_thousands_sep;
+  char *mon_grouping;
+  char *positive_sign;
+  char *negative_sign;
+  char int_frac_digits;
+  char frac_digits;
+
+  char p_cs_precedes;
+
+  char p_sep_by_space;
+
+  char n_cs_precedes;
+
+  char n_sep_by_space;
+
+
+
+
+
+
+  char p_sign_posn;
+  char n_sign_posn;
+
+
+  char int_p_cs_precedes;
+
+  char int_p_sep_by_space;
+
+  char int_n_cs_precedes;
+
+  char int_n_sep_by_space;
+
+
+
+
+
+
+  char int_p_sign_posn;
+  char int_n_sign_posn;
+# 118 "/usr/include/locale.h" 3 4
+};
+
+
+
+extern char *setlocale (int __category, const char *__locale) __attribute__ ((__nothrow__ , __leaf__));
+
+
+extern struct lconv *localeconv (void) __attribute__ ((__nothrow__ , __leaf__));
+# 195 "/usr/include/locale.h" 3 4
+
+# 14 "./locale.h0" 2
+# 30 "./stdc.h" 2
+# 1 "./math.h0" 1
+# 15 "./math.h0"
+# 1 "/usr/include/math.h" 1 3 4
+# 27 "/usr/include/math.h" 3 4
+# 1 "/usr/include/x86_64-linux-gnu/bits/libc-header-start.h" 1 3 4
+# 28 "/usr/include/math.h" 2 3 4
+
+
+
+
+
+
+
+
+
+
+
+
+# 1 "/usr/include/x86_64-linux-gnu/bits/math-vector.h" 1 3 4
+# 25 "/usr/include/x86_64-linux-gnu/bits/math-vector.h" 3 4
+# 1 "/usr/include/x86_64-linux-gnu/bits/libm-simd-decl-stubs.h" 1 3 4
+# 26 "/usr/include/x86_64-linux-gnu/bits/math-vector.h" 2 3 4
+# 41 "/usr/include/math.h" 2 3 4
+
+
+# 1 "/usr/include/x86_64-linux-gnu/bits/floatn.h" 1 3 4
+# 120 "/usr/include/x86_64-linux-gnu/bits/floatn.h" 3 4
+# 1 "/usr/include/x86_64-linux-gnu/bits/floatn-common.h" 1 3 4
+# 24 "/usr/include/x86_64-linux-gnu/bits/floatn-common.h" 3 4
+# 1 "/usr/include/x86_64-linux-gnu/bits/long-double.h" 1 3 4
+# 25 "/usr/include/x86_64-linux-gnu/bits/floatn-common.h" 2 3 4
+# 121 "/usr/include/x86_64-linux-gnu/bits/floatn.h" 2 3 4
+# 44 "/usr/include/math.h" 2 3 4
+# 152 "/usr/include/math.h" 3 4
+# 1 "/usr/include/x86_64-linux-gnu/bits/flt-eval-method.h" 1 3 4
+# 153 "/usr/include/math.h" 2 3 4
+# 163 "/usr/include/math.h" 3 4
+typedef float float_t;
+typedef double double_t;
+# 204 "/usr/include/math.h" 3 4
+# 1 "/usr/include/x86_64-linux-gnu/bits/fp-logb.h" 1 3 4
+# 205 "/usr/include/math.h" 2 3 4
+# 247 "/usr/include/math.h" 3 4
+# 1 "/usr/include/x86_64-linux-gnu/bits/fp-fast.h" 1 3 4
+# 248 "/usr/include/math.h" 2 3 4
+# 312 "/usr/include/math.h" 3 4
+# 1 "/usr/include/x86_64-linux-gnu/bits/mathcalls-helper-functions.h" 1 3 4
+# 20 "/usr/include/x86_64-linux-gnu/bits/mathcalls-helper-functions.h" 3 4
+extern int __fpclassify (double __value) __attribute__ ((__nothrow__ , __leaf__))
+     __attribute__ ((__const__));
+
+
+extern int __signbit (double __value) __attribute__ ((__nothrow__ , __leaf__))
+     __attribute__ ((__const__));
+
+
+
+extern int __isinf (double __value) __attribute__ ((__nothrow__ , __leaf__))
+  __attribute__ ((__const__));
+
+
+extern int __finite (double __value) __attribute__ ((__nothrow__ , __leaf__))
+  __attribute__ ((__const__));
+
+
+extern int __isnan (double __value) __attribute__ ((__nothrow__ , __leaf__))
+  __attribute__ ((__const__));
+
+
+extern int __iseqsig (double __x, double __y) __attribute__ ((__nothrow__ , __leaf__));
+
+
+extern int __issignaling (double __value) __attribute__ ((__nothrow__ , __leaf__))
+     __attribute__ ((__const__));
+# 313 "/usr/include/math.h" 2 3 4
+# 1 "/usr/include/x86_64-linux-gnu/bits/mathcalls.h" 1 3 4
+# 53 "/usr/include/x86_64-linux-gnu/bits/mathcalls.h" 3 4
+ extern double acos (double __x) __attribute__ ((__nothrow__ , __leaf__)); extern double __acos (double __x) __attribute__ ((__nothrow__ , __leaf__));
+
+ extern double asin (double __x) __attribute__ ((__nothrow__ , __leaf__)); extern double __asin (double __x) __attribute__ ((__nothrow__ , __leaf__));
+
+ extern double atan (double __x) __attribute__ ((__nothrow__ , __leaf__)); extern double __atan (double __x) __attribute__ ((__nothrow__ , __leaf__));
+
+ extern double atan2 (double __y, double __x) __attribute__ ((__nothrow__ , __leaf__)); extern double __atan2 (double __y, double __x) __attribute__ ((__nothrow__ , __leaf__));
+
+
+ extern double cos (double __x) __attribute__ ((__nothrow__ , __leaf__)); extern double __cos (double __x) __attribute__ ((__nothrow__ , __leaf__));
+
+ extern double sin (double __x) __attribute__ ((__nothrow__ , __leaf__)); extern double __sin (double __x) __attribute__ ((__nothrow__ , __leaf__));
+
+ extern double tan (double __x) __attribute__ ((__nothrow__ , __leaf__)); extern double __tan (double __x) __attribute__ ((__nothrow__ , __leaf__));
+
+
+
+
+ extern double cosh (double __x) __attribute__ ((__nothrow__ , __leaf__)); extern double __cosh (double __x) __attribute__ ((__nothrow__ , __leaf__));
+
+ extern double sinh (double __x) __attribute__ ((__nothrow__ , __leaf__)); extern double __sinh (double __x) __attribute__ ((__nothrow__ , __leaf__));
+
+ extern double tanh (double __x) __attribute__ ((__nothrow__ , __leaf__)); extern double __tanh (double __x) __attribute__ ((__nothrow__ , __leaf__));
+# 85 "/usr/include/x86_64-linux-gnu/bits/mathcalls.h" 3 4
+ extern double acosh (double __x) __attribute__ ((__nothrow__ , __leaf__)); extern double __acosh (double __x) __attribute__ ((__nothrow__ , __leaf__));
+
+ extern double asinh (double __x) __attribute__ ((__nothrow__ , __leaf__)); extern double __asinh (double __x) __attribute__ ((__nothrow__ , __leaf__));
+
+ extern double atanh (double __x) __attribute__ ((__nothrow__ , __leaf__)); extern double __atanh (double __x) __attribute__ ((__nothrow__ , __leaf__));
+
+
+
+
+
+ extern double exp (double __x) __attribute__ ((__nothrow__ , __leaf__)); extern double __exp (double __x) __attribute__ ((__nothrow__ , __leaf__));
+
+
+extern double frexp (double __x, int *__exponent) __attribute__ ((__nothrow__ , __leaf__)); extern double __frexp (double __x, int *__exponent) __attribute__ ((__nothrow__ , __leaf__));
+
+
+extern double ldexp (double __x, int __exponent) __attribute__ ((__nothrow__ , __leaf__)); extern double __ldexp (double __x, int __exponent) __attribute__ ((__nothrow__ , __leaf__));
+
+
+ extern double log (double __x) __attribute__ ((__nothrow__ , __leaf__)); extern double __log (double __x) __attribute__ ((__nothrow__ , __leaf__));
+
+
+ extern double log10 (double __x) __attribute__ ((__nothrow__ , __leaf__)); extern double __log10 (double __x) __attribute__ ((__nothrow__ , __leaf__));
+
+
+extern double modf (double __x, double *__iptr) __attribute__ ((__nothrow__ , __leaf__)); extern double __modf (double __x, double *__iptr) __attribute__ ((__nothrow__ , __leaf__)) __attribute__ ((__nonnull__ (2)));
+# 119 "/usr/include/x86_64-linux-gnu/bits/mathcalls.h" 3 4
+ extern double expm1 (double __x) __attribute__ ((__nothrow__ , __leaf__)); extern double __expm1 (double __x) __attribute__ ((__nothrow__ , __leaf__));
+
+
+ extern double log1p (double __x) __attribute__ ((__nothrow__ , __leaf__)); extern double __log1p (double __x) __attribute__ ((__nothrow__ , __leaf__));
+
+
+extern double logb (double __x) __attribute__ ((__nothrow__ , __leaf__)); extern double __logb (double __x) __attribute__ ((__nothrow__ , __leaf__));
+
+
+
+
+ extern double exp2 (double __x) __attribute__ ((__nothrow__ , __leaf__)); extern double __exp2 (double __x) __attribute__ ((__nothrow__ , __leaf__));
+
+
+ extern double log2 (double __x) __attribute__ ((__nothrow__ , __leaf__)); extern double __log2 (double __x) __attribute__ ((__nothrow__ , __leaf__));
+
+
+
+
+
+
+ extern double pow (double __x, double __y) __attribute__ ((__nothrow__ , __leaf__)); extern double __pow (double __x, double __y) __attribute__ ((__nothrow__ , __leaf__));
+
+
+extern double sqrt (double __x) __attribute__ ((__nothrow__ , __leaf__)); extern double __sqrt (double __x) __attribute__ ((__nothrow__ , __leaf__));
+
+
+
+ extern double hypot (double __x, double __y) __attribute__ ((__nothrow__ , __leaf__)); extern double __hypot (double __x, double __y) __attribute__ ((__nothrow__ , __leaf__));
+
+
+
+
+ extern double cbrt (double __x) __attribute__ ((__nothrow__ , __leaf__)); extern double __cbrt (double __x) __attribute__ ((__nothrow__ , __leaf__));
+
+
+
+
+
+
+extern double ceil (double __x) __attribute__ ((__nothrow__ , __leaf__)) __attribute__ ((__const__)); extern double __ceil (double __x) __attribute__ ((__nothrow__ , __leaf__)) __attribute__ ((__const__));
+
+
+extern double fabs (double __x) __attribute__ ((__nothrow__ , __leaf__)) __attribute__ ((__const__)); extern double __fabs (double __x) __attribute__ ((__nothrow__ , __leaf__)) __attribute__ ((__const__));
+
+
+extern double floor (double __x) __attribute__ ((__nothrow__ , __leaf__)) __attribute__ ((__const__)); extern double __floor (double __x) __attribute__ ((__nothrow__ , __leaf__)) __attribute__ ((__const__));
+
+
+extern double fmod (double __x, double __y) __attribute__ ((__nothrow__ , __leaf__)); extern double __fmod (double __x, double __y) __attribute__ ((__nothrow__ , __leaf__));
+# 198 "/usr/include/x86_64-linux-gnu/bits/mathcalls.h" 3 4
+extern double copysign (double __x, double __y) __attribute__ ((__nothrow__ , __leaf__)) __attribute__ ((__const__)); extern double __copysign (double __x, double __y) __attribute__ ((__nothrow__ , __leaf__)) __attribute__ ((__const__));
+
+
+
+
+extern double nan (const char *__tagb) __attribute__ ((__nothrow__ , __leaf__)); extern double __nan (const char *__tagb) __attribute__ ((__nothrow__ , __leaf__));
+# 231 "/usr/include/x86_64-linux-gnu/bits/mathcalls.h" 3 4
+ extern double erf (double) __attribute__ ((__nothrow__ , __leaf__)); extern double __erf (double) __attribute__ ((__nothrow__ , __leaf__));
+ extern double erfc (double) __attribute__ ((__nothrow__ , __leaf__)); extern double __erfc (double) __attribute__ ((__nothrow__ , __leaf__));
+extern double lgamma (double) __attribute__ ((__nothrow__ , __leaf__)); extern double __lgamma (double) __attribute__ ((__nothrow__ , __leaf__));
+
+
+
+
+extern double tgamma (double) __attribute__ ((__nothrow__ , __leaf__)); extern double __tgamma (double) __attribute__ ((__nothrow__ , __leaf__));
+# 259 "/usr/include/x86_64-linux-gnu/bits/mathcalls.h" 3 4
+extern double rint (double __x) __attribute__ ((__nothrow__ , __leaf__)); extern double __rint (double __x) __attribute__ ((__nothrow__ , __leaf__));
+
+
+extern double nextafter (double __x, double __y) __attribute__ ((__nothrow__ , __leaf__)); extern double __nextafter (double __x, double __y) __attribute__ ((__nothrow__ , __leaf__));
+
+extern double nexttoward (double __x, long double __y) __attribute__ ((__nothrow__ , __leaf__)); extern double __nexttoward (double __x, long double __y) __attribute__ ((__nothrow__ , __leaf__));
+# 275 "/usr/include/x86_64-linux-gnu/bits/mathcalls.h" 3 4
+extern double remainder (double __x, double __y) __attribute__ ((__nothrow__ , __leaf__)); extern double __remainder (double __x, double __y) __attribute__ ((__nothrow__ , __leaf__));
+
+
+
+extern double scalbn (double __x, int __n) __attribute__ ((__nothrow__ , __leaf__)); extern double __scalbn (double __x, int __n) __attribute__ ((__nothrow__ , __leaf__));
+
+
+
+extern int ilogb (double __x) __attribute__ ((__nothrow__ , __leaf__)); extern int __ilogb (double __x) __attribute__ ((__nothrow__ , __leaf__));
+# 293 "/usr/include/x86_64-linux-gnu/bits/mathcalls.h" 3 4
+extern double scalbln (double __x, long int __n) __attribute__ ((__nothrow__ , __leaf__)); extern double __scalbln (double __x, long int __n) __attribute__ ((__nothrow__ , __leaf__));
+
+
+
+extern double nearbyint (double __x) __attribute__ ((__nothrow__ , __leaf__)); extern double __nearbyint (double __x) __attribute__ ((__nothrow__ , __leaf__));
+
+
+
+extern double round (double __x) __attribute__ ((__nothrow__ , __leaf__)) __attribute__ ((__const__)); extern double __round (double __x) __attribute__ ((__nothrow__ , __leaf__)) __attribute__ ((__const__));
+
+
+
+extern double trunc (double __x) __attribute__ ((__nothrow__ , __leaf__)) __attribute__ ((__const__)); extern double __trunc (double __x) __attribute__ ((__nothrow__ , __leaf__)) __attribute__ ((__const__));
+
+
+
+
+extern double remquo (double __x, double __y, int *__quo) __attribute__ ((__nothrow__ , __leaf__)); extern double __remquo (double __x, double __y, int *__quo) __attribute__ ((__nothrow__ , __leaf__));
+
+
+
+
+
+
+extern long int lrint (double __x) __attribute__ ((__nothrow__ , __leaf__)); extern long int __lrint (double __x) __attribute__ ((__nothrow__ , __leaf__));
+__extension__
+extern long long int llrint (double __x) __attribute__ ((__nothrow__ , __leaf__)); extern long long int __llrint (double __x) __attribute__ ((__nothrow__ , __leaf__));
+
+
+
+extern long int lround (double __x) __attribute__ ((__nothrow__ , __leaf__)); extern long int __lround (double __x) __attribute__ ((__nothrow__ , __leaf__));
+__extension__
+extern long long int llround (double __x) __attribute__ ((__nothrow__ , __leaf__)); extern long long int __llround (double __x) __attribute__ ((__nothrow__ , __leaf__));
+
+
+
+extern double fdim (double __x, double __y) __attribute__ ((__nothrow__ , __leaf__)); extern double __fdim (double __x, double __y) __attribute__ ((__nothrow__ , __leaf__));
+
+
+
+extern double fmax (double __x, double __y) __attribute__ ((__nothrow__ , __leaf__)) __attribute__ ((__const__)); extern double __fmax (double __x, double __y) __attribute__ ((__nothrow__ , __leaf__)) __attribute__ ((__const__));
+
+
+extern double fmin (double __x, double __y) __attribute__ ((__nothrow__ , __leaf__)) __attribute__ ((__const__)); extern double __fmin (double __x, double __y) __attribute__ ((__nothrow__ , __leaf__)) __attribute__ ((__const__));
+
+
+
+extern double fma (double __x, double __y, double __z) __attribute__ ((__nothrow__ , __leaf__)); extern double __fma (double __x, double __y, double __z) __attribute__ ((__nothrow__ , __leaf__));
+# 314 "/usr/include/math.h" 2 3 4
+# 329 "/usr/include/math.h" 3 4
+# 1 "/usr/include/x86_64-linux-gnu/bits/mathcalls-helper-functions.h" 1 3 4
+# 20 "/usr/include/x86_64-linux-gnu/bits/mathcalls-helper-functions.h" 3 4
+extern int __fpclassifyf (float __value) __attribute__ ((__nothrow__ , __leaf__))
+     __attribute__ ((__const__));
+
+
+extern int __signbitf (float __value) __attribute__ ((__nothrow__ , __leaf__))
+     __attribute__ ((__const__));
+
+
+
+extern int __isinff (float __value) __attribute__ ((__nothrow__ , __leaf__))
+  __attribute__ ((__const__));
+
+
+extern int __finitef (float __value) __attribute__ ((__nothrow__ , __leaf__))
+  __attribute__ ((__const__));
+
+
+extern int __isnanf (float __value) __attribute__ ((__nothrow__ , __leaf__))
+  __attribute__ ((__const__));
+
+
+extern int __iseqsigf (float __x, float __y) __attribute__ ((__nothrow__ , __leaf__));
+
+
+extern int __issignalingf (float __value) __attribute__ ((__nothrow__ , __leaf__))
+     __attribute__ ((__const__));
+# 330 "/usr/include/math.h" 2 3 4
+# 1 "/usr/include/x86_64-linux-gnu/bits/mathcalls.h" 1 3 4
+# 53 "/usr/include/x86_64-linux-gnu/bits/mathcalls.h" 3 4
+ extern float acosf (float __x) __attribute__ ((__nothrow__ , __leaf__)); extern float __acosf (float __x) __attribute__ ((__nothrow__ , __leaf__));
+
+ extern float asinf (float __x) __attribute__ ((__nothrow__ , __leaf__)); extern float __asinf (float __x) __attribute__ ((__nothrow__ , __leaf__));
+
+ extern float atanf (float __x) __attribute__ ((__nothrow__ , __leaf__)); extern float __atanf (float __x) __attribute__ ((__nothrow__ , __leaf__));
+
+ extern float atan2f (float __y, float __x) __attribute__ ((__nothrow__ , __leaf__)); extern float __atan2f (float __y, float __x) __attribute__ ((__nothrow__ , __leaf__));
+
+
+ extern float cosf (float __x) __attribute__ ((__nothrow__ , __leaf__)); extern float __cosf (float __x) __attribute__ ((__nothrow__ , __leaf__));
+
+ extern float sinf (float __x) __attribute__ ((__nothrow__ , __leaf__)); extern float __sinf (float __x) __attribute__ ((__nothrow__ , __leaf__));
+
+ extern float tanf (float __x) __attribute__ ((__nothrow__ , __leaf__)); extern float __tanf (float __x) __attribute__ ((__nothrow__ , __leaf__));
+
+
+
+
+ extern float coshf (float __x) __attribute__ ((__nothrow__ , __leaf__)); extern float __coshf (float __x) __attribute__ ((__nothrow__ , __leaf__));
+
+ extern float sinhf (float __x) __attribute__ ((__nothrow__ , __leaf__)); extern float __sinhf (float __x) __attribute__ ((__nothrow__ , __leaf__));
+
+ extern float tanhf (float __x) __attribute__ ((__nothrow__ , __leaf__)); extern float __tanhf (float __x) __attribute__ ((__nothrow__ , __leaf__));
+# 85 "/usr/include/x86_64-linux-gnu/bits/mathcalls.h" 3 4
+ extern float acoshf (float __x) __attribute__ ((__nothrow__ , __leaf__)); extern float __acoshf (float __x) __attribute__ ((__nothrow__ , __leaf__));
+
+ extern float asinhf (float __x) __attribute__ ((__nothrow__ , __leaf__)); extern float __asinhf (float __x) __attribute__ ((__nothrow__ , __leaf__));
+
+ extern float atanhf (float __x) __attribute__ ((__nothrow__ , __leaf__)); extern float __atanhf (float __x) __attribute__ ((__nothrow__ , __leaf__));
+
+
+
+
+
+ extern float expf (float __x) __attribute__ ((__nothrow__ , __leaf__)); extern float __expf (float __x) __attribute__ ((__nothrow__ , __leaf__));
+
+
+extern float frexpf (float __x, int *__exponent) __attribute__ ((__nothrow__ , __leaf__)); extern float __frexpf (float __x, int *__exponent) __attribute__ ((__nothrow__ , __leaf__));
+
+
+extern float ldexpf (float __x, int __exponent) __attribute__ ((__nothrow__ , __leaf__)); extern float __ldexpf (float __x, int __exponent) __attribute__ ((__nothrow__ , __leaf__));
+
+
+ extern float logf (float __x) __attribute__ ((__nothrow__ , __leaf__)); extern float __logf (float __x) __attribute__ ((__nothrow__ , __leaf__));
+
+
+ extern float log10f (float __x) __attribute__ ((__nothrow__ , __leaf__)); extern float __log10f (float __x) __attribute__ ((__nothrow__ , __leaf__));
+
+
+extern float modff (float __x, float *__iptr) __attribute__ ((__nothrow__ , __leaf__)); extern float __modff (float __x, float *__iptr) __attribute__ ((__nothrow__ , __leaf__)) __attribute__ ((__nonnull__ (2)));
+# 119 "/usr/include/x86_64-linux-gnu/bits/mathcalls.h" 3 4
+ extern float expm1f (float __x) __attribute__ ((__nothrow__ , __leaf__)); extern float __expm1f (float __x) __attribute__ ((__nothrow__ , __leaf__));
+
+
+ extern float log1pf (float __x) __attribute__ ((__nothrow__ , __leaf__)); extern float __log1pf (float __x) __attribute__ ((__nothrow__ , __leaf__));
+
+
+extern float logbf (float __x) __attribute__ ((__nothrow__ , __leaf__)); extern float __logbf (float __x) __attribute__ ((__nothrow__ , __leaf__));
+
+
+
+
+ extern float exp2f (float __x) __attribute__ ((__nothrow__ , __leaf__)); extern float __exp2f (float __x) __attribute__ ((__nothrow__ , __leaf__));
+
+
+ extern float log2f (float __x) __attribute__ ((__nothrow__ , __leaf__)); extern float __log2f (float __x) __attribute__ ((__nothrow__ , __leaf__));
+
+
+
+
+
+
+ extern float powf (float __x, float __y) __attribute__ ((__nothrow__ , __leaf__)); extern float __powf (float __x, float __y) __attribute__ ((__nothrow__ , __leaf__));
+
+
+extern float sqrtf (float __x) __attribute__ ((__nothrow__ , __leaf__)); extern float __sqrtf (float __x) __attribute__ ((__nothrow__ , __leaf__));
+
+
+
+ extern float hypotf (float __x, float __y) __attribute__ ((__nothrow__ , __leaf__)); extern float __hypotf (float __x, float __y) __attribute__ ((__nothrow__ , __leaf__));
+
+
+
+
+ extern float cbrtf (float __x) __attribute__ ((__nothrow__ , __leaf__)); extern float __cbrtf (float __x) __attribute__ ((__nothrow__ , __leaf__));
+
+
+
+
+
+
+extern float ceilf (float __x) __attribute__ ((__nothrow__ , __leaf__)) __attribute__ ((__const__)); extern float __ceilf (float __x) __attribute__ ((__nothrow__ , __leaf__)) __attribute__ ((__const__));
+
+
+extern float fabsf (float __x) __attribute__ ((__nothrow__ , __leaf__)) __attribute__ ((__const__)); extern float __fabsf (float __x) __attribute__ ((__nothrow__ , __leaf__)) __attribute__ ((__const__));
+
+
+extern float floorf (float __x) __attribute__ ((__nothrow__ , __leaf__)) __attribute__ ((__const__)); extern float __floorf (float __x) __attribute__ ((__nothrow__ , __leaf__)) __attribute__ ((__const__));
+
+
+extern float fmodf (float __x, float __y) __attribute__ ((__nothrow__ , __leaf__)); extern float __fmodf (float __x, float __y) __attribute__ ((__nothrow__ , __leaf__));
+# 198 "/usr/include/x86_64-linux-gnu/bits/mathcalls.h" 3 4
+extern float copysignf (float __x, float __y) __attribute__ ((__nothrow__ , __leaf__)) __attribute__ ((__const__)); extern float __copysignf (float __x, float __y) __attribute__ ((__nothrow__ , __leaf__)) __attribute__ ((__const__));
+
+
+
+
+extern float nanf (const char *__tagb) __attribute__ ((__nothrow__ , __leaf__)); extern float __nanf (const char *__tagb) __attribute__ ((__nothrow__ , __leaf__));
+# 231 "/usr/include/x86_64-linux-gnu/bits/mathcalls.h" 3 4
+ extern float erff (float) __attribute__ ((__nothrow__ , __leaf__)); extern float __erff (float) __attribute__ ((__nothrow__ , __leaf__));
+ extern float erfcf (float) __attribute__ ((__nothrow__ , __leaf__)); extern float __erfcf (float) __attribute__ ((__nothrow__ , __leaf__));
+extern float lgammaf (float) __attribute__ ((__nothrow__ , __leaf__)); extern float __lgammaf (float) __attribute__ ((__nothrow__ , __leaf__));
+
+
+
+
+extern float tgammaf (float) __attribute__ ((__nothrow__ , __leaf__)); extern float __tgammaf (float) __attribute__ ((__nothrow__ , __leaf__));
+# 259 "/usr/include/x86_64-linux-gnu/bits/mathcalls.h" 3 4
+extern float rintf (float __x) __attribute__ ((__nothrow__ , __leaf__)); extern float __rintf (float __x) __attribute__ ((__nothrow__ , __leaf__));
+
+
+extern float nextafterf (float __x, float __y) __attribute__ ((__nothrow__ , __leaf__)); extern float __nextafterf (float __x, float __y) __attribute__ ((__nothrow__ , __leaf__));
+
+extern float nexttowardf (float __x, long double __y) __attribute__ ((__nothrow__ , __leaf__)); extern float __nexttowardf (float __x, long double __y) __attribute__ ((__nothrow__ , __leaf__));
+# 275 "/usr/include/x86_64-linux-gnu/bits/mathcalls.h" 3 4
+extern float remainderf (float __x, float __y) __attribute__ ((__nothrow__ , __leaf__)); extern float __remainderf (float __x, float __y) __attribute__ ((__nothrow__ , __leaf__));
+
+
+
+extern float scalbnf (float __x, int __n) __attribute__ ((__nothrow__ , __leaf__)); extern float __scalbnf (float __x, int __n) __attribute__ ((__nothrow__ , __leaf__));
+
+
+
+extern int ilogbf (float __x) __attribute__ ((__nothrow__ , __leaf__)); extern int __ilogbf (float __x) __attribute__ ((__nothrow__ , __leaf__));
+# 293 "/usr/include/x86_64-linux-gnu/bits/mathcalls.h" 3 4
+extern float scalblnf (float __x, long int __n) __attribute__ ((__nothrow__ , __leaf__)); extern float __scalblnf (float __x, long int __n) __attribute__ ((__nothrow__ , __leaf__));
+
+
+
+extern float nearbyintf (float __x) __attribute__ ((__nothrow__ , __leaf__)); extern float __nearbyintf (float __x) __attribute__ ((__nothrow__ , __leaf__));
+
+
+
+extern float roundf (float __x) __attribute__ ((__nothrow__ , __leaf__)) __attribute__ ((__const__)); extern float __roundf (float __x) __attribute__ ((__nothrow__ , __leaf__)) __attribute__ ((__const__));
+
+
+
+extern float truncf (float __x) __attribute__ ((__nothrow__ , __leaf__)) __attribute__ ((__const__)); extern float __truncf (float __x) __attribute__ ((__nothrow__ , __leaf__)) __attribute__ ((__const__));
+
+
+
+
+extern float remquof (float __x, float __y, int *__quo) __attribute__ ((__nothrow__ , __leaf__)); extern float __remquof (float __x, float __y, int *__quo) __attribute__ ((__nothrow__ , __leaf__));
+
+
+
+
+
+
+extern long int lrintf (float __x) __attribute__ ((__nothrow__ , __leaf__)); extern long int __lrintf (float __x) __attribute__ ((__nothrow__ , __leaf__));
+__extension__
+extern long long int llrintf (float __x) __attribute__ ((__nothrow__ , __leaf__)); extern long long int __llrintf (float __x) __attribute__ ((__nothrow__ , __leaf__));
+
+
+
+extern long int lroundf (float __x) __attribute__ ((__nothrow__ , __leaf__)); extern long int __lroundf (float __x) __attribute__ ((__nothrow__ , __leaf__));
+__extension__
+extern long long int llroundf (float __x) __attribute__ ((__nothrow__ , __leaf__)); extern long long int __llroundf (float __x) __attribute__ ((__nothrow__ , __leaf__));
+
+
+
+extern float fdimf (float __x, float __y) __attribute__ ((__nothrow__ , __leaf__)); extern float __fdimf (float __x, float __y) __attribute__ ((__nothrow__ , __leaf__));
+
+
+
+extern float fmaxf (float __x, float __y) __attribute__ ((__nothrow__ , __leaf__)) __attribute__ ((__const__)); extern float __fmaxf (float __x, float __y) __attribute__ ((__nothrow__ , __leaf__)) __attribute__ ((__const__));
+
+
+extern float fminf (float __x, float __y) __attribute__ ((__nothrow__ , __leaf__)) __attribute__ ((__const__)); extern float __fminf (float __x, float __y) __attribute__ ((__nothrow__ , __leaf__)) __attribute__ ((__const__));
+
+
+
+extern float fmaf (float __x, float __y, float __z) __attribute__ ((__nothrow__ , __leaf__)); extern float __fmaf (float __x, float __y, float __z) __attribute__ ((__nothrow__ , __leaf__));
+# 331 "/usr/include/math.h" 2 3 4
+# 398 "/usr/include/math.h" 3 4
+# 1 "/usr/include/x86_64-linux-gnu/bits/mathcalls-helper-functions.h" 1 3 4
+# 20 "/usr/include/x86_64-linux-gnu/bits/mathcalls-helper-functions.h" 3 4
+extern int __fpclassifyl (long double __value) __attribute__ ((__nothrow__ , __leaf__))
+     __attribute__ ((__const__));
+
+
+extern int __signbitl (long double __value) __attribute__ ((__nothrow__ , __leaf__))
+     __attribute__ ((__const__));
+
+
+
+extern int __isinfl (long double __value) __attribute__ ((__nothrow__ , __leaf__))
+  __attribute__ ((__const__));
+
+
+extern int __finitel (long double __value) __attribute__ ((__nothrow__ , __leaf__))
+  __attribute__ ((__const__));
+
+
+extern int __isnanl (long double __value) __attribute__ ((__nothrow__ , __leaf__))
+  __attribute__ ((__const__));
+
+
+extern int __iseqsigl (long double __x, long double __y) __attribute__ ((__nothrow__ , __leaf__));
+
+
+extern int __issignalingl (long double __value) __attribute__ ((__nothrow__ , __leaf__))
+     __attribute__ ((__const__));
+# 399 "/usr/include/math.h" 2 3 4
+# 1 "/usr/include/x86_64-linux-gnu/bits/mathcalls.h" 1 3 4
+# 53 "/usr/include/x86_64-linux-gnu/bits/mathcalls.h" 3 4
+ extern long double acosl (long double __x) __attribute__ ((__nothrow__ , __leaf__)); extern long double __acosl (long double __x) __attribute__ ((__nothrow__ , __leaf__));
+
+ extern long double asinl (long double __x) __attribute__ ((__nothrow__ , __leaf__)); extern long double __asinl (long double __x) __attribute__ ((__nothrow__ , __leaf__));
+
+ extern long double atanl (long double __x) __attribute__ ((__nothrow__ , __leaf__)); extern long double __atanl (long double __x) __attribute__ ((__nothrow__ , __leaf__));
+
+ extern long double atan2l (long double __y, long double __x) __attribute__ ((__nothrow__ , __leaf__)); extern long double __atan2l (long double __y, long double __x) __attribute__ ((__nothrow__ , __leaf__));
+
+
+ extern long double cosl (long double __x) __attribute__ ((__nothrow__ , __leaf__)); extern long double __cosl (long double __x) __attribute__ ((__nothrow__ , __leaf__));
+
+ extern long double sinl (long double __x) __attribute__ ((__nothrow__ , __leaf__)); extern long double __sinl (long double __x) __attribute__ ((__nothrow__ , __leaf__));
+
+ extern long double tanl (long double __x) __attribute__ ((__nothrow__ , __leaf__)); extern long double __tanl (long double __x) __attribute__ ((__nothrow__ , __leaf__));
+
+
+
+
+ extern long double coshl (long double __x) __attribute__ ((__nothrow__ , __leaf__)); extern long double __coshl (long double __x) __attribute__ ((__nothrow__ , __leaf__));
+
+ extern long double sinhl (long double __x) __attribute__ ((__nothrow__ , __leaf__)); extern long double __sinhl (long double __x) __attribute__ ((__nothrow__ , __leaf__));
+
+ extern long double tanhl (long double __x) __attribute__ ((__nothrow__ , __leaf__)); extern long double __tanhl (long double __x) __attribute__ ((__nothrow__ , __leaf__));
+# 85 "/usr/include/x86_64-linux-gnu/bits/mathcalls.h" 3 4
+ extern long double acoshl (long double __x) __attribute__ ((__nothrow__ , __leaf__)); extern long double __acoshl (long double __x) __attribute__ ((__nothrow__ , __leaf__));
+
+ extern long double asinhl (long double __x) __attribute__ ((__nothrow__ , __leaf__)); extern long double __asinhl (long double __x) __attribute__ ((__nothrow__ , __leaf__));
+
+ extern long double atanhl (long double __x) __attribute__ ((__nothrow__ , __leaf__)); extern long double __atanhl (long double __x) __attribute__ ((__nothrow__ , __leaf__));
+
+
+
+
+
+ extern long double expl (long double __x) __attribute__ ((__nothrow__ , __leaf__)); extern long double __expl (long double __x) __attribute__ ((__nothrow__ , __leaf__));
+
+
+extern long double frexpl (long double __x, int *__exponent) __attribute__ ((__nothrow__ , __leaf__)); extern long double __frexpl (long double __x, int *__exponent) __attribute__ ((__nothrow__ , __leaf__));
+
+
+extern long double ldexpl (long double __x, int __exponent) __attribute__ ((__nothrow__ , __leaf__)); extern long double __ldexpl (long double __x, int __exponent) __attribute__ ((__nothrow__ , __leaf__));
+
+
+ extern long double logl (long double __x) __attribute__ ((__nothrow__ , __leaf__)); extern long double __logl (long double __x) __attribute__ ((__nothrow__ , __leaf__));
+
+
+ extern long double log10l (long double __x) __attribute__ ((__nothrow__ , __leaf__)); extern long double __log10l (long double __x) __attribute__ ((__nothrow__ , __leaf__));
+
+
+extern long double modfl (long double __x, long double *__iptr) __attribute__ ((__nothrow__ , __leaf__)); extern long double __modfl (long double __x, long double *__iptr) __attribute__ ((__nothrow__ , __leaf__)) __attribute__ ((__nonnull__ (2)));
+# 119 "/usr/include/x86_64-linux-gnu/bits/mathcalls.h" 3 4
+ extern long double expm1l (long double __x) __attribute__ ((__nothrow__ , __leaf__)); extern long double __expm1l (long double __x) __attribute__ ((__nothrow__ , __leaf__));
+
+
+ extern long double log1pl (long double __x) __attribute__ ((__nothrow__ , __leaf__)); extern long double __log1pl (long double __x) __attribute__ ((__nothrow__ , __leaf__));
+
+
+extern long double logbl (long double __x) __attribute__ ((__nothrow__ , __leaf__)); extern long double __logbl (long double __x) __attribute__ ((__nothrow__ , __leaf__));
+
+
+
+
+ extern long double exp2l (long double __x) __attribute__ ((__nothrow__ , __leaf__)); extern long double __exp2l (long double __x) __attribute__ ((__nothrow__ , __leaf__));
+
+
+ extern long double log2l (long double __x) __attribute__ ((__nothrow__ , __leaf__)); extern long double __log2l (long double __x) __attribute__ ((__nothrow__ , __leaf__));
+
+
+
+
+
+
+ extern long double powl (long double __x, long double __y) __attribute__ ((__nothrow__ , __leaf__)); extern long double __powl (long double __x, long double __y) __attribute__ ((__nothrow__ , __leaf__));
+
+
+extern long double sqrtl (long double __x) __attribute__ ((__nothrow__ , __leaf__)); extern long double __sqrtl (long double __x) __attribute__ ((__nothrow__ , __leaf__));
+
+
+
+ extern long double hypotl (long double __x, long double __y) __attribute__ ((__nothrow__ , __leaf__)); extern long double __hypotl (long double __x, long double __y) __attribute__ ((__nothrow__ , __leaf__));
+
+
+
+
+ extern long double cbrtl (long double __x) __attribute__ ((__nothrow__ , __leaf__)); extern long double __cbrtl (long double __x) __attribute__ ((__nothrow__ , __leaf__));
+
+
+
+
+
+
+extern long double ceill (long double __x) __attribute__ ((__nothrow__ , __leaf__)) __attribute__ ((__const__)); extern long double __ceill (long double __x) __attribute__ ((__nothrow__ , __leaf__)) __attribute__ ((__const__));
+
+
+extern long double fabsl (long double __x) __attribute__ ((__nothrow__ , __leaf__)) __attribute__ ((__const__)); extern long double __fabsl (long double __x) __attribute__ ((__nothrow__ , __leaf__)) __attribute__ ((__const__));
+
+
+extern long double floorl (long double __x) __attribute__ ((__nothrow__ , __leaf__)) __attribute__ ((__const__)); extern long double __floorl (long double __x) __attribute__ ((__nothrow__ , __leaf__)) __attribute__ ((__const__));
+
+
+extern long double fmodl (long double __x, long double __y) __attribute__ ((__nothrow__ , __leaf__)); extern long double __fmodl (long double __x, long double __y) __attribute__ ((__nothrow__ , __leaf__));
+# 198 "/usr/include/x86_64-linux-gnu/bits/mathcalls.h" 3 4
+extern long double copysignl (long double __x, long double __y) __attribute__ ((__nothrow__ , __leaf__)) __attribute__ ((__const__)); extern long double __copysignl (long double __x, long double __y) __attribute__ ((__nothrow__ , __leaf__)) __attribute__ ((__const__));
+
+
+
+
+extern long double nanl (const char *__tagb) __attribute__ ((__nothrow__ , __leaf__)); extern long double __nanl (const char *__tagb) __attribute__ ((__nothrow__ , __leaf__));
+# 231 "/usr/include/x86_64-linux-gnu/bits/mathcalls.h" 3 4
+ extern long double erfl (long double) __attribute__ ((__nothrow__ , __leaf__)); extern long double __erfl (long double) __attribute__ ((__nothrow__ , __leaf__));
+ extern long double erfcl (long double) __attribute__ ((__nothrow__ , __leaf__)); extern long double __erfcl (long double) __attribute__ ((__nothrow__ , __leaf__));
+extern long double lgammal (long double) __attribute__ ((__nothrow__ , __leaf__)); extern long double __lgammal (long double) __attribute__ ((__nothrow__ , __leaf__));
+
+
+
+
+extern long double tgammal (long double) __attribute__ ((__nothrow__ , __leaf__)); extern long double __tgammal (long double) __attribute__ ((__nothrow__ , __leaf__));
+# 259 "/usr/include/x86_64-linux-gnu/bits/mathcalls.h" 3 4
+extern long double rintl (long double __x) __attribute__ ((__nothrow__ , __leaf__)); extern long double __rintl (long double __x) __attribute__ ((__nothrow__ , __leaf__));
+
+
+extern long double nextafterl (long double __x, long double __y) __attribute__ ((__nothrow__ , __leaf__)); extern long double __nextafterl (long double __x, long double __y) __attribute__ ((__nothrow__ , __leaf__));
+
+extern long double nexttowardl (long double __x, long double __y) __attribute__ ((__nothrow__ , __leaf__)); extern long double __nexttowardl (long double __x, long double __y) __attribute__ ((__nothrow__ , __leaf__));
+# 275 "/usr/include/x86_64-linux-gnu/bits/mathcalls.h" 3 4
+extern long double remainderl (long double __x, long double __y) __attribute__ ((__nothrow__ , __leaf__)); extern long double __remainderl (long double __x, long double __y) __attribute__ ((__nothrow__ , __leaf__));
+
+
+
+extern long double scalbnl (long double __x, int __n) __attribute__ ((__nothrow__ , __leaf__)); extern long double __scalbnl (long double __x, int __n) __attribute__ ((__nothrow__ , __leaf__));
+
+
+
+extern int ilogbl (long double __x) __attribute__ ((__nothrow__ , __leaf__)); extern int __ilogbl (long double __x) __attribute__ ((__nothrow__ , __leaf__));
+# 293 "/usr/include/x86_64-linux-gnu/bits/mathcalls.h" 3 4
+extern long double scalblnl (long double __x, long int __n) __attribute__ ((__nothrow__ , __leaf__)); extern long double __scalblnl (long double __x, long int __n) __attribute__ ((__nothrow__ , __leaf__));
+
+
+
+extern long double nearbyintl (long double __x) __attribute__ ((__nothrow__ , __leaf__)); extern long double __nearbyintl (long double __x) __attribute__ ((__nothrow__ , __leaf__));
+
+
+
+extern long double roundl (long double __x) __attribute__ ((__nothrow__ , __leaf__)) __attribute__ ((__const__)); extern long double __roundl (long double __x) __attribute__ ((__nothrow__ , __leaf__)) __attribute__ ((__const__));
+
+
+
+extern long double truncl (long double __x) __attribute__ ((__nothrow__ , __leaf__)) __attribute__ ((__const__)); extern long double __truncl (long double __x) __attribute__ ((__nothrow__ , __leaf__)) __attribute__ ((__const__));
+
+
+
+
+extern long double remquol (long double __x, long double __y, int *__quo) __attribute__ ((__nothrow__ , __leaf__)); extern long double __remquol (long double __x, long double __y, int *__quo) __attribute__ ((__nothrow__ , __leaf__));
+
+
+
+
+
+
+extern long int lrintl (long double __x) __attribute__ ((__nothrow__ , __leaf__)); extern long int __lrintl (long double __x) __attribute__ ((__nothrow__ , __leaf__));
+__extension__
+extern long long int llrintl (long double __x) __attribute__ ((__nothrow__ , __leaf__)); extern long long int __llrintl (long double __x) __attribute__ ((__nothrow__ , __leaf__));
+
+
+
+extern long int lroundl (long double __x) __attribute__ ((__nothrow__ , __leaf__)); extern long int __lroundl (long double __x) __attribute__ ((__nothrow__ , __leaf__));
+__extension__
+extern long long int llroundl (long double __x) __attribute__ ((__nothrow__ , __leaf__)); extern long long int __llroundl (long double __x) __attribute__ ((__nothrow__ , __leaf__));
+
+
+
+extern long double fdiml (long double __x, long double __y) __attribute__ ((__nothrow__ , __leaf__)); extern long double __fdiml (long double __x, long double __y) __attribute__ ((__nothrow__ , __leaf__));
+
+
+
+extern long double fmaxl (long double __x, long double __y) __attribute__ ((__nothrow__ , __leaf__)) __attribute__ ((__const__)); extern long double __fmaxl (long double __x, long double __y) __attribute__ ((__nothrow__ , __leaf__)) __attribute__ ((__const__));
+
+
+extern long double fminl (long double __x, long double __y) __attribute__ ((__nothrow__ , __leaf__)) __attribute__ ((__const__)); extern long double __fminl (long double __x, long double __y) __attribute__ ((__nothrow__ , __leaf__)) __attribute__ ((__const__));
+
+
+
+extern long double fmal (long double __x, long double __y, long double __z) __attribute__ ((__nothrow__ , __leaf__)); extern long double __fmal (long double __x, long double __y, long double __z) __attribute__ ((__nothrow__ , __leaf__));
+# 400 "/usr/include/math.h" 2 3 4
+# 481 "/usr/include/math.h" 3 4
+# 1 "/usr/include/x86_64-linux-gnu/bits/mathcalls-helper-functions.h" 1 3 4
+# 20 "/usr/include/x86_64-linux-gnu/bits/mathcalls-helper-functions.h" 3 4
+extern int __fpclassifyf128 (_Float128 __value) __attribute__ ((__nothrow__ , __leaf__))
+     __attribute__ ((__const__));
+
+
+extern int __signbitf128 (_Float128 __value) __attribute__ ((__nothrow__ , __leaf__))
+     __attribute__ ((__const__));
+
+
+
+extern int __isinff128 (_Float128 __value) __attribute__ ((__nothrow__ , __leaf__))
+  __attribute__ ((__const__));
+
+
+extern int __finitef128 (_Float128 __value) __attribute__ ((__nothrow__ , __leaf__))
+  __attribute__ ((__const__));
+
+
+extern int __isnanf128 (_Float128 __value) __attribute__ ((__nothrow__ , __leaf__))
+  __attribute__ ((__const__));
+
+
+extern int __iseqsigf128 (_Float128 __x, _Float128 __y) __attribute__ ((__nothrow__ , __leaf__));
+
+
+extern int __issignalingf128 (_Float128 __value) __attribute__ ((__nothrow__ , __leaf__))
+     __attribute__ ((__const__));
+# 482 "/usr/include/math.h" 2 3 4
+# 934 "/usr/include/math.h" 3 4
+enum
+  {
+    FP_NAN =
+
+      0,
+    FP_INFINITE =
+
+      1,
+    FP_ZERO =
+
+      2,
+    FP_SUBNORMAL =
+
+      3,
+    FP_NORMAL =
+
+      4
+  };
+# 1471 "/usr/include/math.h" 3 4
+
+# 16 "./math.h0" 2
+# 31 "./stdc.h" 2
+# 1 "./setjmp.h0" 1
+# 16 "./setjmp.h0"
+# 1 "/usr/include/setjmp.h" 1 3 4
+# 27 "/usr/include/setjmp.h" 3 4
+
+
+# 1 "/usr/include/x86_64-linux-gnu/bits/setjmp.h" 1 3 4
+# 26 "/usr/include/x86_64-linux-gnu/bits/setjmp.h" 3 4
+# 1 "/usr/include/x86_64-linux-gnu/bits/wordsize.h" 1 3 4
+# 27 "/usr/include/x86_64-linux-gnu/bits/setjmp.h" 2 3 4
+
+
+
+
+typedef long int __jmp_buf[8];
+# 30 "/usr/include/setjmp.h" 2 3 4
+# 1 "/usr/include/x86_64-linux-gnu/bits/types/struct___jmp_buf_tag.h" 1 3 4
+# 23 "/usr/include/x86_64-linux-gnu/bits/types/struct___jmp_buf_tag.h" 3 4
+# 1 "/usr/include/x86_64-linux-gnu/bits/types/__sigset_t.h" 1 3 4
+
+
+
+
+typedef struct
+{
+  unsigned long int __val[(1024 / (8 * sizeof (unsigned long int)))];
+} __sigset_t;
+# 24 "/usr/include/x86_64-linux-gnu/bits/types/struct___jmp_buf_tag.h" 2 3 4
+
+
+struct __jmp_buf_tag
+  {
+
+
+
+
+    __jmp_buf __jmpbuf;
+    int __mask_was_saved;
+    __sigset_t __saved_mask;
+  };
+# 31 "/usr/include/setjmp.h" 2 3 4
+
+typedef struct __jmp_buf_tag jmp_buf[1];
+
+
+
+extern int setjmp (jmp_buf __env) __attribute__ ((__nothrow__));
+
+
+
+
+extern int __sigsetjmp (struct __jmp_buf_tag __env[1], int __savemask) __attribute__ ((__nothrow__));
+
+
+
+extern int _setjmp (struct __jmp_buf_tag __env[1]) __attribute__ ((__nothrow__));
+# 54 "/usr/include/setjmp.h" 3 4
+extern void longjmp (struct __jmp_buf_tag __env[1], int __val)
+     __attribute__ ((__nothrow__)) __attribute__ ((__noreturn__));
+# 90 "/usr/include/setjmp.h" 3 4
+
+# 17 "./setjmp.h0" 2
+# 32 "./stdc.h" 2
+# 1 "./signal.h0" 1
+# 21 "./signal.h0"
+# 1 "/usr/include/signal.h" 1 3 4
+# 27 "/usr/include/signal.h" 3 4
+
+
+
+# 1 "/usr/include/x86_64-linux-gnu/bits/signum-generic.h" 1 3 4
+# 76 "/usr/include/x86_64-linux-gnu/bits/signum-generic.h" 3 4
+# 1 "/usr/include/x86_64-linux-gnu/bits/signum-arch.h" 1 3 4
+# 77 "/usr/include/x86_64-linux-gnu/bits/signum-generic.h" 2 3 4
+# 31 "/usr/include/signal.h" 2 3 4
+
+# 1 "/usr/include/x86_64-linux-gnu/bits/types/sig_atomic_t.h" 1 3 4
+
+
+
+
+
+
+
+typedef __sig_atomic_t sig_atomic_t;
+# 33 "/usr/include/signal.h" 2 3 4
+# 72 "/usr/include/signal.h" 3 4
+typedef void (*__sighandler_t) (int);
+
+
+
+
+extern __sighandler_t __sysv_signal (int __sig, __sighandler_t __handler)
+     __attribute__ ((__nothrow__ , __leaf__));
+# 93 "/usr/include/signal.h" 3 4
+extern __sighandler_t signal (int __sig, __sighandler_t __handler) __asm__ ("" "__sysv_signal") __attribute__ ((__nothrow__ , __leaf__))
+
+                        ;
+# 123 "/usr/include/signal.h" 3 4
+extern int raise (int __sig) __attribute__ ((__nothrow__ , __leaf__));
+# 383 "/usr/include/signal.h" 3 4
+extern int __libc_current_sigrtmin (void) __attribute__ ((__nothrow__ , __leaf__));
+
+extern int __libc_current_sigrtmax (void) __attribute__ ((__nothrow__ , __leaf__));
+
+
+
+
+
+# 1 "/usr/include/x86_64-linux-gnu/bits/signal_ext.h" 1 3 4
+# 392 "/usr/include/signal.h" 2 3 4
+
+
+# 22 "./signal.h0" 2
+# 33 "./stdc.h" 2
+# 1 "./stdarg.h0" 1
+# 54 "./stdarg.h0"
+# 1 "/usr/lib/gcc/x86_64-linux-gnu/12/include/stdarg.h" 1 3 4
+# 40 "/usr/lib/gcc/x86_64-linux-gnu/12/include/stdarg.h" 3 4
+typedef __builtin_va_list __gnuc_va_list;
+# 99 "/usr/lib/gcc/x86_64-linux-gnu/12/include/stdarg.h" 3 4
+typedef __gnuc_va_list va_list;
+# 55 "./stdarg.h0" 2
+# 34 "./stdc.h" 2
+# 1 "./stddef.h0" 1
+# 78 "./stddef.h0"
+# 1 "/usr/lib/gcc/x86_64-linux-gnu/12/include/stddef.h" 1 3 4
+# 145 "/usr/lib/gcc/x86_64-linux-gnu/12/include/stddef.h" 3 4
+typedef long int ptrdiff_t;
+# 214 "/usr/lib/gcc/x86_64-linux-gnu/12/include/stddef.h" 3 4
+typedef long unsigned int size_t;
+# 329 "/usr/lib/gcc/x86_64-linux-gnu/12/include/stddef.h" 3 4
+typedef int wchar_t;
+# 79 "./stddef.h0" 2
+# 35 "./stdc.h" 2
+# 1 "./stdio.h0" 1
+# 46 "./stdio.h0"
+# 1 "/usr/include/stdio.h" 1 3 4
+# 27 "/usr/include/stdio.h" 3 4
+# 1 "/usr/include/x86_64-linux-gnu/bits/libc-header-start.h" 1 3 4
+# 28 "/usr/include/stdio.h" 2 3 4
+
+
+
+
+
+# 1 "/usr/lib/gcc/x86_64-linux-gnu/12/include/stddef.h" 1 3 4
+# 34 "/usr/include/stdio.h" 2 3 4
+
+
+
+
+
+# 1 "/usr/include/x86_64-linux-gnu/bits/types/__fpos_t.h" 1 3 4
+
+
+
+
+# 1 "/usr/include/x86_64-linux-gnu/bits/types/__mbstate_t.h" 1 3 4
+# 13 "/usr/include/x86_64-linux-gnu/bits/types/__mbstate_t.h" 3 4
+typedef struct
+{
+  int __count;
+  union
+  {
+    unsigned int __wch;
+    char __wchb[4];
+  } __value;
+} __mbstate_t;
+# 6 "/usr/include/x86_64-linux-gnu/bits/types/__fpos_t.h" 2 3 4
+
+
+
+
+typedef struct _G_fpos_t
+{
+  __off_t __pos;
+  __mbstate_t __state;
+} __fpos_t;
+# 40 "/usr/include/stdio.h" 2 3 4
+# 1 "/usr/include/x86_64-linux-gnu/bits/types/__fpos64_t.h" 1 3 4
+# 10 "/usr/include/x86_64-linux-gnu/bits/types/__fpos64_t.h" 3 4
+typedef struct _G_fpos64_t
+{
+  __off64_t __pos;
+  __mbstate_t __state;
+} __fpos64_t;
+# 41 "/usr/include/stdio.h" 2 3 4
+# 1 "/usr/include/x86_64-linux-gnu/bits/types/__FILE.h" 1 3 4
+
+
+
+struct _IO_FILE;
+typedef struct _IO_FILE __FILE;
+# 42 "/usr/include/stdio.h" 2 3 4
+# 1 "/usr/include/x86_64-linux-gnu/bits/types/FILE.h" 1 3 4
+
+
+
+struct _IO_FILE;
+
+
+typedef struct _IO_FILE FILE;
+# 43 "/usr/include/stdio.h" 2 3 4
+# 1 "/usr/include/x86_64-linux-gnu/bits/types/struct_FILE.h" 1 3 4
+# 35 "/usr/include/x86_64-linux-gnu/bits/types/struct_FILE.h" 3 4
+struct _IO_FILE;
+struct _IO_marker;
+struct _IO_codecvt;
+struct _IO_wide_data;
+
+
+
+
+typedef void _IO_lock_t;
+
+
+
+
+
+struct _IO_FILE
+{
+  int _flags;
+
+
+  char *_IO_read_ptr;
+  char *_IO_read_end;
+  char *_IO_read_base;
+  char *_IO_write_base;
+  char *_IO_write_ptr;
+  char *_IO_write_end;
+  char *_IO_buf_base;
+  char *_IO_buf_end;
+
+
+  char *_IO_save_base;
+  char *_IO_backup_base;
+  char *_IO_save_end;
+
+  struct _IO_marker *_markers;
+
+  struct _IO_FILE *_chain;
+
+  int _fileno;
+  int _flags2;
+  __off_t _old_offset;
+
+
+  unsigned short _cur_column;
+  signed char _vtable_offset;
+  char _shortbuf[1];
+
+  _IO_lock_t *_lock;
+
+
+
+
+
+
+
+  __off64_t _offset;
+
+  struct _IO_codecvt *_codecvt;
+  struct _IO_wide_data *_wide_data;
+  struct _IO_FILE *_freeres_list;
+  void *_freeres_buf;
+  size_t __pad5;
+  int _mode;
+
+  char _unused2[15 * sizeof (int) - 4 * sizeof (void *) - sizeof (size_t)];
+};
+# 44 "/usr/include/stdio.h" 2 3 4
+# 84 "/usr/include/stdio.h" 3 4
+typedef __fpos_t fpos_t;
+# 133 "/usr/include/stdio.h" 3 4
+# 1 "/usr/include/x86_64-linux-gnu/bits/stdio_lim.h" 1 3 4
+# 134 "/usr/include/stdio.h" 2 3 4
+# 143 "/usr/include/stdio.h" 3 4
+extern FILE *stdin;
+extern FILE *stdout;
+extern FILE *stderr;
+
+
+
+
+
+
+extern int remove (const char *__filename) __attribute__ ((__nothrow__ , __leaf__));
+
+extern int rename (const char *__old, const char *__new) __attribute__ ((__nothrow__ , __leaf__));
+# 178 "/usr/include/stdio.h" 3 4
+extern int fclose (FILE *__stream);
+# 188 "/usr/include/stdio.h" 3 4
+extern FILE *tmpfile (void)
+  __attribute__ ((__malloc__)) __attribute__ ((__malloc__ (fclose, 1))) ;
+# 205 "/usr/include/stdio.h" 3 4
+extern char *tmpnam (char[20]) __attribute__ ((__nothrow__ , __leaf__)) ;
+# 230 "/usr/include/stdio.h" 3 4
+extern int fflush (FILE *__stream);
+# 258 "/usr/include/stdio.h" 3 4
+extern FILE *fopen (const char *__restrict __filename,
+      const char *__restrict __modes)
+  __attribute__ ((__malloc__)) __attribute__ ((__malloc__ (fclose, 1))) ;
+
+
+
+
+extern FILE *freopen (const char *__restrict __filename,
+        const char *__restrict __modes,
+        FILE *__restrict __stream) ;
+# 328 "/usr/include/stdio.h" 3 4
+extern void setbuf (FILE *__restrict __stream, char *__restrict __buf) __attribute__ ((__nothrow__ , __leaf__));
+
+
+
+extern int setvbuf (FILE *__restrict __stream, char *__restrict __buf,
+      int __modes, size_t __n) __attribute__ ((__nothrow__ , __leaf__));
+# 350 "/usr/include/stdio.h" 3 4
+extern int fprintf (FILE *__restrict __stream,
+      const char *__restrict __format, ...);
+
+
+
+
+extern int printf (const char *__restrict __format, ...);
+
+extern int 
+# 358 "/usr/include/stdio.h"
+          _stdio1_noncc_sprintf 
+# 358 "/usr/include/stdio.h" 3 4
+                  (char *__restrict __s,
+      const char *__restrict __format, ...) __attribute__ ((__nothrow__));
+
+
+
+
+
+extern int vfprintf (FILE *__restrict __s, const char *__restrict __format,
+       __gnuc_va_list __arg);
+
+
+
+
+extern int vprintf (const char *__restrict __format, __gnuc_va_list __arg);
+
+extern int vsprintf (char *__restrict __s, const char *__restrict __format,
+       __gnuc_va_list __arg) __attribute__ ((__nothrow__));
+
+
+
+extern int snprintf (char *__restrict __s, size_t __maxlen,
+       const char *__restrict __format, ...)
+     __attribute__ ((__nothrow__)) __attribute__ ((__format__ (__printf__, 3, 4)));
+
+extern int vsnprintf (char *__restrict __s, size_t __maxlen,
+        const char *__restrict __format, __gnuc_va_list __arg)
+     __attribute__ ((__nothrow__)) __attribute__ ((__format__ (__printf__, 3, 0)));
+# 415 "/usr/include/stdio.h" 3 4
+extern int fscanf (FILE *__restrict __stream,
+     const char *__restrict __format, ...) ;
+
+
+
+
+extern int scanf (const char *__restrict __format, ...) ;
+
+extern int sscanf (const char *__restrict __s,
+     const char *__restrict __format, ...) __attribute__ ((__nothrow__ , __leaf__));
+# 434 "/usr/include/stdio.h" 3 4
+extern int fscanf (FILE *__restrict __stream, const char *__restrict __format, ...) __asm__ ("" "__isoc99_fscanf")
+
+                               ;
+extern int scanf (const char *__restrict __format, ...) __asm__ ("" "__isoc99_scanf")
+                              ;
+extern int sscanf (const char *__restrict __s, const char *__restrict __format, ...) __asm__ ("" "__isoc99_sscanf") __attribute__ ((__nothrow__ , __leaf__))
+
+                      ;
+# 459 "/usr/include/stdio.h" 3 4
+extern int vfscanf (FILE *__restrict __s, const char *__restrict __format,
+      __gnuc_va_list __arg)
+     __attribute__ ((__format__ (__scanf__, 2, 0))) ;
+
+
+
+
+
+extern int vscanf (const char *__restrict __format, __gnuc_va_list __arg)
+     __attribute__ ((__format__ (__scanf__, 1, 0))) ;
+
+
+extern int vsscanf (const char *__restrict __s,
+      const char *__restrict __format, __gnuc_va_list __arg)
+     __attribute__ ((__nothrow__ , __leaf__)) __attribute__ ((__format__ (__scanf__, 2, 0)));
+
+
+
+
+
+extern int vfscanf (FILE *__restrict __s, const char *__restrict __format, __gnuc_va_list __arg) __asm__ ("" "__isoc99_vfscanf")
+
+
+
+     __attribute__ ((__format__ (__scanf__, 2, 0))) ;
+extern int vscanf (const char *__restrict __format, __gnuc_va_list __arg) __asm__ ("" "__isoc99_vscanf")
+
+     __attribute__ ((__format__ (__scanf__, 1, 0))) ;
+extern int vsscanf (const char *__restrict __s, const char *__restrict __format, __gnuc_va_list __arg) __asm__ ("" "__isoc99_vsscanf") __attribute__ ((__nothrow__ , __leaf__))
+
+
+
+     __attribute__ ((__format__ (__scanf__, 2, 0)));
+# 513 "/usr/include/stdio.h" 3 4
+extern int fgetc (FILE *__stream);
+extern int getc (FILE *__stream);
+
+
+
+
+
+extern int getchar (void);
+# 549 "/usr/include/stdio.h" 3 4
+extern int fputc (int __c, FILE *__stream);
+extern int putc (int __c, FILE *__stream);
+
+
+
+
+
+extern int putchar (int __c);
+# 592 "/usr/include/stdio.h" 3 4
+extern char *fgets (char *__restrict __s, int __n, FILE *__restrict __stream)
+     __attribute__ ((__access__ (__write_only__, 1, 2)));
+# 605 "/usr/include/stdio.h" 3 4
+extern char *gets (char *__s) __attribute__ ((__deprecated__));
+# 655 "/usr/include/stdio.h" 3 4
+extern int fputs (const char *__restrict __s, FILE *__restrict __stream);
+
+
+
+
+
+extern int puts (const char *__s);
+
+
+
+
+
+
+extern int ungetc (int __c, FILE *__stream);
+
+
+
+
+
+
+extern size_t fread (void *__restrict __ptr, size_t __size,
+       size_t __n, FILE *__restrict __stream) ;
+
+
+
+
+extern size_t fwrite (const void *__restrict __ptr, size_t __size,
+        size_t __n, FILE *__restrict __s);
+# 713 "/usr/include/stdio.h" 3 4
+extern int fseek (FILE *__stream, long int __off, int __whence);
+
+
+
+
+extern long int ftell (FILE *__stream) ;
+
+
+
+
+extern void rewind (FILE *__stream);
+# 760 "/usr/include/stdio.h" 3 4
+extern int fgetpos (FILE *__restrict __stream, fpos_t *__restrict __pos);
+
+
+
+
+extern int fsetpos (FILE *__stream, const fpos_t *__pos);
+# 786 "/usr/include/stdio.h" 3 4
+extern void clearerr (FILE *__stream) __attribute__ ((__nothrow__ , __leaf__));
+
+extern int feof (FILE *__stream) __attribute__ ((__nothrow__ , __leaf__)) ;
+
+extern int ferror (FILE *__stream) __attribute__ ((__nothrow__ , __leaf__)) ;
+# 804 "/usr/include/stdio.h" 3 4
+extern void perror (const char *__s);
+# 885 "/usr/include/stdio.h" 3 4
+extern int __uflow (FILE *);
+extern int __overflow (FILE *, int);
+# 909 "/usr/include/stdio.h" 3 4
+
+# 47 "./stdio.h0" 2
+# 55 "./stdio.h0"
+   
+# 55 "./stdio.h0"
+  extern int sprintf (char *s, const char *format, ...);
+# 36 "./stdc.h" 2
+# 1 "./stdlib.h0" 1
+# 28 "./stdlib.h0"
+# 1 "/usr/include/stdlib.h" 1 3 4
+# 26 "/usr/include/stdlib.h" 3 4
+# 1 "/usr/include/x86_64-linux-gnu/bits/libc-header-start.h" 1 3 4
+# 27 "/usr/include/stdlib.h" 2 3 4
+
+
+
+
+
+# 1 "/usr/lib/gcc/x86_64-linux-gnu/12/include/stddef.h" 1 3 4
+# 33 "/usr/include/stdlib.h" 2 3 4
+
+
+# 59 "/usr/include/stdlib.h" 3 4
+
+# 59 "/usr/include/stdlib.h" 3 4
+typedef struct
+  {
+    int quot;
+    int rem;
+  } div_t;
+
+
+
+typedef struct
+  {
+    long int quot;
+    long int rem;
+  } ldiv_t;
+
+
+
+
+
+__extension__ typedef struct
+  {
+    long long int quot;
+    long long int rem;
+  } lldiv_t;
+# 98 "/usr/include/stdlib.h" 3 4
+extern size_t __ctype_get_mb_cur_max (void) __attribute__ ((__nothrow__ , __leaf__)) ;
+
+
+
+extern double atof (const char *__nptr)
+     __attribute__ ((__nothrow__ , __leaf__)) __attribute__ ((__pure__)) __attribute__ ((__nonnull__ (1))) ;
+
+extern int atoi (const char *__nptr)
+     __attribute__ ((__nothrow__ , __leaf__)) __attribute__ ((__pure__)) __attribute__ ((__nonnull__ (1))) ;
+
+extern long int atol (const char *__nptr)
+     __attribute__ ((__nothrow__ , __leaf__)) __attribute__ ((__pure__)) __attribute__ ((__nonnull__ (1))) ;
+
+
+
+__extension__ extern long long int atoll (const char *__nptr)
+     __attribute__ ((__nothrow__ , __leaf__)) __attribute__ ((__pure__)) __attribute__ ((__nonnull__ (1))) ;
+
+
+
+extern double strtod (const char *__restrict __nptr,
+        char **__restrict __endptr)
+     __attribute__ ((__nothrow__ , __leaf__)) __attribute__ ((__nonnull__ (1)));
+
+
+
+extern float strtof (const char *__restrict __nptr,
+       char **__restrict __endptr) __attribute__ ((__nothrow__ , __leaf__)) __attribute__ ((__nonnull__ (1)));
+
+extern long double strtold (const char *__restrict __nptr,
+       char **__restrict __endptr)
+     __attribute__ ((__nothrow__ , __leaf__)) __attribute__ ((__nonnull__ (1)));
+# 177 "/usr/include/stdlib.h" 3 4
+extern long int strtol (const char *__restrict __nptr,
+   char **__restrict __endptr, int __base)
+     __attribute__ ((__nothrow__ , __leaf__)) __attribute__ ((__nonnull__ (1)));
+
+extern unsigned long int strtoul (const char *__restrict __nptr,
+      char **__restrict __endptr, int __base)
+     __attribute__ ((__nothrow__ , __leaf__)) __attribute__ ((__nonnull__ (1)));
+# 200 "/usr/include/stdlib.h" 3 4
+__extension__
+extern long long int strtoll (const char *__restrict __nptr,
+         char **__restrict __endptr, int __base)
+     __attribute__ ((__nothrow__ , __leaf__)) __attribute__ ((__nonnull__ (1)));
+
+__extension__
+extern unsigned long long int strtoull (const char *__restrict __nptr,
+     char **__restrict __endptr, int __base)
+     __attribute__ ((__nothrow__ , __leaf__)) __attribute__ ((__nonnull__ (1)));
+# 454 "/usr/include/stdlib.h" 3 4
+extern int rand (void) __attribute__ ((__nothrow__ , __leaf__));
+
+extern void srand (unsigned int __seed) __attribute__ ((__nothrow__ , __leaf__));
+# 553 "/usr/include/stdlib.h" 3 4
+extern void *malloc (size_t __size) __attribute__ ((__nothrow__ , __leaf__)) __attribute__ ((__malloc__))
+     __attribute__ ((__alloc_size__ (1))) ;
+
+extern void *calloc (size_t __nmemb, size_t __size)
+     __attribute__ ((__nothrow__ , __leaf__)) __attribute__ ((__malloc__)) __attribute__ ((__alloc_size__ (1, 2))) ;
+
+
+
+
+
+
+extern void *realloc (void *__ptr, size_t __size)
+     __attribute__ ((__nothrow__ , __leaf__)) __attribute__ ((__warn_unused_result__)) __attribute__ ((__alloc_size__ (2)));
+
+
+extern void free (void *__ptr) __attribute__ ((__nothrow__ , __leaf__));
+# 611 "/usr/include/stdlib.h" 3 4
+extern void abort (void) __attribute__ ((__nothrow__ , __leaf__)) __attribute__ ((__noreturn__));
+
+
+
+extern int atexit (void (*__func) (void)) __attribute__ ((__nothrow__ , __leaf__)) __attribute__ ((__nonnull__ (1)));
+# 637 "/usr/include/stdlib.h" 3 4
+extern void exit (int __status) __attribute__ ((__nothrow__ , __leaf__)) __attribute__ ((__noreturn__));
+# 649 "/usr/include/stdlib.h" 3 4
+extern void _Exit (int __status) __attribute__ ((__nothrow__ , __leaf__)) __attribute__ ((__noreturn__));
+
+
+
+
+extern char *getenv (const char *__name) __attribute__ ((__nothrow__ , __leaf__)) __attribute__ ((__nonnull__ (1))) ;
+# 804 "/usr/include/stdlib.h" 3 4
+extern int system (const char *__command) ;
+# 829 "/usr/include/stdlib.h" 3 4
+typedef int (*__compar_fn_t) (const void *, const void *);
+# 841 "/usr/include/stdlib.h" 3 4
+extern void *bsearch (const void *__key, const void *__base,
+        size_t __nmemb, size_t __size, __compar_fn_t __compar)
+     __attribute__ ((__nonnull__ (1, 2, 5))) ;
+
+
+
+
+
+
+
+extern void qsort (void *__base, size_t __nmemb, size_t __size,
+     __compar_fn_t __compar) __attribute__ ((__nonnull__ (1, 4)));
+# 861 "/usr/include/stdlib.h" 3 4
+extern int abs (int __x) __attribute__ ((__nothrow__ , __leaf__)) __attribute__ ((__const__)) ;
+extern long int labs (long int __x) __attribute__ ((__nothrow__ , __leaf__)) __attribute__ ((__const__)) ;
+
+
+__extension__ extern long long int llabs (long long int __x)
+     __attribute__ ((__nothrow__ , __leaf__)) __attribute__ ((__const__)) ;
+
+
+
+
+
+
+extern div_t div (int __numer, int __denom)
+     __attribute__ ((__nothrow__ , __leaf__)) __attribute__ ((__const__)) ;
+extern ldiv_t ldiv (long int __numer, long int __denom)
+     __attribute__ ((__nothrow__ , __leaf__)) __attribute__ ((__const__)) ;
+
+
+__extension__ extern lldiv_t lldiv (long long int __numer,
+        long long int __denom)
+     __attribute__ ((__nothrow__ , __leaf__)) __attribute__ ((__const__)) ;
+# 943 "/usr/include/stdlib.h" 3 4
+extern int mblen (const char *__s, size_t __n) __attribute__ ((__nothrow__ , __leaf__));
+
+
+extern int mbtowc (wchar_t *__restrict __pwc,
+     const char *__restrict __s, size_t __n) __attribute__ ((__nothrow__ , __leaf__));
+
+
+extern int wctomb (char *__s, wchar_t __wchar) __attribute__ ((__nothrow__ , __leaf__));
+
+
+
+extern size_t mbstowcs (wchar_t *__restrict __pwcs,
+   const char *__restrict __s, size_t __n) __attribute__ ((__nothrow__ , __leaf__))
+    __attribute__ ((__access__ (__read_only__, 2)));
+
+extern size_t wcstombs (char *__restrict __s,
+   const wchar_t *__restrict __pwcs, size_t __n)
+     __attribute__ ((__nothrow__ , __leaf__))
+  __attribute__ ((__access__ (__write_only__, 1, 3)))
+  __attribute__ ((__access__ (__read_only__, 2)));
+# 1036 "/usr/include/stdlib.h" 3 4
+# 1 "/usr/include/x86_64-linux-gnu/bits/stdlib-float.h" 1 3 4
+# 1037 "/usr/include/stdlib.h" 2 3 4
+# 1048 "/usr/include/stdlib.h" 3 4
+
+# 29 "./stdlib.h0" 2
+# 37 "./stdc.h" 2
+# 1 "./string.h0" 1
+# 20 "./string.h0"
+# 1 "/usr/include/string.h" 1 3 4
+# 26 "/usr/include/string.h" 3 4
+# 1 "/usr/include/x86_64-linux-gnu/bits/libc-header-start.h" 1 3 4
+# 27 "/usr/include/string.h" 2 3 4
+
+
+
+
+
+
+# 1 "/usr/lib/gcc/x86_64-linux-gnu/12/include/stddef.h" 1 3 4
+# 34 "/usr/include/string.h" 2 3 4
+# 43 "/usr/include/string.h" 3 4
+extern void *memcpy (void *__restrict __dest, const void *__restrict __src,
+       size_t __n) __attribute__ ((__nothrow__ , __leaf__)) __attribute__ ((__nonnull__ (1, 2)));
+
+
+extern void *memmove (void *__dest, const void *__src, size_t __n)
+     __attribute__ ((__nothrow__ , __leaf__)) __attribute__ ((__nonnull__ (1, 2)));
+# 61 "/usr/include/string.h" 3 4
+extern void *memset (void *__s, int __c, size_t __n) __attribute__ ((__nothrow__ , __leaf__)) __attribute__ ((__nonnull__ (1)));
+
+
+extern int memcmp (const void *__s1, const void *__s2, size_t __n)
+     __attribute__ ((__nothrow__ , __leaf__)) __attribute__ ((__pure__)) __attribute__ ((__nonnull__ (1, 2)));
+# 80 "/usr/include/string.h" 3 4
+extern int __memcmpeq (const void *__s1, const void *__s2, size_t __n)
+     __attribute__ ((__nothrow__ , __leaf__)) __attribute__ ((__pure__)) __attribute__ ((__nonnull__ (1, 2)));
+# 107 "/usr/include/string.h" 3 4
+extern void *memchr (const void *__s, int __c, size_t __n)
+      __attribute__ ((__nothrow__ , __leaf__)) __attribute__ ((__pure__)) __attribute__ ((__nonnull__ (1)));
+# 141 "/usr/include/string.h" 3 4
+extern char *strcpy (char *__restrict __dest, const char *__restrict __src)
+     __attribute__ ((__nothrow__ , __leaf__)) __attribute__ ((__nonnull__ (1, 2)));
+
+extern char *strncpy (char *__restrict __dest,
+        const char *__restrict __src, size_t __n)
+     __attribute__ ((__nothrow__ , __leaf__)) __attribute__ ((__nonnull__ (1, 2)));
+
+
+extern char *strcat (char *__restrict __dest, const char *__restrict __src)
+     __attribute__ ((__nothrow__ , __leaf__)) __attribute__ ((__nonnull__ (1, 2)));
+
+extern char *strncat (char *__restrict __dest, const char *__restrict __src,
+        size_t __n) __attribute__ ((__nothrow__ , __leaf__)) __attribute__ ((__nonnull__ (1, 2)));
+
+
+extern int strcmp (const char *__s1, const char *__s2)
+     __attribute__ ((__nothrow__ , __leaf__)) __attribute__ ((__pure__)) __attribute__ ((__nonnull__ (1, 2)));
+
+extern int strncmp (const char *__s1, const char *__s2, size_t __n)
+     __attribute__ ((__nothrow__ , __leaf__)) __attribute__ ((__pure__)) __attribute__ ((__nonnull__ (1, 2)));
+
+
+extern int strcoll (const char *__s1, const char *__s2)
+     __attribute__ ((__nothrow__ , __leaf__)) __attribute__ ((__pure__)) __attribute__ ((__nonnull__ (1, 2)));
+
+extern size_t strxfrm (char *__restrict __dest,
+         const char *__restrict __src, size_t __n)
+    __attribute__ ((__nothrow__ , __leaf__)) __attribute__ ((__nonnull__ (2))) __attribute__ ((__access__ (__write_only__, 1, 3)));
+# 246 "/usr/include/string.h" 3 4
+extern char *strchr (const char *__s, int __c)
+     __attribute__ ((__nothrow__ , __leaf__)) __attribute__ ((__pure__)) __attribute__ ((__nonnull__ (1)));
+# 273 "/usr/include/string.h" 3 4
+extern char *strrchr (const char *__s, int __c)
+     __attribute__ ((__nothrow__ , __leaf__)) __attribute__ ((__pure__)) __attribute__ ((__nonnull__ (1)));
+# 293 "/usr/include/string.h" 3 4
+extern size_t strcspn (const char *__s, const char *__reject)
+     __attribute__ ((__nothrow__ , __leaf__)) __attribute__ ((__pure__)) __attribute__ ((__nonnull__ (1, 2)));
+
+
+extern size_t strspn (const char *__s, const char *__accept)
+     __attribute__ ((__nothrow__ , __leaf__)) __attribute__ ((__pure__)) __attribute__ ((__nonnull__ (1, 2)));
+# 323 "/usr/include/string.h" 3 4
+extern char *strpbrk (const char *__s, const char *__accept)
+     __attribute__ ((__nothrow__ , __leaf__)) __attribute__ ((__pure__)) __attribute__ ((__nonnull__ (1, 2)));
+# 350 "/usr/include/string.h" 3 4
+extern char *strstr (const char *__haystack, const char *__needle)
+     __attribute__ ((__nothrow__ , __leaf__)) __attribute__ ((__pure__)) __attribute__ ((__nonnull__ (1, 2)));
+
+
+
+
+extern char *strtok (char *__restrict __s, const char *__restrict __delim)
+     __attribute__ ((__nothrow__ , __leaf__)) __attribute__ ((__nonnull__ (2)));
+
+
+
+extern char *__strtok_r (char *__restrict __s,
+    const char *__restrict __delim,
+    char **__restrict __save_ptr)
+     __attribute__ ((__nothrow__ , __leaf__)) __attribute__ ((__nonnull__ (2, 3)));
+# 407 "/usr/include/string.h" 3 4
+extern size_t strlen (const char *__s)
+     __attribute__ ((__nothrow__ , __leaf__)) __attribute__ ((__pure__)) __attribute__ ((__nonnull__ (1)));
+# 419 "/usr/include/string.h" 3 4
+extern char *strerror (int __errnum) __attribute__ ((__nothrow__ , __leaf__));
+# 539 "/usr/include/string.h" 3 4
+
+# 21 "./string.h0" 2
+# 38 "./stdc.h" 2
+# 1 "./time.h0" 1
+# 18 "./time.h0"
+# 1 "/usr/include/time.h" 1 3 4
+# 29 "/usr/include/time.h" 3 4
+# 1 "/usr/lib/gcc/x86_64-linux-gnu/12/include/stddef.h" 1 3 4
+# 30 "/usr/include/time.h" 2 3 4
+
+
+
+# 1 "/usr/include/x86_64-linux-gnu/bits/time.h" 1 3 4
+# 34 "/usr/include/time.h" 2 3 4
+
+
+
+# 1 "/usr/include/x86_64-linux-gnu/bits/types/clock_t.h" 1 3 4
+
+
+
+
+
+
+typedef __clock_t clock_t;
+# 38 "/usr/include/time.h" 2 3 4
+# 1 "/usr/include/x86_64-linux-gnu/bits/types/time_t.h" 1 3 4
+# 10 "/usr/include/x86_64-linux-gnu/bits/types/time_t.h" 3 4
+typedef __time_t time_t;
+# 39 "/usr/include/time.h" 2 3 4
+# 1 "/usr/include/x86_64-linux-gnu/bits/types/struct_tm.h" 1 3 4
+
+
+
+
+
+
+struct tm
+{
+  int tm_sec;
+  int tm_min;
+  int tm_hour;
+  int tm_mday;
+  int tm_mon;
+  int tm_year;
+  int tm_wday;
+  int tm_yday;
+  int tm_isdst;
+
+
+
+
+
+  long int __tm_gmtoff;
+  const char *__tm_zone;
+
+};
+# 40 "/usr/include/time.h" 2 3 4
+# 68 "/usr/include/time.h" 3 4
+
+
+
+
+extern clock_t clock (void) __attribute__ ((__nothrow__ , __leaf__));
+
+
+
+extern time_t time (time_t *__timer) __attribute__ ((__nothrow__ , __leaf__));
+
+
+extern double difftime (time_t __time1, time_t __time0)
+     __attribute__ ((__nothrow__ , __leaf__)) __attribute__ ((__const__));
+
+
+extern time_t mktime (struct tm *__tp) __attribute__ ((__nothrow__ , __leaf__));
+# 100 "/usr/include/time.h" 3 4
+extern size_t strftime (char *__restrict __s, size_t __maxsize,
+   const char *__restrict __format,
+   const struct tm *__restrict __tp) __attribute__ ((__nothrow__ , __leaf__));
+# 132 "/usr/include/time.h" 3 4
+extern struct tm *gmtime (const time_t *__timer) __attribute__ ((__nothrow__ , __leaf__));
+
+
+
+extern struct tm *localtime (const time_t *__timer) __attribute__ ((__nothrow__ , __leaf__));
+# 179 "/usr/include/time.h" 3 4
+extern char *asctime (const struct tm *__tp) __attribute__ ((__nothrow__ , __leaf__));
+
+
+
+extern char *ctime (const time_t *__timer) __attribute__ ((__nothrow__ , __leaf__));
+# 217 "/usr/include/time.h" 3 4
+extern char *__tzname[2];
+extern int __daylight;
+extern long int __timezone;
+# 452 "/usr/include/time.h" 3 4
+
+# 19 "./time.h0" 2
+# 39 "./stdc.h" 2
+# 13 "./cport.h" 2
+# 312 "./cport.h"
+
+# 312 "./cport.h"
+typedef unsigned char UByte;
+typedef unsigned short UShort;
+typedef unsigned long ULong;
+
+
+
+
+
+
+  typedef long AInt;
+  typedef unsigned long UAInt;
+# 334 "./cport.h"
+typedef unsigned int UNotAsLong;
+
+
+
+
+
+
+typedef unsigned short U16;
+typedef int Bool;
+typedef UAInt Hash;
+typedef size_t Length;
+typedef ULong Offset;
+typedef ULong Millisec;
+# 358 "./cport.h"
+   typedef void *Pointer;
+   typedef const void *ConstPointer;
+
+
+typedef char *String;
+typedef const char *CString;
+
+typedef char *IOMode;
+# 374 "./cport.h"
+  typedef float SFloat;
+
+typedef double DFloat;
+
+typedef double MostAlignedType;
+# 519 "./cport.h"
+extern Bool ptrEqualFn (Pointer, Pointer);
+extern Hash ptrHashFn (Pointer p);
+# 13 "./list.h" 2
+# 1 "./ostream.h" 1
+
+
+
+# 1 "./buffer.h" 1
+# 16 "./buffer.h"
+typedef struct buffer *Buffer;
+
+extern Buffer bufNew (void);
+extern void bufFree (Buffer);
+
+extern Buffer bufCapture (String, Length);
+
+extern String bufLiberate (Buffer);
+
+
+extern UByte * bufData (Buffer s);
+extern String bufChars (Buffer s);
+extern Length bufSize (Buffer s);
+extern Length bufPosition (Buffer s);
+extern void bufSetPosition (Buffer s, Length n);
+extern void bufSkip (Buffer s, Length n);
+
+extern void bufNeed (Buffer, Length n);
+
+
+extern void bufGrow (Buffer, Length inc);
+
+
+extern int bufAdd1 (Buffer b, int c);
+
+
+extern void bufAddn (Buffer, const char *s, Length n);
+
+
+extern String bufGetn (Buffer, Length n);
+
+
+extern String bufGets (Buffer);
+
+
+extern int bufPutc (Buffer, int c);
+
+
+extern int bufPutcTimes(Buffer b, int c, int n);
+
+
+extern int bufPuts (Buffer, const char *s);
+
+
+extern int bufPuti (Buffer, int i);
+
+
+extern int bufPrintf (Buffer, const char *fmt, ...);
+extern int bufVPrintf (Buffer, const char *fmt, va_list);
+
+
+extern int bufPrint (FILE *, Buffer);
+
+
+
+
+
+
+extern void bufStart (Buffer b);
+extern UByte bufGet1 (Buffer b);
+extern void bufBack1 (Buffer b);
+extern UByte bufNext1 (Buffer b);
+# 92 "./buffer.h"
+extern void bufPutChars (Buffer buf, char const *s, Length cc);
+extern void bufGetChars (Buffer buf, char *s, Length cc);
+
+
+
+
+
+extern void bufPutByte (Buffer b, UByte c);
+extern void bufPutHInt (Buffer b, UShort c);
+extern void bufPutSInt (Buffer b, ULong c);
+extern Bool bufIsSInt (long i);
+
+extern UByte bufGetByte (Buffer b);
+extern UShort bufGetHInt (Buffer b);
+extern ULong bufGetSInt (Buffer b);
+
+
+extern UByte bufRdUByte (Buffer buf);
+extern UShort bufRdUShort (Buffer buf);
+extern ULong bufRdULong (Buffer buf);
+
+extern int bufWrUByte (Buffer buf, UByte b);
+extern int bufWrUShort (Buffer buf, UShort s);
+extern int bufWrULong (Buffer buf, ULong l);
+
+
+extern SFloat bufRdSFloat (Buffer buf);
+extern DFloat bufRdDFloat (Buffer buf);
+
+extern int bufWrSFloat (Buffer buf, SFloat s);
+extern int bufWrDFloat (Buffer buf, DFloat d);
+
+
+extern String bufRdChars (Buffer buf, int cc);
+extern int bufWrChars (Buffer buf, int cc, String s);
+
+
+extern String bufRdString (Buffer buf);
+extern int bufWrString (Buffer buf, String s);
+
+
+extern String bufGetString (Buffer);
+
+
+extern Buffer bufRdBuffer (Buffer buf);
+extern int bufWrBuffer (Buffer buf, Buffer b);
+# 5 "./ostream.h" 2
+
+
+typedef int (*OStreamPutFun) (CString s, int n);
+
+typedef struct ostream *OStream;
+
+typedef void OstWriteCharFn (OStream o,char c);
+typedef int OstWriteStringFn (OStream o, const char *str, int n);
+typedef void OstCloseFn (OStream o);
+
+typedef struct ostreamOps {
+ OstWriteCharFn *writeCharFn;
+ OstWriteStringFn *writeStringFn;
+ OstCloseFn *closeFn;
+} *OStreamOps;
+
+struct ostream {
+ OStreamOps ops;
+ union {
+  Pointer obj;
+  OStreamPutFun fun;
+ } data;
+};
+
+extern OStream ostreamNewFrBuffer (Buffer b);
+extern OStream ostreamNewFrFile (FILE *);
+extern void ostreamInitFrFile (OStream, FILE *);
+
+extern OStream ostreamNewFrDevNull (void);
+extern void ostreamFree (OStream);
+
+extern int ostreamWrite (OStream o, const char *s, int n);
+extern void ostreamWriteChar (OStream o, char c);
+extern void ostreamClose (OStream o);
+# 14 "./list.h" 2
+# 170 "./list.h"
+typedef struct PointerListCons { Pointer first; struct PointerListCons *rest; } *PointerList; struct Pointer_listOpsStruct { PointerList (*Cons) (Pointer, PointerList); PointerList (*Singleton) (Pointer); PointerList (*List) (int n, ...); PointerList (*Listv) (va_list argp); PointerList (*ListNull) (Pointer, ...); Bool (*Equal) (PointerList, PointerList, Bool (*f) (Pointer, Pointer)); Pointer (*Find) (PointerList, Pointer, Bool(*eq)(Pointer,Pointer) , int *); PointerList (*FreeCons) (PointerList); void (*Free) (PointerList); PointerList (*FreeTo) (PointerList, PointerList); void (*FreeDeeply) (PointerList, void (*f)(Pointer)); PointerList (*FreeDeeplyTo) (PointerList, PointerList, void (*f) (Pointer) ); PointerList (*FreeIfSat) (PointerList, void (*f)(Pointer), Bool (*s)(Pointer)); Pointer (*Elt) (PointerList, Length); PointerList (*Drop) (PointerList, Length); PointerList (*LastCons) (PointerList); Length (*_Length) (PointerList); Bool (*IsLength) (PointerList, Length); Bool (*IsShorter) (PointerList, Length); Bool (*IsLonger) (PointerList, Length); PointerList (*Copy) (PointerList); PointerList (*CopyTo) (PointerList, PointerList); PointerList (*CopyDeeply) (PointerList, Pointer (*)(Pointer)); PointerList (*CopyDeeplyTo) (PointerList, PointerList, Pointer (*)(Pointer)); PointerList (*Map) (Pointer (*f)(Pointer), PointerList); PointerList (*NMap) (Pointer (*f)(Pointer), PointerList); PointerList (*Reverse) (PointerList); PointerList (*NReverse) (PointerList); PointerList (*Concat) (PointerList, PointerList); PointerList (*NConcat) (PointerList, PointerList); Bool (*Memq) (PointerList, Pointer); Bool (*Member) (PointerList, Pointer, Bool(*eq)(Pointer,Pointer) ); Bool (*ContainsAllq) (PointerList, PointerList); int (*Posq) (PointerList, Pointer); int (*Position) (PointerList, Pointer, Bool(*eq)(Pointer,Pointer) ); PointerList (*NRemove) (PointerList, Pointer, Bool(*eq)(Pointer,Pointer) ); void (*FillVector) (Pointer *, PointerList); int (*Print) (FILE *, PointerList, int (*pr)(FILE *, Pointer) ); int (*GPrint) (FILE *, PointerList, int (*pr)(FILE *, Pointer), char *l,char *m,char *r); int (*Format) (OStream, CString, PointerList); }; extern struct Pointer_listOpsStruct const *Pointer_listPointer;
+extern const struct Pointer_listOpsStruct ptrlistOps;
+# 19 "./axlgen.h" 2
+# 40 "./axlgen.h"
+typedef struct fileName * FileName;
+typedef ULong SrcPos;
+typedef struct sposCell * SrcPosCell;
+typedef union sposStack SrcPosStack;
+typedef union SExprUnion * SExpr;
+typedef struct table * Table;
+typedef struct bint * BInt;
+typedef union ccode * CCode;
+
+
+typedef struct FileNameListCons { FileName first; struct FileNameListCons *rest; } *FileNameList; struct FileName_listOpsStruct { FileNameList (*Cons) (FileName, FileNameList); FileNameList (*Singleton) (FileName); FileNameList (*List) (int n, ...); FileNameList (*Listv) (va_list argp); FileNameList (*ListNull) (FileName, ...); Bool (*Equal) (FileNameList, FileNameList, Bool (*f) (FileName, FileName)); FileName (*Find) (FileNameList, FileName, Bool(*eq)(FileName,FileName) , int *); FileNameList (*FreeCons) (FileNameList); void (*Free) (FileNameList); FileNameList (*FreeTo) (FileNameList, FileNameList); void (*FreeDeeply) (FileNameList, void (*f)(FileName)); FileNameList (*FreeDeeplyTo) (FileNameList, FileNameList, void (*f) (FileName) ); FileNameList (*FreeIfSat) (FileNameList, void (*f)(FileName), Bool (*s)(FileName)); FileName (*Elt) (FileNameList, Length); FileNameList (*Drop) (FileNameList, Length); FileNameList (*LastCons) (FileNameList); Length (*_Length) (FileNameList); Bool (*IsLength) (FileNameList, Length); Bool (*IsShorter) (FileNameList, Length); Bool (*IsLonger) (FileNameList, Length); FileNameList (*Copy) (FileNameList); FileNameList (*CopyTo) (FileNameList, FileNameList); FileNameList (*CopyDeeply) (FileNameList, FileName (*)(FileName)); FileNameList (*CopyDeeplyTo) (FileNameList, FileNameList, FileName (*)(FileName)); FileNameList (*Map) (FileName (*f)(FileName), FileNameList); FileNameList (*NMap) (FileName (*f)(FileName), FileNameList); FileNameList (*Reverse) (FileNameList); FileNameList (*NReverse) (FileNameList); FileNameList (*Concat) (FileNameList, FileNameList); FileNameList (*NConcat) (FileNameList, FileNameList); Bool (*Memq) (FileNameList, FileName); Bool (*Member) (FileNameList, FileName, Bool(*eq)(FileName,FileName) ); Bool (*ContainsAllq) (FileNameList, FileNameList); int (*Posq) (FileNameList, FileName); int (*Position) (FileNameList, FileName, Bool(*eq)(FileName,FileName) ); FileNameList (*NRemove) (FileNameList, FileName, Bool(*eq)(FileName,FileName) ); void (*FillVector) (FileName *, FileNameList); int (*Print) (FILE *, FileNameList, int (*pr)(FILE *, FileName) ); int (*GPrint) (FILE *, FileNameList, int (*pr)(FILE *, FileName), char *l,char *m,char *r); int (*Format) (OStream, CString, FileNameList); }; extern struct FileName_listOpsStruct const *FileName_listPointer;
+# 20 "./axlobs.h" 2
+
+
+
+
+typedef struct srcLine * SrcLine;
+typedef struct symbol * Symbol;
+typedef struct comsg * CoMsg;
+typedef struct token * Token;
+typedef struct doc * Doc;
+typedef union abSyn * AbSyn;
+typedef union abSyn * Sefo;
+typedef struct abBind * AbBind;
+typedef struct abSub * AbSub;
+typedef struct abLogic * AbLogic;
+typedef struct fvar * FreeVar;
+typedef struct syme * Syme;
+typedef struct tform * TForm;
+typedef struct tposs * TPoss;
+typedef struct tconst * TConst;
+typedef struct tqual * TQual;
+typedef union foam * Foam;
+typedef struct foamBox * FoamBox;
+typedef struct lib * Lib;
+typedef struct archive * Archive;
+typedef struct ar_entry * ArEntry;
+typedef struct stabEntry * StabEntry;
+typedef struct stabLevel * StabLevel;
+typedef struct StabLevelListCons * Stab;
+typedef struct optInfo * OptInfo;
+typedef struct flowGraph * FlowGraph;
+typedef struct basicBlock * BBlock;
+typedef struct dflowInfo * DFlowInfo;
+typedef struct depDag * DepDag;
+typedef ULong SefoMark;
+
+typedef struct _UdInfo * UdInfo;
+typedef struct _ExpInfo * ExpInfo;
+typedef struct _InvInfo * InvInfo;
+typedef union _SImpl * SImpl;
+
+
+typedef struct foamuses_struct * FoamUses;
+typedef struct ssa_struct * SSA;
+typedef struct domtree_struct * DominatorTree;
+
+typedef struct foreign_origin * ForeignOrigin;
+
+
+
+
+
+
+typedef struct HashListCons { Hash first; struct HashListCons *rest; } *HashList; struct Hash_listOpsStruct { HashList (*Cons) (Hash, HashList); HashList (*Singleton) (Hash); HashList (*List) (int n, ...); HashList (*Listv) (va_list argp); HashList (*ListNull) (Hash, ...); Bool (*Equal) (HashList, HashList, Bool (*f) (Hash, Hash)); Hash (*Find) (HashList, Hash, Bool(*eq)(Hash,Hash) , int *); HashList (*FreeCons) (HashList); void (*Free) (HashList); HashList (*FreeTo) (HashList, HashList); void (*FreeDeeply) (HashList, void (*f)(Hash)); HashList (*FreeDeeplyTo) (HashList, HashList, void (*f) (Hash) ); HashList (*FreeIfSat) (HashList, void (*f)(Hash), Bool (*s)(Hash)); Hash (*Elt) (HashList, Length); HashList (*Drop) (HashList, Length); HashList (*LastCons) (HashList); Length (*_Length) (HashList); Bool (*IsLength) (HashList, Length); Bool (*IsShorter) (HashList, Length); Bool (*IsLonger) (HashList, Length); HashList (*Copy) (HashList); HashList (*CopyTo) (HashList, HashList); HashList (*CopyDeeply) (HashList, Hash (*)(Hash)); HashList (*CopyDeeplyTo) (HashList, HashList, Hash (*)(Hash)); HashList (*Map) (Hash (*f)(Hash), HashList); HashList (*NMap) (Hash (*f)(Hash), HashList); HashList (*Reverse) (HashList); HashList (*NReverse) (HashList); HashList (*Concat) (HashList, HashList); HashList (*NConcat) (HashList, HashList); Bool (*Memq) (HashList, Hash); Bool (*Member) (HashList, Hash, Bool(*eq)(Hash,Hash) ); Bool (*ContainsAllq) (HashList, HashList); int (*Posq) (HashList, Hash); int (*Position) (HashList, Hash, Bool(*eq)(Hash,Hash) ); HashList (*NRemove) (HashList, Hash, Bool(*eq)(Hash,Hash) ); void (*FillVector) (Hash *, HashList); int (*Print) (FILE *, HashList, int (*pr)(FILE *, Hash) ); int (*GPrint) (FILE *, HashList, int (*pr)(FILE *, Hash), char *l,char *m,char *r); int (*Format) (OStream, CString, HashList); }; extern struct Hash_listOpsStruct const *Hash_listPointer;
+typedef struct SymbolListCons { Symbol first; struct SymbolListCons *rest; } *SymbolList; struct Symbol_listOpsStruct { SymbolList (*Cons) (Symbol, SymbolList); SymbolList (*Singleton) (Symbol); SymbolList (*List) (int n, ...); SymbolList (*Listv) (va_list argp); SymbolList (*ListNull) (Symbol, ...); Bool (*Equal) (SymbolList, SymbolList, Bool (*f) (Symbol, Symbol)); Symbol (*Find) (SymbolList, Symbol, Bool(*eq)(Symbol,Symbol) , int *); SymbolList (*FreeCons) (SymbolList); void (*Free) (SymbolList); SymbolList (*FreeTo) (SymbolList, SymbolList); void (*FreeDeeply) (SymbolList, void (*f)(Symbol)); SymbolList (*FreeDeeplyTo) (SymbolList, SymbolList, void (*f) (Symbol) ); SymbolList (*FreeIfSat) (SymbolList, void (*f)(Symbol), Bool (*s)(Symbol)); Symbol (*Elt) (SymbolList, Length); SymbolList (*Drop) (SymbolList, Length); SymbolList (*LastCons) (SymbolList); Length (*_Length) (SymbolList); Bool (*IsLength) (SymbolList, Length); Bool (*IsShorter) (SymbolList, Length); Bool (*IsLonger) (SymbolList, Length); SymbolList (*Copy) (SymbolList); SymbolList (*CopyTo) (SymbolList, SymbolList); SymbolList (*CopyDeeply) (SymbolList, Symbol (*)(Symbol)); SymbolList (*CopyDeeplyTo) (SymbolList, SymbolList, Symbol (*)(Symbol)); SymbolList (*Map) (Symbol (*f)(Symbol), SymbolList); SymbolList (*NMap) (Symbol (*f)(Symbol), SymbolList); SymbolList (*Reverse) (SymbolList); SymbolList (*NReverse) (SymbolList); SymbolList (*Concat) (SymbolList, SymbolList); SymbolList (*NConcat) (SymbolList, SymbolList); Bool (*Memq) (SymbolList, Symbol); Bool (*Member) (SymbolList, Symbol, Bool(*eq)(Symbol,Symbol) ); Bool (*ContainsAllq) (SymbolList, SymbolList); int (*Posq) (SymbolList, Symbol); int (*Position) (SymbolList, Symbol, Bool(*eq)(Symbol,Symbol) ); SymbolList (*NRemove) (SymbolList, Symbol, Bool(*eq)(Symbol,Symbol) ); void (*FillVector) (Symbol *, SymbolList); int (*Print) (FILE *, SymbolList, int (*pr)(FILE *, Symbol) ); int (*GPrint) (FILE *, SymbolList, int (*pr)(FILE *, Symbol), char *l,char *m,char *r); int (*Format) (OStream, CString, SymbolList); }; extern struct Symbol_listOpsStruct const *Symbol_listPointer;
+typedef struct SExprListCons { SExpr first; struct SExprListCons *rest; } *SExprList; struct SExpr_listOpsStruct { SExprList (*Cons) (SExpr, SExprList); SExprList (*Singleton) (SExpr); SExprList (*List) (int n, ...); SExprList (*Listv) (va_list argp); SExprList (*ListNull) (SExpr, ...); Bool (*Equal) (SExprList, SExprList, Bool (*f) (SExpr, SExpr)); SExpr (*Find) (SExprList, SExpr, Bool(*eq)(SExpr,SExpr) , int *); SExprList (*FreeCons) (SExprList); void (*Free) (SExprList); SExprList (*FreeTo) (SExprList, SExprList); void (*FreeDeeply) (SExprList, void (*f)(SExpr)); SExprList (*FreeDeeplyTo) (SExprList, SExprList, void (*f) (SExpr) ); SExprList (*FreeIfSat) (SExprList, void (*f)(SExpr), Bool (*s)(SExpr)); SExpr (*Elt) (SExprList, Length); SExprList (*Drop) (SExprList, Length); SExprList (*LastCons) (SExprList); Length (*_Length) (SExprList); Bool (*IsLength) (SExprList, Length); Bool (*IsShorter) (SExprList, Length); Bool (*IsLonger) (SExprList, Length); SExprList (*Copy) (SExprList); SExprList (*CopyTo) (SExprList, SExprList); SExprList (*CopyDeeply) (SExprList, SExpr (*)(SExpr)); SExprList (*CopyDeeplyTo) (SExprList, SExprList, SExpr (*)(SExpr)); SExprList (*Map) (SExpr (*f)(SExpr), SExprList); SExprList (*NMap) (SExpr (*f)(SExpr), SExprList); SExprList (*Reverse) (SExprList); SExprList (*NReverse) (SExprList); SExprList (*Concat) (SExprList, SExprList); SExprList (*NConcat) (SExprList, SExprList); Bool (*Memq) (SExprList, SExpr); Bool (*Member) (SExprList, SExpr, Bool(*eq)(SExpr,SExpr) ); Bool (*ContainsAllq) (SExprList, SExprList); int (*Posq) (SExprList, SExpr); int (*Position) (SExprList, SExpr, Bool(*eq)(SExpr,SExpr) ); SExprList (*NRemove) (SExprList, SExpr, Bool(*eq)(SExpr,SExpr) ); void (*FillVector) (SExpr *, SExprList); int (*Print) (FILE *, SExprList, int (*pr)(FILE *, SExpr) ); int (*GPrint) (FILE *, SExprList, int (*pr)(FILE *, SExpr), char *l,char *m,char *r); int (*Format) (OStream, CString, SExprList); }; extern struct SExpr_listOpsStruct const *SExpr_listPointer;
+
+typedef struct CoMsgListCons { CoMsg first; struct CoMsgListCons *rest; } *CoMsgList; struct CoMsg_listOpsStruct { CoMsgList (*Cons) (CoMsg, CoMsgList); CoMsgList (*Singleton) (CoMsg); CoMsgList (*List) (int n, ...); CoMsgList (*Listv) (va_list argp); CoMsgList (*ListNull) (CoMsg, ...); Bool (*Equal) (CoMsgList, CoMsgList, Bool (*f) (CoMsg, CoMsg)); CoMsg (*Find) (CoMsgList, CoMsg, Bool(*eq)(CoMsg,CoMsg) , int *); CoMsgList (*FreeCons) (CoMsgList); void (*Free) (CoMsgList); CoMsgList (*FreeTo) (CoMsgList, CoMsgList); void (*FreeDeeply) (CoMsgList, void (*f)(CoMsg)); CoMsgList (*FreeDeeplyTo) (CoMsgList, CoMsgList, void (*f) (CoMsg) ); CoMsgList (*FreeIfSat) (CoMsgList, void (*f)(CoMsg), Bool (*s)(CoMsg)); CoMsg (*Elt) (CoMsgList, Length); CoMsgList (*Drop) (CoMsgList, Length); CoMsgList (*LastCons) (CoMsgList); Length (*_Length) (CoMsgList); Bool (*IsLength) (CoMsgList, Length); Bool (*IsShorter) (CoMsgList, Length); Bool (*IsLonger) (CoMsgList, Length); CoMsgList (*Copy) (CoMsgList); CoMsgList (*CopyTo) (CoMsgList, CoMsgList); CoMsgList (*CopyDeeply) (CoMsgList, CoMsg (*)(CoMsg)); CoMsgList (*CopyDeeplyTo) (CoMsgList, CoMsgList, CoMsg (*)(CoMsg)); CoMsgList (*Map) (CoMsg (*f)(CoMsg), CoMsgList); CoMsgList (*NMap) (CoMsg (*f)(CoMsg), CoMsgList); CoMsgList (*Reverse) (CoMsgList); CoMsgList (*NReverse) (CoMsgList); CoMsgList (*Concat) (CoMsgList, CoMsgList); CoMsgList (*NConcat) (CoMsgList, CoMsgList); Bool (*Memq) (CoMsgList, CoMsg); Bool (*Member) (CoMsgList, CoMsg, Bool(*eq)(CoMsg,CoMsg) ); Bool (*ContainsAllq) (CoMsgList, CoMsgList); int (*Posq) (CoMsgList, CoMsg); int (*Position) (CoMsgList, CoMsg, Bool(*eq)(CoMsg,CoMsg) ); CoMsgList (*NRemove) (CoMsgList, CoMsg, Bool(*eq)(CoMsg,CoMsg) ); void (*FillVector) (CoMsg *, CoMsgList); int (*Print) (FILE *, CoMsgList, int (*pr)(FILE *, CoMsg) ); int (*GPrint) (FILE *, CoMsgList, int (*pr)(FILE *, CoMsg), char *l,char *m,char *r); int (*Format) (OStream, CString, CoMsgList); }; extern struct CoMsg_listOpsStruct const *CoMsg_listPointer;
+typedef struct SrcLineListCons { SrcLine first; struct SrcLineListCons *rest; } *SrcLineList; struct SrcLine_listOpsStruct { SrcLineList (*Cons) (SrcLine, SrcLineList); SrcLineList (*Singleton) (SrcLine); SrcLineList (*List) (int n, ...); SrcLineList (*Listv) (va_list argp); SrcLineList (*ListNull) (SrcLine, ...); Bool (*Equal) (SrcLineList, SrcLineList, Bool (*f) (SrcLine, SrcLine)); SrcLine (*Find) (SrcLineList, SrcLine, Bool(*eq)(SrcLine,SrcLine) , int *); SrcLineList (*FreeCons) (SrcLineList); void (*Free) (SrcLineList); SrcLineList (*FreeTo) (SrcLineList, SrcLineList); void (*FreeDeeply) (SrcLineList, void (*f)(SrcLine)); SrcLineList (*FreeDeeplyTo) (SrcLineList, SrcLineList, void (*f) (SrcLine) ); SrcLineList (*FreeIfSat) (SrcLineList, void (*f)(SrcLine), Bool (*s)(SrcLine)); SrcLine (*Elt) (SrcLineList, Length); SrcLineList (*Drop) (SrcLineList, Length); SrcLineList (*LastCons) (SrcLineList); Length (*_Length) (SrcLineList); Bool (*IsLength) (SrcLineList, Length); Bool (*IsShorter) (SrcLineList, Length); Bool (*IsLonger) (SrcLineList, Length); SrcLineList (*Copy) (SrcLineList); SrcLineList (*CopyTo) (SrcLineList, SrcLineList); SrcLineList (*CopyDeeply) (SrcLineList, SrcLine (*)(SrcLine)); SrcLineList (*CopyDeeplyTo) (SrcLineList, SrcLineList, SrcLine (*)(SrcLine)); SrcLineList (*Map) (SrcLine (*f)(SrcLine), SrcLineList); SrcLineList (*NMap) (SrcLine (*f)(SrcLine), SrcLineList); SrcLineList (*Reverse) (SrcLineList); SrcLineList (*NReverse) (SrcLineList); SrcLineList (*Concat) (SrcLineList, SrcLineList); SrcLineList (*NConcat) (SrcLineList, SrcLineList); Bool (*Memq) (SrcLineList, SrcLine); Bool (*Member) (SrcLineList, SrcLine, Bool(*eq)(SrcLine,SrcLine) ); Bool (*ContainsAllq) (SrcLineList, SrcLineList); int (*Posq) (SrcLineList, SrcLine); int (*Position) (SrcLineList, SrcLine, Bool(*eq)(SrcLine,SrcLine) ); SrcLineList (*NRemove) (SrcLineList, SrcLine, Bool(*eq)(SrcLine,SrcLine) ); void (*FillVector) (SrcLine *, SrcLineList); int (*Print) (FILE *, SrcLineList, int (*pr)(FILE *, SrcLine) ); int (*GPrint) (FILE *, SrcLineList, int (*pr)(FILE *, SrcLine), char *l,char *m,char *r); int (*Format) (OStream, CString, SrcLineList); }; extern struct SrcLine_listOpsStruct const *SrcLine_listPointer;
+typedef struct TokenListCons { Token first; struct TokenListCons *rest; } *TokenList; struct Token_listOpsStruct { TokenList (*Cons) (Token, TokenList); TokenList (*Singleton) (Token); TokenList (*List) (int n, ...); TokenList (*Listv) (va_list argp); TokenList (*ListNull) (Token, ...); Bool (*Equal) (TokenList, TokenList, Bool (*f) (Token, Token)); Token (*Find) (TokenList, Token, Bool(*eq)(Token,Token) , int *); TokenList (*FreeCons) (TokenList); void (*Free) (TokenList); TokenList (*FreeTo) (TokenList, TokenList); void (*FreeDeeply) (TokenList, void (*f)(Token)); TokenList (*FreeDeeplyTo) (TokenList, TokenList, void (*f) (Token) ); TokenList (*FreeIfSat) (TokenList, void (*f)(Token), Bool (*s)(Token)); Token (*Elt) (TokenList, Length); TokenList (*Drop) (TokenList, Length); TokenList (*LastCons) (TokenList); Length (*_Length) (TokenList); Bool (*IsLength) (TokenList, Length); Bool (*IsShorter) (TokenList, Length); Bool (*IsLonger) (TokenList, Length); TokenList (*Copy) (TokenList); TokenList (*CopyTo) (TokenList, TokenList); TokenList (*CopyDeeply) (TokenList, Token (*)(Token)); TokenList (*CopyDeeplyTo) (TokenList, TokenList, Token (*)(Token)); TokenList (*Map) (Token (*f)(Token), TokenList); TokenList (*NMap) (Token (*f)(Token), TokenList); TokenList (*Reverse) (TokenList); TokenList (*NReverse) (TokenList); TokenList (*Concat) (TokenList, TokenList); TokenList (*NConcat) (TokenList, TokenList); Bool (*Memq) (TokenList, Token); Bool (*Member) (TokenList, Token, Bool(*eq)(Token,Token) ); Bool (*ContainsAllq) (TokenList, TokenList); int (*Posq) (TokenList, Token); int (*Position) (TokenList, Token, Bool(*eq)(Token,Token) ); TokenList (*NRemove) (TokenList, Token, Bool(*eq)(Token,Token) ); void (*FillVector) (Token *, TokenList); int (*Print) (FILE *, TokenList, int (*pr)(FILE *, Token) ); int (*GPrint) (FILE *, TokenList, int (*pr)(FILE *, Token), char *l,char *m,char *r); int (*Format) (OStream, CString, TokenList); }; extern struct Token_listOpsStruct const *Token_listPointer;
+typedef struct AbSynListCons { AbSyn first; struct AbSynListCons *rest; } *AbSynList; struct AbSyn_listOpsStruct { AbSynList (*Cons) (AbSyn, AbSynList); AbSynList (*Singleton) (AbSyn); AbSynList (*List) (int n, ...); AbSynList (*Listv) (va_list argp); AbSynList (*ListNull) (AbSyn, ...); Bool (*Equal) (AbSynList, AbSynList, Bool (*f) (AbSyn, AbSyn)); AbSyn (*Find) (AbSynList, AbSyn, Bool(*eq)(AbSyn,AbSyn) , int *); AbSynList (*FreeCons) (AbSynList); void (*Free) (AbSynList); AbSynList (*FreeTo) (AbSynList, AbSynList); void (*FreeDeeply) (AbSynList, void (*f)(AbSyn)); AbSynList (*FreeDeeplyTo) (AbSynList, AbSynList, void (*f) (AbSyn) ); AbSynList (*FreeIfSat) (AbSynList, void (*f)(AbSyn), Bool (*s)(AbSyn)); AbSyn (*Elt) (AbSynList, Length); AbSynList (*Drop) (AbSynList, Length); AbSynList (*LastCons) (AbSynList); Length (*_Length) (AbSynList); Bool (*IsLength) (AbSynList, Length); Bool (*IsShorter) (AbSynList, Length); Bool (*IsLonger) (AbSynList, Length); AbSynList (*Copy) (AbSynList); AbSynList (*CopyTo) (AbSynList, AbSynList); AbSynList (*CopyDeeply) (AbSynList, AbSyn (*)(AbSyn)); AbSynList (*CopyDeeplyTo) (AbSynList, AbSynList, AbSyn (*)(AbSyn)); AbSynList (*Map) (AbSyn (*f)(AbSyn), AbSynList); AbSynList (*NMap) (AbSyn (*f)(AbSyn), AbSynList); AbSynList (*Reverse) (AbSynList); AbSynList (*NReverse) (AbSynList); AbSynList (*Concat) (AbSynList, AbSynList); AbSynList (*NConcat) (AbSynList, AbSynList); Bool (*Memq) (AbSynList, AbSyn); Bool (*Member) (AbSynList, AbSyn, Bool(*eq)(AbSyn,AbSyn) ); Bool (*ContainsAllq) (AbSynList, AbSynList); int (*Posq) (AbSynList, AbSyn); int (*Position) (AbSynList, AbSyn, Bool(*eq)(AbSyn,AbSyn) ); AbSynList (*NRemove) (AbSynList, AbSyn, Bool(*eq)(AbSyn,AbSyn) ); void (*FillVector) (AbSyn *, AbSynList); int (*Print) (FILE *, AbSynList, int (*pr)(FILE *, AbSyn) ); int (*GPrint) (FILE *, AbSynList, int (*pr)(FILE *, AbSyn), char *l,char *m,char *r); int (*Format) (OStream, CString, AbSynList); }; extern struct AbSyn_listOpsStruct const *AbSyn_listPointer;
+typedef struct AbBindListCons { AbBind first; struct AbBindListCons *rest; } *AbBindList; struct AbBind_listOpsStruct { AbBindList (*Cons) (AbBind, AbBindList); AbBindList (*Singleton) (AbBind); AbBindList (*List) (int n, ...); AbBindList (*Listv) (va_list argp); AbBindList (*ListNull) (AbBind, ...); Bool (*Equal) (AbBindList, AbBindList, Bool (*f) (AbBind, AbBind)); AbBind (*Find) (AbBindList, AbBind, Bool(*eq)(AbBind,AbBind) , int *); AbBindList (*FreeCons) (AbBindList); void (*Free) (AbBindList); AbBindList (*FreeTo) (AbBindList, AbBindList); void (*FreeDeeply) (AbBindList, void (*f)(AbBind)); AbBindList (*FreeDeeplyTo) (AbBindList, AbBindList, void (*f) (AbBind) ); AbBindList (*FreeIfSat) (AbBindList, void (*f)(AbBind), Bool (*s)(AbBind)); AbBind (*Elt) (AbBindList, Length); AbBindList (*Drop) (AbBindList, Length); AbBindList (*LastCons) (AbBindList); Length (*_Length) (AbBindList); Bool (*IsLength) (AbBindList, Length); Bool (*IsShorter) (AbBindList, Length); Bool (*IsLonger) (AbBindList, Length); AbBindList (*Copy) (AbBindList); AbBindList (*CopyTo) (AbBindList, AbBindList); AbBindList (*CopyDeeply) (AbBindList, AbBind (*)(AbBind)); AbBindList (*CopyDeeplyTo) (AbBindList, AbBindList, AbBind (*)(AbBind)); AbBindList (*Map) (AbBind (*f)(AbBind), AbBindList); AbBindList (*NMap) (AbBind (*f)(AbBind), AbBindList); AbBindList (*Reverse) (AbBindList); AbBindList (*NReverse) (AbBindList); AbBindList (*Concat) (AbBindList, AbBindList); AbBindList (*NConcat) (AbBindList, AbBindList); Bool (*Memq) (AbBindList, AbBind); Bool (*Member) (AbBindList, AbBind, Bool(*eq)(AbBind,AbBind) ); Bool (*ContainsAllq) (AbBindList, AbBindList); int (*Posq) (AbBindList, AbBind); int (*Position) (AbBindList, AbBind, Bool(*eq)(AbBind,AbBind) ); AbBindList (*NRemove) (AbBindList, AbBind, Bool(*eq)(AbBind,AbBind) ); void (*FillVector) (AbBind *, AbBindList); int (*Print) (FILE *, AbBindList, int (*pr)(FILE *, AbBind) ); int (*GPrint) (FILE *, AbBindList, int (*pr)(FILE *, AbBind), char *l,char *m,char *r); int (*Format) (OStream, CString, AbBindList); }; extern struct AbBind_listOpsStruct const *AbBind_listPointer;
+typedef struct DocListCons { Doc first; struct DocListCons *rest; } *DocList; struct Doc_listOpsStruct { DocList (*Cons) (Doc, DocList); DocList (*Singleton) (Doc); DocList (*List) (int n, ...); DocList (*Listv) (va_list argp); DocList (*ListNull) (Doc, ...); Bool (*Equal) (DocList, DocList, Bool (*f) (Doc, Doc)); Doc (*Find) (DocList, Doc, Bool(*eq)(Doc,Doc) , int *); DocList (*FreeCons) (DocList); void (*Free) (DocList); DocList (*FreeTo) (DocList, DocList); void (*FreeDeeply) (DocList, void (*f)(Doc)); DocList (*FreeDeeplyTo) (DocList, DocList, void (*f) (Doc) ); DocList (*FreeIfSat) (DocList, void (*f)(Doc), Bool (*s)(Doc)); Doc (*Elt) (DocList, Length); DocList (*Drop) (DocList, Length); DocList (*LastCons) (DocList); Length (*_Length) (DocList); Bool (*IsLength) (DocList, Length); Bool (*IsShorter) (DocList, Length); Bool (*IsLonger) (DocList, Length); DocList (*Copy) (DocList); DocList (*CopyTo) (DocList, DocList); DocList (*CopyDeeply) (DocList, Doc (*)(Doc)); DocList (*CopyDeeplyTo) (DocList, DocList, Doc (*)(Doc)); DocList (*Map) (Doc (*f)(Doc), DocList); DocList (*NMap) (Doc (*f)(Doc), DocList); DocList (*Reverse) (DocList); DocList (*NReverse) (DocList); DocList (*Concat) (DocList, DocList); DocList (*NConcat) (DocList, DocList); Bool (*Memq) (DocList, Doc); Bool (*Member) (DocList, Doc, Bool(*eq)(Doc,Doc) ); Bool (*ContainsAllq) (DocList, DocList); int (*Posq) (DocList, Doc); int (*Position) (DocList, Doc, Bool(*eq)(Doc,Doc) ); DocList (*NRemove) (DocList, Doc, Bool(*eq)(Doc,Doc) ); void (*FillVector) (Doc *, DocList); int (*Print) (FILE *, DocList, int (*pr)(FILE *, Doc) ); int (*GPrint) (FILE *, DocList, int (*pr)(FILE *, Doc), char *l,char *m,char *r); int (*Format) (OStream, CString, DocList); }; extern struct Doc_listOpsStruct const *Doc_listPointer;
+typedef struct TFormListCons { TForm first; struct TFormListCons *rest; } *TFormList; struct TForm_listOpsStruct { TFormList (*Cons) (TForm, TFormList); TFormList (*Singleton) (TForm); TFormList (*List) (int n, ...); TFormList (*Listv) (va_list argp); TFormList (*ListNull) (TForm, ...); Bool (*Equal) (TFormList, TFormList, Bool (*f) (TForm, TForm)); TForm (*Find) (TFormList, TForm, Bool(*eq)(TForm,TForm) , int *); TFormList (*FreeCons) (TFormList); void (*Free) (TFormList); TFormList (*FreeTo) (TFormList, TFormList); void (*FreeDeeply) (TFormList, void (*f)(TForm)); TFormList (*FreeDeeplyTo) (TFormList, TFormList, void (*f) (TForm) ); TFormList (*FreeIfSat) (TFormList, void (*f)(TForm), Bool (*s)(TForm)); TForm (*Elt) (TFormList, Length); TFormList (*Drop) (TFormList, Length); TFormList (*LastCons) (TFormList); Length (*_Length) (TFormList); Bool (*IsLength) (TFormList, Length); Bool (*IsShorter) (TFormList, Length); Bool (*IsLonger) (TFormList, Length); TFormList (*Copy) (TFormList); TFormList (*CopyTo) (TFormList, TFormList); TFormList (*CopyDeeply) (TFormList, TForm (*)(TForm)); TFormList (*CopyDeeplyTo) (TFormList, TFormList, TForm (*)(TForm)); TFormList (*Map) (TForm (*f)(TForm), TFormList); TFormList (*NMap) (TForm (*f)(TForm), TFormList); TFormList (*Reverse) (TFormList); TFormList (*NReverse) (TFormList); TFormList (*Concat) (TFormList, TFormList); TFormList (*NConcat) (TFormList, TFormList); Bool (*Memq) (TFormList, TForm); Bool (*Member) (TFormList, TForm, Bool(*eq)(TForm,TForm) ); Bool (*ContainsAllq) (TFormList, TFormList); int (*Posq) (TFormList, TForm); int (*Position) (TFormList, TForm, Bool(*eq)(TForm,TForm) ); TFormList (*NRemove) (TFormList, TForm, Bool(*eq)(TForm,TForm) ); void (*FillVector) (TForm *, TFormList); int (*Print) (FILE *, TFormList, int (*pr)(FILE *, TForm) ); int (*GPrint) (FILE *, TFormList, int (*pr)(FILE *, TForm), char *l,char *m,char *r); int (*Format) (OStream, CString, TFormList); }; extern struct TForm_listOpsStruct const *TForm_listPointer;
+typedef struct TConstListCons { TConst first; struct TConstListCons *rest; } *TConstList; struct TConst_listOpsStruct { TConstList (*Cons) (TConst, TConstList); TConstList (*Singleton) (TConst); TConstList (*List) (int n, ...); TConstList (*Listv) (va_list argp); TConstList (*ListNull) (TConst, ...); Bool (*Equal) (TConstList, TConstList, Bool (*f) (TConst, TConst)); TConst (*Find) (TConstList, TConst, Bool(*eq)(TConst,TConst) , int *); TConstList (*FreeCons) (TConstList); void (*Free) (TConstList); TConstList (*FreeTo) (TConstList, TConstList); void (*FreeDeeply) (TConstList, void (*f)(TConst)); TConstList (*FreeDeeplyTo) (TConstList, TConstList, void (*f) (TConst) ); TConstList (*FreeIfSat) (TConstList, void (*f)(TConst), Bool (*s)(TConst)); TConst (*Elt) (TConstList, Length); TConstList (*Drop) (TConstList, Length); TConstList (*LastCons) (TConstList); Length (*_Length) (TConstList); Bool (*IsLength) (TConstList, Length); Bool (*IsShorter) (TConstList, Length); Bool (*IsLonger) (TConstList, Length); TConstList (*Copy) (TConstList); TConstList (*CopyTo) (TConstList, TConstList); TConstList (*CopyDeeply) (TConstList, TConst (*)(TConst)); TConstList (*CopyDeeplyTo) (TConstList, TConstList, TConst (*)(TConst)); TConstList (*Map) (TConst (*f)(TConst), TConstList); TConstList (*NMap) (TConst (*f)(TConst), TConstList); TConstList (*Reverse) (TConstList); TConstList (*NReverse) (TConstList); TConstList (*Concat) (TConstList, TConstList); TConstList (*NConcat) (TConstList, TConstList); Bool (*Memq) (TConstList, TConst); Bool (*Member) (TConstList, TConst, Bool(*eq)(TConst,TConst) ); Bool (*ContainsAllq) (TConstList, TConstList); int (*Posq) (TConstList, TConst); int (*Position) (TConstList, TConst, Bool(*eq)(TConst,TConst) ); TConstList (*NRemove) (TConstList, TConst, Bool(*eq)(TConst,TConst) ); void (*FillVector) (TConst *, TConstList); int (*Print) (FILE *, TConstList, int (*pr)(FILE *, TConst) ); int (*GPrint) (FILE *, TConstList, int (*pr)(FILE *, TConst), char *l,char *m,char *r); int (*Format) (OStream, CString, TConstList); }; extern struct TConst_listOpsStruct const *TConst_listPointer;
+typedef struct TQualListCons { TQual first; struct TQualListCons *rest; } *TQualList; struct TQual_listOpsStruct { TQualList (*Cons) (TQual, TQualList); TQualList (*Singleton) (TQual); TQualList (*List) (int n, ...); TQualList (*Listv) (va_list argp); TQualList (*ListNull) (TQual, ...); Bool (*Equal) (TQualList, TQualList, Bool (*f) (TQual, TQual)); TQual (*Find) (TQualList, TQual, Bool(*eq)(TQual,TQual) , int *); TQualList (*FreeCons) (TQualList); void (*Free) (TQualList); TQualList (*FreeTo) (TQualList, TQualList); void (*FreeDeeply) (TQualList, void (*f)(TQual)); TQualList (*FreeDeeplyTo) (TQualList, TQualList, void (*f) (TQual) ); TQualList (*FreeIfSat) (TQualList, void (*f)(TQual), Bool (*s)(TQual)); TQual (*Elt) (TQualList, Length); TQualList (*Drop) (TQualList, Length); TQualList (*LastCons) (TQualList); Length (*_Length) (TQualList); Bool (*IsLength) (TQualList, Length); Bool (*IsShorter) (TQualList, Length); Bool (*IsLonger) (TQualList, Length); TQualList (*Copy) (TQualList); TQualList (*CopyTo) (TQualList, TQualList); TQualList (*CopyDeeply) (TQualList, TQual (*)(TQual)); TQualList (*CopyDeeplyTo) (TQualList, TQualList, TQual (*)(TQual)); TQualList (*Map) (TQual (*f)(TQual), TQualList); TQualList (*NMap) (TQual (*f)(TQual), TQualList); TQualList (*Reverse) (TQualList); TQualList (*NReverse) (TQualList); TQualList (*Concat) (TQualList, TQualList); TQualList (*NConcat) (TQualList, TQualList); Bool (*Memq) (TQualList, TQual); Bool (*Member) (TQualList, TQual, Bool(*eq)(TQual,TQual) ); Bool (*ContainsAllq) (TQualList, TQualList); int (*Posq) (TQualList, TQual); int (*Position) (TQualList, TQual, Bool(*eq)(TQual,TQual) ); TQualList (*NRemove) (TQualList, TQual, Bool(*eq)(TQual,TQual) ); void (*FillVector) (TQual *, TQualList); int (*Print) (FILE *, TQualList, int (*pr)(FILE *, TQual) ); int (*GPrint) (FILE *, TQualList, int (*pr)(FILE *, TQual), char *l,char *m,char *r); int (*Format) (OStream, CString, TQualList); }; extern struct TQual_listOpsStruct const *TQual_listPointer;
+typedef struct StabListCons { Stab first; struct StabListCons *rest; } *StabList; struct Stab_listOpsStruct { StabList (*Cons) (Stab, StabList); StabList (*Singleton) (Stab); StabList (*List) (int n, ...); StabList (*Listv) (va_list argp); StabList (*ListNull) (Stab, ...); Bool (*Equal) (StabList, StabList, Bool (*f) (Stab, Stab)); Stab (*Find) (StabList, Stab, Bool(*eq)(Stab,Stab) , int *); StabList (*FreeCons) (StabList); void (*Free) (StabList); StabList (*FreeTo) (StabList, StabList); void (*FreeDeeply) (StabList, void (*f)(Stab)); StabList (*FreeDeeplyTo) (StabList, StabList, void (*f) (Stab) ); StabList (*FreeIfSat) (StabList, void (*f)(Stab), Bool (*s)(Stab)); Stab (*Elt) (StabList, Length); StabList (*Drop) (StabList, Length); StabList (*LastCons) (StabList); Length (*_Length) (StabList); Bool (*IsLength) (StabList, Length); Bool (*IsShorter) (StabList, Length); Bool (*IsLonger) (StabList, Length); StabList (*Copy) (StabList); StabList (*CopyTo) (StabList, StabList); StabList (*CopyDeeply) (StabList, Stab (*)(Stab)); StabList (*CopyDeeplyTo) (StabList, StabList, Stab (*)(Stab)); StabList (*Map) (Stab (*f)(Stab), StabList); StabList (*NMap) (Stab (*f)(Stab), StabList); StabList (*Reverse) (StabList); StabList (*NReverse) (StabList); StabList (*Concat) (StabList, StabList); StabList (*NConcat) (StabList, StabList); Bool (*Memq) (StabList, Stab); Bool (*Member) (StabList, Stab, Bool(*eq)(Stab,Stab) ); Bool (*ContainsAllq) (StabList, StabList); int (*Posq) (StabList, Stab); int (*Position) (StabList, Stab, Bool(*eq)(Stab,Stab) ); StabList (*NRemove) (StabList, Stab, Bool(*eq)(Stab,Stab) ); void (*FillVector) (Stab *, StabList); int (*Print) (FILE *, StabList, int (*pr)(FILE *, Stab) ); int (*GPrint) (FILE *, StabList, int (*pr)(FILE *, Stab), char *l,char *m,char *r); int (*Format) (OStream, CString, StabList); }; extern struct Stab_listOpsStruct const *Stab_listPointer;
+typedef struct StabLevelListCons { StabLevel first; struct StabLevelListCons *rest; } *StabLevelList; struct StabLevel_listOpsStruct { StabLevelList (*Cons) (StabLevel, StabLevelList); StabLevelList (*Singleton) (StabLevel); StabLevelList (*List) (int n, ...); StabLevelList (*Listv) (va_list argp); StabLevelList (*ListNull) (StabLevel, ...); Bool (*Equal) (StabLevelList, StabLevelList, Bool (*f) (StabLevel, StabLevel)); StabLevel (*Find) (StabLevelList, StabLevel, Bool(*eq)(StabLevel,StabLevel) , int *); StabLevelList (*FreeCons) (StabLevelList); void (*Free) (StabLevelList); StabLevelList (*FreeTo) (StabLevelList, StabLevelList); void (*FreeDeeply) (StabLevelList, void (*f)(StabLevel)); StabLevelList (*FreeDeeplyTo) (StabLevelList, StabLevelList, void (*f) (StabLevel) ); StabLevelList (*FreeIfSat) (StabLevelList, void (*f)(StabLevel), Bool (*s)(StabLevel)); StabLevel (*Elt) (StabLevelList, Length); StabLevelList (*Drop) (StabLevelList, Length); StabLevelList (*LastCons) (StabLevelList); Length (*_Length) (StabLevelList); Bool (*IsLength) (StabLevelList, Length); Bool (*IsShorter) (StabLevelList, Length); Bool (*IsLonger) (StabLevelList, Length); StabLevelList (*Copy) (StabLevelList); StabLevelList (*CopyTo) (StabLevelList, StabLevelList); StabLevelList (*CopyDeeply) (StabLevelList, StabLevel (*)(StabLevel)); StabLevelList (*CopyDeeplyTo) (StabLevelList, StabLevelList, StabLevel (*)(StabLevel)); StabLevelList (*Map) (StabLevel (*f)(StabLevel), StabLevelList); StabLevelList (*NMap) (StabLevel (*f)(StabLevel), StabLevelList); StabLevelList (*Reverse) (StabLevelList); StabLevelList (*NReverse) (StabLevelList); StabLevelList (*Concat) (StabLevelList, StabLevelList); StabLevelList (*NConcat) (StabLevelList, StabLevelList); Bool (*Memq) (StabLevelList, StabLevel); Bool (*Member) (StabLevelList, StabLevel, Bool(*eq)(StabLevel,StabLevel) ); Bool (*ContainsAllq) (StabLevelList, StabLevelList); int (*Posq) (StabLevelList, StabLevel); int (*Position) (StabLevelList, StabLevel, Bool(*eq)(StabLevel,StabLevel) ); StabLevelList (*NRemove) (StabLevelList, StabLevel, Bool(*eq)(StabLevel,StabLevel) ); void (*FillVector) (StabLevel *, StabLevelList); int (*Print) (FILE *, StabLevelList, int (*pr)(FILE *, StabLevel) ); int (*GPrint) (FILE *, StabLevelList, int (*pr)(FILE *, StabLevel), char *l,char *m,char *r); int (*Format) (OStream, CString, StabLevelList); }; extern struct StabLevel_listOpsStruct const *StabLevel_listPointer;
+typedef struct SymeListCons { Syme first; struct SymeListCons *rest; } *SymeList; struct Syme_listOpsStruct { SymeList (*Cons) (Syme, SymeList); SymeList (*Singleton) (Syme); SymeList (*List) (int n, ...); SymeList (*Listv) (va_list argp); SymeList (*ListNull) (Syme, ...); Bool (*Equal) (SymeList, SymeList, Bool (*f) (Syme, Syme)); Syme (*Find) (SymeList, Syme, Bool(*eq)(Syme,Syme) , int *); SymeList (*FreeCons) (SymeList); void (*Free) (SymeList); SymeList (*FreeTo) (SymeList, SymeList); void (*FreeDeeply) (SymeList, void (*f)(Syme)); SymeList (*FreeDeeplyTo) (SymeList, SymeList, void (*f) (Syme) ); SymeList (*FreeIfSat) (SymeList, void (*f)(Syme), Bool (*s)(Syme)); Syme (*Elt) (SymeList, Length); SymeList (*Drop) (SymeList, Length); SymeList (*LastCons) (SymeList); Length (*_Length) (SymeList); Bool (*IsLength) (SymeList, Length); Bool (*IsShorter) (SymeList, Length); Bool (*IsLonger) (SymeList, Length); SymeList (*Copy) (SymeList); SymeList (*CopyTo) (SymeList, SymeList); SymeList (*CopyDeeply) (SymeList, Syme (*)(Syme)); SymeList (*CopyDeeplyTo) (SymeList, SymeList, Syme (*)(Syme)); SymeList (*Map) (Syme (*f)(Syme), SymeList); SymeList (*NMap) (Syme (*f)(Syme), SymeList); SymeList (*Reverse) (SymeList); SymeList (*NReverse) (SymeList); SymeList (*Concat) (SymeList, SymeList); SymeList (*NConcat) (SymeList, SymeList); Bool (*Memq) (SymeList, Syme); Bool (*Member) (SymeList, Syme, Bool(*eq)(Syme,Syme) ); Bool (*ContainsAllq) (SymeList, SymeList); int (*Posq) (SymeList, Syme); int (*Position) (SymeList, Syme, Bool(*eq)(Syme,Syme) ); SymeList (*NRemove) (SymeList, Syme, Bool(*eq)(Syme,Syme) ); void (*FillVector) (Syme *, SymeList); int (*Print) (FILE *, SymeList, int (*pr)(FILE *, Syme) ); int (*GPrint) (FILE *, SymeList, int (*pr)(FILE *, Syme), char *l,char *m,char *r); int (*Format) (OStream, CString, SymeList); }; extern struct Syme_listOpsStruct const *Syme_listPointer;
+typedef struct SefoListCons { Sefo first; struct SefoListCons *rest; } *SefoList; struct Sefo_listOpsStruct { SefoList (*Cons) (Sefo, SefoList); SefoList (*Singleton) (Sefo); SefoList (*List) (int n, ...); SefoList (*Listv) (va_list argp); SefoList (*ListNull) (Sefo, ...); Bool (*Equal) (SefoList, SefoList, Bool (*f) (Sefo, Sefo)); Sefo (*Find) (SefoList, Sefo, Bool(*eq)(Sefo,Sefo) , int *); SefoList (*FreeCons) (SefoList); void (*Free) (SefoList); SefoList (*FreeTo) (SefoList, SefoList); void (*FreeDeeply) (SefoList, void (*f)(Sefo)); SefoList (*FreeDeeplyTo) (SefoList, SefoList, void (*f) (Sefo) ); SefoList (*FreeIfSat) (SefoList, void (*f)(Sefo), Bool (*s)(Sefo)); Sefo (*Elt) (SefoList, Length); SefoList (*Drop) (SefoList, Length); SefoList (*LastCons) (SefoList); Length (*_Length) (SefoList); Bool (*IsLength) (SefoList, Length); Bool (*IsShorter) (SefoList, Length); Bool (*IsLonger) (SefoList, Length); SefoList (*Copy) (SefoList); SefoList (*CopyTo) (SefoList, SefoList); SefoList (*CopyDeeply) (SefoList, Sefo (*)(Sefo)); SefoList (*CopyDeeplyTo) (SefoList, SefoList, Sefo (*)(Sefo)); SefoList (*Map) (Sefo (*f)(Sefo), SefoList); SefoList (*NMap) (Sefo (*f)(Sefo), SefoList); SefoList (*Reverse) (SefoList); SefoList (*NReverse) (SefoList); SefoList (*Concat) (SefoList, SefoList); SefoList (*NConcat) (SefoList, SefoList); Bool (*Memq) (SefoList, Sefo); Bool (*Member) (SefoList, Sefo, Bool(*eq)(Sefo,Sefo) ); Bool (*ContainsAllq) (SefoList, SefoList); int (*Posq) (SefoList, Sefo); int (*Position) (SefoList, Sefo, Bool(*eq)(Sefo,Sefo) ); SefoList (*NRemove) (SefoList, Sefo, Bool(*eq)(Sefo,Sefo) ); void (*FillVector) (Sefo *, SefoList); int (*Print) (FILE *, SefoList, int (*pr)(FILE *, Sefo) ); int (*GPrint) (FILE *, SefoList, int (*pr)(FILE *, Sefo), char *l,char *m,char *r); int (*Format) (OStream, CString, SefoList); }; extern struct Sefo_listOpsStruct const *Sefo_listPointer;
+typedef struct TableListCons { Table first; struct TableListCons *rest; } *TableList; struct Table_listOpsStruct { TableList (*Cons) (Table, TableList); TableList (*Singleton) (Table); TableList (*List) (int n, ...); TableList (*Listv) (va_list argp); TableList (*ListNull) (Table, ...); Bool (*Equal) (TableList, TableList, Bool (*f) (Table, Table)); Table (*Find) (TableList, Table, Bool(*eq)(Table,Table) , int *); TableList (*FreeCons) (TableList); void (*Free) (TableList); TableList (*FreeTo) (TableList, TableList); void (*FreeDeeply) (TableList, void (*f)(Table)); TableList (*FreeDeeplyTo) (TableList, TableList, void (*f) (Table) ); TableList (*FreeIfSat) (TableList, void (*f)(Table), Bool (*s)(Table)); Table (*Elt) (TableList, Length); TableList (*Drop) (TableList, Length); TableList (*LastCons) (TableList); Length (*_Length) (TableList); Bool (*IsLength) (TableList, Length); Bool (*IsShorter) (TableList, Length); Bool (*IsLonger) (TableList, Length); TableList (*Copy) (TableList); TableList (*CopyTo) (TableList, TableList); TableList (*CopyDeeply) (TableList, Table (*)(Table)); TableList (*CopyDeeplyTo) (TableList, TableList, Table (*)(Table)); TableList (*Map) (Table (*f)(Table), TableList); TableList (*NMap) (Table (*f)(Table), TableList); TableList (*Reverse) (TableList); TableList (*NReverse) (TableList); TableList (*Concat) (TableList, TableList); TableList (*NConcat) (TableList, TableList); Bool (*Memq) (TableList, Table); Bool (*Member) (TableList, Table, Bool(*eq)(Table,Table) ); Bool (*ContainsAllq) (TableList, TableList); int (*Posq) (TableList, Table); int (*Position) (TableList, Table, Bool(*eq)(Table,Table) ); TableList (*NRemove) (TableList, Table, Bool(*eq)(Table,Table) ); void (*FillVector) (Table *, TableList); int (*Print) (FILE *, TableList, int (*pr)(FILE *, Table) ); int (*GPrint) (FILE *, TableList, int (*pr)(FILE *, Table), char *l,char *m,char *r); int (*Format) (OStream, CString, TableList); }; extern struct Table_listOpsStruct const *Table_listPointer;
+typedef struct FoamListCons { Foam first; struct FoamListCons *rest; } *FoamList; struct Foam_listOpsStruct { FoamList (*Cons) (Foam, FoamList); FoamList (*Singleton) (Foam); FoamList (*List) (int n, ...); FoamList (*Listv) (va_list argp); FoamList (*ListNull) (Foam, ...); Bool (*Equal) (FoamList, FoamList, Bool (*f) (Foam, Foam)); Foam (*Find) (FoamList, Foam, Bool(*eq)(Foam,Foam) , int *); FoamList (*FreeCons) (FoamList); void (*Free) (FoamList); FoamList (*FreeTo) (FoamList, FoamList); void (*FreeDeeply) (FoamList, void (*f)(Foam)); FoamList (*FreeDeeplyTo) (FoamList, FoamList, void (*f) (Foam) ); FoamList (*FreeIfSat) (FoamList, void (*f)(Foam), Bool (*s)(Foam)); Foam (*Elt) (FoamList, Length); FoamList (*Drop) (FoamList, Length); FoamList (*LastCons) (FoamList); Length (*_Length) (FoamList); Bool (*IsLength) (FoamList, Length); Bool (*IsShorter) (FoamList, Length); Bool (*IsLonger) (FoamList, Length); FoamList (*Copy) (FoamList); FoamList (*CopyTo) (FoamList, FoamList); FoamList (*CopyDeeply) (FoamList, Foam (*)(Foam)); FoamList (*CopyDeeplyTo) (FoamList, FoamList, Foam (*)(Foam)); FoamList (*Map) (Foam (*f)(Foam), FoamList); FoamList (*NMap) (Foam (*f)(Foam), FoamList); FoamList (*Reverse) (FoamList); FoamList (*NReverse) (FoamList); FoamList (*Concat) (FoamList, FoamList); FoamList (*NConcat) (FoamList, FoamList); Bool (*Memq) (FoamList, Foam); Bool (*Member) (FoamList, Foam, Bool(*eq)(Foam,Foam) ); Bool (*ContainsAllq) (FoamList, FoamList); int (*Posq) (FoamList, Foam); int (*Position) (FoamList, Foam, Bool(*eq)(Foam,Foam) ); FoamList (*NRemove) (FoamList, Foam, Bool(*eq)(Foam,Foam) ); void (*FillVector) (Foam *, FoamList); int (*Print) (FILE *, FoamList, int (*pr)(FILE *, Foam) ); int (*GPrint) (FILE *, FoamList, int (*pr)(FILE *, Foam), char *l,char *m,char *r); int (*Format) (OStream, CString, FoamList); }; extern struct Foam_listOpsStruct const *Foam_listPointer;
+typedef struct AIntListCons { AInt first; struct AIntListCons *rest; } *AIntList; struct AInt_listOpsStruct { AIntList (*Cons) (AInt, AIntList); AIntList (*Singleton) (AInt); AIntList (*List) (int n, ...); AIntList (*Listv) (va_list argp); AIntList (*ListNull) (AInt, ...); Bool (*Equal) (AIntList, AIntList, Bool (*f) (AInt, AInt)); AInt (*Find) (AIntList, AInt, Bool(*eq)(AInt,AInt) , int *); AIntList (*FreeCons) (AIntList); void (*Free) (AIntList); AIntList (*FreeTo) (AIntList, AIntList); void (*FreeDeeply) (AIntList, void (*f)(AInt)); AIntList (*FreeDeeplyTo) (AIntList, AIntList, void (*f) (AInt) ); AIntList (*FreeIfSat) (AIntList, void (*f)(AInt), Bool (*s)(AInt)); AInt (*Elt) (AIntList, Length); AIntList (*Drop) (AIntList, Length); AIntList (*LastCons) (AIntList); Length (*_Length) (AIntList); Bool (*IsLength) (AIntList, Length); Bool (*IsShorter) (AIntList, Length); Bool (*IsLonger) (AIntList, Length); AIntList (*Copy) (AIntList); AIntList (*CopyTo) (AIntList, AIntList); AIntList (*CopyDeeply) (AIntList, AInt (*)(AInt)); AIntList (*CopyDeeplyTo) (AIntList, AIntList, AInt (*)(AInt)); AIntList (*Map) (AInt (*f)(AInt), AIntList); AIntList (*NMap) (AInt (*f)(AInt), AIntList); AIntList (*Reverse) (AIntList); AIntList (*NReverse) (AIntList); AIntList (*Concat) (AIntList, AIntList); AIntList (*NConcat) (AIntList, AIntList); Bool (*Memq) (AIntList, AInt); Bool (*Member) (AIntList, AInt, Bool(*eq)(AInt,AInt) ); Bool (*ContainsAllq) (AIntList, AIntList); int (*Posq) (AIntList, AInt); int (*Position) (AIntList, AInt, Bool(*eq)(AInt,AInt) ); AIntList (*NRemove) (AIntList, AInt, Bool(*eq)(AInt,AInt) ); void (*FillVector) (AInt *, AIntList); int (*Print) (FILE *, AIntList, int (*pr)(FILE *, AInt) ); int (*GPrint) (FILE *, AIntList, int (*pr)(FILE *, AInt), char *l,char *m,char *r); int (*Format) (OStream, CString, AIntList); }; extern struct AInt_listOpsStruct const *AInt_listPointer;
+typedef struct CCodeListCons { CCode first; struct CCodeListCons *rest; } *CCodeList; struct CCode_listOpsStruct { CCodeList (*Cons) (CCode, CCodeList); CCodeList (*Singleton) (CCode); CCodeList (*List) (int n, ...); CCodeList (*Listv) (va_list argp); CCodeList (*ListNull) (CCode, ...); Bool (*Equal) (CCodeList, CCodeList, Bool (*f) (CCode, CCode)); CCode (*Find) (CCodeList, CCode, Bool(*eq)(CCode,CCode) , int *); CCodeList (*FreeCons) (CCodeList); void (*Free) (CCodeList); CCodeList (*FreeTo) (CCodeList, CCodeList); void (*FreeDeeply) (CCodeList, void (*f)(CCode)); CCodeList (*FreeDeeplyTo) (CCodeList, CCodeList, void (*f) (CCode) ); CCodeList (*FreeIfSat) (CCodeList, void (*f)(CCode), Bool (*s)(CCode)); CCode (*Elt) (CCodeList, Length); CCodeList (*Drop) (CCodeList, Length); CCodeList (*LastCons) (CCodeList); Length (*_Length) (CCodeList); Bool (*IsLength) (CCodeList, Length); Bool (*IsShorter) (CCodeList, Length); Bool (*IsLonger) (CCodeList, Length); CCodeList (*Copy) (CCodeList); CCodeList (*CopyTo) (CCodeList, CCodeList); CCodeList (*CopyDeeply) (CCodeList, CCode (*)(CCode)); CCodeList (*CopyDeeplyTo) (CCodeList, CCodeList, CCode (*)(CCode)); CCodeList (*Map) (CCode (*f)(CCode), CCodeList); CCodeList (*NMap) (CCode (*f)(CCode), CCodeList); CCodeList (*Reverse) (CCodeList); CCodeList (*NReverse) (CCodeList); CCodeList (*Concat) (CCodeList, CCodeList); CCodeList (*NConcat) (CCodeList, CCodeList); Bool (*Memq) (CCodeList, CCode); Bool (*Member) (CCodeList, CCode, Bool(*eq)(CCode,CCode) ); Bool (*ContainsAllq) (CCodeList, CCodeList); int (*Posq) (CCodeList, CCode); int (*Position) (CCodeList, CCode, Bool(*eq)(CCode,CCode) ); CCodeList (*NRemove) (CCodeList, CCode, Bool(*eq)(CCode,CCode) ); void (*FillVector) (CCode *, CCodeList); int (*Print) (FILE *, CCodeList, int (*pr)(FILE *, CCode) ); int (*GPrint) (FILE *, CCodeList, int (*pr)(FILE *, CCode), char *l,char *m,char *r); int (*Format) (OStream, CString, CCodeList); }; extern struct CCode_listOpsStruct const *CCode_listPointer;
+typedef struct UdInfoListCons { UdInfo first; struct UdInfoListCons *rest; } *UdInfoList; struct UdInfo_listOpsStruct { UdInfoList (*Cons) (UdInfo, UdInfoList); UdInfoList (*Singleton) (UdInfo); UdInfoList (*List) (int n, ...); UdInfoList (*Listv) (va_list argp); UdInfoList (*ListNull) (UdInfo, ...); Bool (*Equal) (UdInfoList, UdInfoList, Bool (*f) (UdInfo, UdInfo)); UdInfo (*Find) (UdInfoList, UdInfo, Bool(*eq)(UdInfo,UdInfo) , int *); UdInfoList (*FreeCons) (UdInfoList); void (*Free) (UdInfoList); UdInfoList (*FreeTo) (UdInfoList, UdInfoList); void (*FreeDeeply) (UdInfoList, void (*f)(UdInfo)); UdInfoList (*FreeDeeplyTo) (UdInfoList, UdInfoList, void (*f) (UdInfo) ); UdInfoList (*FreeIfSat) (UdInfoList, void (*f)(UdInfo), Bool (*s)(UdInfo)); UdInfo (*Elt) (UdInfoList, Length); UdInfoList (*Drop) (UdInfoList, Length); UdInfoList (*LastCons) (UdInfoList); Length (*_Length) (UdInfoList); Bool (*IsLength) (UdInfoList, Length); Bool (*IsShorter) (UdInfoList, Length); Bool (*IsLonger) (UdInfoList, Length); UdInfoList (*Copy) (UdInfoList); UdInfoList (*CopyTo) (UdInfoList, UdInfoList); UdInfoList (*CopyDeeply) (UdInfoList, UdInfo (*)(UdInfo)); UdInfoList (*CopyDeeplyTo) (UdInfoList, UdInfoList, UdInfo (*)(UdInfo)); UdInfoList (*Map) (UdInfo (*f)(UdInfo), UdInfoList); UdInfoList (*NMap) (UdInfo (*f)(UdInfo), UdInfoList); UdInfoList (*Reverse) (UdInfoList); UdInfoList (*NReverse) (UdInfoList); UdInfoList (*Concat) (UdInfoList, UdInfoList); UdInfoList (*NConcat) (UdInfoList, UdInfoList); Bool (*Memq) (UdInfoList, UdInfo); Bool (*Member) (UdInfoList, UdInfo, Bool(*eq)(UdInfo,UdInfo) ); Bool (*ContainsAllq) (UdInfoList, UdInfoList); int (*Posq) (UdInfoList, UdInfo); int (*Position) (UdInfoList, UdInfo, Bool(*eq)(UdInfo,UdInfo) ); UdInfoList (*NRemove) (UdInfoList, UdInfo, Bool(*eq)(UdInfo,UdInfo) ); void (*FillVector) (UdInfo *, UdInfoList); int (*Print) (FILE *, UdInfoList, int (*pr)(FILE *, UdInfo) ); int (*GPrint) (FILE *, UdInfoList, int (*pr)(FILE *, UdInfo), char *l,char *m,char *r); int (*Format) (OStream, CString, UdInfoList); }; extern struct UdInfo_listOpsStruct const *UdInfo_listPointer;
+typedef struct DepDagListCons { DepDag first; struct DepDagListCons *rest; } *DepDagList; struct DepDag_listOpsStruct { DepDagList (*Cons) (DepDag, DepDagList); DepDagList (*Singleton) (DepDag); DepDagList (*List) (int n, ...); DepDagList (*Listv) (va_list argp); DepDagList (*ListNull) (DepDag, ...); Bool (*Equal) (DepDagList, DepDagList, Bool (*f) (DepDag, DepDag)); DepDag (*Find) (DepDagList, DepDag, Bool(*eq)(DepDag,DepDag) , int *); DepDagList (*FreeCons) (DepDagList); void (*Free) (DepDagList); DepDagList (*FreeTo) (DepDagList, DepDagList); void (*FreeDeeply) (DepDagList, void (*f)(DepDag)); DepDagList (*FreeDeeplyTo) (DepDagList, DepDagList, void (*f) (DepDag) ); DepDagList (*FreeIfSat) (DepDagList, void (*f)(DepDag), Bool (*s)(DepDag)); DepDag (*Elt) (DepDagList, Length); DepDagList (*Drop) (DepDagList, Length); DepDagList (*LastCons) (DepDagList); Length (*_Length) (DepDagList); Bool (*IsLength) (DepDagList, Length); Bool (*IsShorter) (DepDagList, Length); Bool (*IsLonger) (DepDagList, Length); DepDagList (*Copy) (DepDagList); DepDagList (*CopyTo) (DepDagList, DepDagList); DepDagList (*CopyDeeply) (DepDagList, DepDag (*)(DepDag)); DepDagList (*CopyDeeplyTo) (DepDagList, DepDagList, DepDag (*)(DepDag)); DepDagList (*Map) (DepDag (*f)(DepDag), DepDagList); DepDagList (*NMap) (DepDag (*f)(DepDag), DepDagList); DepDagList (*Reverse) (DepDagList); DepDagList (*NReverse) (DepDagList); DepDagList (*Concat) (DepDagList, DepDagList); DepDagList (*NConcat) (DepDagList, DepDagList); Bool (*Memq) (DepDagList, DepDag); Bool (*Member) (DepDagList, DepDag, Bool(*eq)(DepDag,DepDag) ); Bool (*ContainsAllq) (DepDagList, DepDagList); int (*Posq) (DepDagList, DepDag); int (*Position) (DepDagList, DepDag, Bool(*eq)(DepDag,DepDag) ); DepDagList (*NRemove) (DepDagList, DepDag, Bool(*eq)(DepDag,DepDag) ); void (*FillVector) (DepDag *, DepDagList); int (*Print) (FILE *, DepDagList, int (*pr)(FILE *, DepDag) ); int (*GPrint) (FILE *, DepDagList, int (*pr)(FILE *, DepDag), char *l,char *m,char *r); int (*Format) (OStream, CString, DepDagList); }; extern struct DepDag_listOpsStruct const *DepDag_listPointer;
+
+typedef struct SymeListListCons { SymeList first; struct SymeListListCons *rest; } *SymeListList; struct SymeList_listOpsStruct { SymeListList (*Cons) (SymeList, SymeListList); SymeListList (*Singleton) (SymeList); SymeListList (*List) (int n, ...); SymeListList (*Listv) (va_list argp); SymeListList (*ListNull) (SymeList, ...); Bool (*Equal) (SymeListList, SymeListList, Bool (*f) (SymeList, SymeList)); SymeList (*Find) (SymeListList, SymeList, Bool(*eq)(SymeList,SymeList) , int *); SymeListList (*FreeCons) (SymeListList); void (*Free) (SymeListList); SymeListList (*FreeTo) (SymeListList, SymeListList); void (*FreeDeeply) (SymeListList, void (*f)(SymeList)); SymeListList (*FreeDeeplyTo) (SymeListList, SymeListList, void (*f) (SymeList) ); SymeListList (*FreeIfSat) (SymeListList, void (*f)(SymeList), Bool (*s)(SymeList)); SymeList (*Elt) (SymeListList, Length); SymeListList (*Drop) (SymeListList, Length); SymeListList (*LastCons) (SymeListList); Length (*_Length) (SymeListList); Bool (*IsLength) (SymeListList, Length); Bool (*IsShorter) (SymeListList, Length); Bool (*IsLonger) (SymeListList, Length); SymeListList (*Copy) (SymeListList); SymeListList (*CopyTo) (SymeListList, SymeListList); SymeListList (*CopyDeeply) (SymeListList, SymeList (*)(SymeList)); SymeListList (*CopyDeeplyTo) (SymeListList, SymeListList, SymeList (*)(SymeList)); SymeListList (*Map) (SymeList (*f)(SymeList), SymeListList); SymeListList (*NMap) (SymeList (*f)(SymeList), SymeListList); SymeListList (*Reverse) (SymeListList); SymeListList (*NReverse) (SymeListList); SymeListList (*Concat) (SymeListList, SymeListList); SymeListList (*NConcat) (SymeListList, SymeListList); Bool (*Memq) (SymeListList, SymeList); Bool (*Member) (SymeListList, SymeList, Bool(*eq)(SymeList,SymeList) ); Bool (*ContainsAllq) (SymeListList, SymeListList); int (*Posq) (SymeListList, SymeList); int (*Position) (SymeListList, SymeList, Bool(*eq)(SymeList,SymeList) ); SymeListList (*NRemove) (SymeListList, SymeList, Bool(*eq)(SymeList,SymeList) ); void (*FillVector) (SymeList *, SymeListList); int (*Print) (FILE *, SymeListList, int (*pr)(FILE *, SymeList) ); int (*GPrint) (FILE *, SymeListList, int (*pr)(FILE *, SymeList), char *l,char *m,char *r); int (*Format) (OStream, CString, SymeListList); }; extern struct SymeList_listOpsStruct const *SymeList_listPointer;
+
+
+
+
+# 1 "./absyn.h" 1
+# 12 "./absyn.h"
+# 1 "./srcpos.h" 1
+# 13 "./srcpos.h"
+# 1 "./fname.h" 1
+# 14 "./fname.h"
+struct fileName {
+ String partv[10];
+};
+# 30 "./fname.h"
+extern FileName fnameNew (String d, String n, String t);
+extern FileName fnameStdin (void);
+extern FileName fnameStdout (void);
+
+extern Bool fnameIsStdin (FileName);
+extern Bool fnameIsStdout (FileName);
+
+extern FileName fnameCopy (FileName);
+extern void fnameFree (FileName);
+extern Bool fnameEqual (FileName, FileName);
+
+extern FileName fnameParse (String);
+extern FileName fnameParseStatic (String);
+extern FileName fnameParseStaticWithin (String, String dir);
+
+extern String fnameUnparse (FileName);
+extern String fnameUnparseStatic (FileName);
+extern String fnameUnparseStaticWith (FileName);
+extern String fnameUnparseStaticWithout (FileName);
+
+extern Bool fnameHasDir (FileName);
+extern Bool fnameHasType (FileName);
+
+extern void fnameSetDir (FileName, String);
+extern void fnameSetName (FileName, String);
+extern void fnameSetType (FileName, String);
+
+extern FileName fnameTemp (String, String, String);
+extern FileName*fnameTempVector (String, String, String *);
+# 14 "./srcpos.h" 2
+
+
+
+
+
+extern SrcPos sposNone;
+extern SrcPos sposTop (void);
+extern SrcPos sposEnd (void);
+
+extern void sposTableToBuffer(Buffer);
+extern void sposTableFrBuffer(Buffer);
+
+extern void sposShow (void);
+extern void sposInit (void);
+extern void sposFini (void);
+extern SrcPos sposNew(FileName fn, Length flno, Length glno, Length cno);
+extern SrcPos sposGet (Length glno, Length cno);
+extern Length sposGlobalLine (SrcPos);
+extern FileName sposFile (SrcPos);
+extern Length sposGLine (FileName, Length);
+extern Length sposLine (SrcPos);
+extern Length sposChar (SrcPos);
+
+extern SrcPos sposOffset (SrcPos, int);
+extern Bool sposEqual (SrcPos, SrcPos);
+extern SrcPos sposMin (SrcPos, SrcPos);
+extern SrcPos sposMax (SrcPos, SrcPos);
+
+extern int sposCmp (SrcPos, SrcPos);
+extern Bool sposIsSpecial (SrcPos);
+
+
+extern int sposLineText (Buffer, SrcPos);
+extern int sposPrint (FILE *, SrcPos);
+
+extern Bool sposIsSynthetic (SrcPos);
+extern SrcPos sposSynthetic (SrcPos);
+
+extern Bool sposIsMacroExpanded (SrcPos);
+extern SrcPos sposMacroExpanded (SrcPos);
+
+extern void sposGrowGloLineTbl (FileName fname, Length flno, Length glno);
+extern SExpr sposToSExpr(SrcPos);
+
+
+
+
+
+union sposStack {
+ SrcPos spos;
+ SrcPosCell stack;
+};
+
+struct sposCell {
+ SrcPos spos;
+ SrcPosStack rest;
+};
+
+extern SrcPosStack spstackEmpty;
+
+extern SrcPosStack spstackPush (SrcPos, SrcPosStack);
+extern SrcPosStack spstackCopy (SrcPosStack);
+extern void spstackFree (SrcPosStack);
+
+extern SrcPos spstackFirst (SrcPosStack);
+extern SrcPosStack spstackRest (SrcPosStack);
+
+extern SrcPosStack spstackSetFirst (SrcPosStack, SrcPos);
+extern SrcPosStack spstackSetSecond (SrcPosStack, SrcPos);
+
+extern void spstackPrintDb (SrcPosStack);
+# 13 "./absyn.h" 2
+# 1 "./token.h" 1
+# 12 "./token.h"
+# 1 "./symbol.h" 1
+# 22 "./symbol.h"
+# 1 "./axlobs.h" 1
+# 23 "./symbol.h" 2
+# 1 "./ttable.h" 1
+
+
+
+
+# 1 "./table.h" 1
+# 14 "./table.h"
+typedef Pointer TblKey;
+typedef Pointer TblElt;
+
+typedef Hash (* TblHashFun) (TblKey);
+typedef Bool (* TblEqFun) (TblKey, TblKey);
+typedef Bool (* TblTestEltFun) (TblElt);
+typedef TblElt (* TblMapEltFun) (TblElt);
+typedef int (* TblPrKeyFun) (FILE *, TblKey);
+typedef int (* TblPrEltFun) (FILE *, TblElt);
+typedef void (* TblFreeKeyFun) (TblKey);
+typedef void (* TblFreeEltFun) (TblElt);
+
+struct TblSlot {
+ TblKey key;
+ TblElt elt;
+ Hash hash;
+ struct TblSlot *next;
+};
+
+struct table {
+ TblHashFun hashFun;
+ TblEqFun eqFun;
+ Pointer info;
+ Length count;
+ Length buckc;
+ struct TblSlot **buckv;
+};
+
+typedef struct {
+ struct TblSlot **curr;
+ struct TblSlot **last;
+ struct TblSlot *link;
+} TableIterator;
+# 77 "./table.h"
+extern Table tblNew (TblHashFun hash, TblEqFun eq);
+extern void tblFree (Table);
+extern void tblFreeDeeply (Table, TblFreeKeyFun, TblFreeEltFun);
+extern Table tblCopy (Table);
+extern Table tblRemoveIf (Table, TblFreeEltFun, TblTestEltFun);
+extern Table tblNMap (TblMapEltFun, Table);
+extern Length tblSize (Table);
+extern TblElt tblElt (Table, TblKey, TblElt dflt);
+extern TblElt tblSetElt (Table, TblKey, TblElt);
+extern Table tblDrop (Table, TblKey);
+extern int tblPrint (FILE *, Table, TblPrKeyFun, TblPrEltFun);
+extern int tblColumnPrint (FILE *, Table, TblPrKeyFun, TblPrEltFun);
+# 98 "./table.h"
+extern int _tblITER (TableIterator *, Table);
+extern int _tblSTEP (TableIterator *);
+# 6 "./ttable.h" 2
+
+typedef struct tsetIter { TableIterator iter; } *ANY_TSetIter;
+# 66 "./ttable.h"
+typedef struct Pointer_TSet { Table table; } *PointerTSet; typedef ANY_TSetIter PointerTSetIter; struct Pointer_tsetOpsStruct { PointerTSet (*Create) (void); void (*Free) (PointerTSet); Length (*Size) (PointerTSet); void (*Add) (PointerTSet, Pointer); void (*Remove) (PointerTSet, Pointer); Bool (*Member) (PointerTSet, Pointer); Bool (*IsEmpty)(PointerTSet); PointerTSet (*Empty)(void); PointerTSetIter (*Iter)(PointerTSet); PointerTSetIter (*IterNext)(PointerTSetIter); Pointer (*IterElt)(PointerTSetIter); Bool (*IterHasNext)(PointerTSetIter); void (*IterDone)(PointerTSetIter); }; extern struct Pointer_tsetOpsStruct const *Pointer_tsetPointer;
+
+extern const struct Pointer_tsetOpsStruct ptrTSetOps;
+# 24 "./symbol.h" 2
+
+struct symbol {
+ MostAlignedType *info;
+ String str;
+};
+# 40 "./symbol.h"
+extern Symbol symGen (void);
+extern Symbol symProbe (String, int options);
+extern void symClear (void);
+extern int symPrint (FILE *, Symbol);
+extern void symMap (void (*symfun)(Symbol));
+
+typedef struct Symbol_TSet { Table table; } *SymbolTSet; typedef ANY_TSetIter SymbolTSetIter; struct Symbol_tsetOpsStruct { SymbolTSet (*Create) (void); void (*Free) (SymbolTSet); Length (*Size) (SymbolTSet); void (*Add) (SymbolTSet, Symbol); void (*Remove) (SymbolTSet, Symbol); Bool (*Member) (SymbolTSet, Symbol); Bool (*IsEmpty)(SymbolTSet); SymbolTSet (*Empty)(void); SymbolTSetIter (*Iter)(SymbolTSet); SymbolTSetIter (*IterNext)(SymbolTSetIter); Symbol (*IterElt)(SymbolTSetIter); Bool (*IterHasNext)(SymbolTSetIter); void (*IterDone)(SymbolTSetIter); }; extern struct Symbol_tsetOpsStruct const *Symbol_tsetPointer;
+# 13 "./token.h" 2
+
+
+
+
+
+enum tokenTag {
+    TK_START = 1,
+
+ TK_GEN_START = TK_START,
+ TK_Id = TK_GEN_START,
+ TK_Blank,
+ TK_Int,
+ TK_Float,
+ TK_String,
+ TK_PreDoc,
+ TK_PostDoc,
+ TK_Comment,
+ TK_SysCmd,
+ TK_Error,
+
+    TK_GEN_LIMIT,
+    KW_ALPHA_START = TK_GEN_LIMIT,
+
+ KW_Add = KW_ALPHA_START,
+ KW_And,
+ KW_Always,
+ KW_Assert,
+ KW_Break,
+ KW_But,
+ KW_By,
+ KW_Case,
+ KW_Catch,
+ KW_Default,
+ KW_Define,
+ KW_Delay,
+ KW_Do,
+ KW_Else,
+ KW_Except,
+ KW_Export,
+ KW_Exquo,
+ KW_Extend,
+ KW_Finally,
+ KW_Fix,
+ KW_For,
+ KW_Fluid,
+ KW_Free,
+ KW_From,
+ KW_Generate,
+ KW_Goto,
+ KW_Has,
+ KW_If,
+ KW_Import,
+ KW_In,
+ KW_Inline,
+ KW_Is,
+ KW_Isnt,
+ KW_Iterate,
+ KW_Let,
+ KW_Local,
+ KW_Macro,
+ KW_Mod,
+ KW_Never,
+ KW_Not,
+ KW_Of,
+ KW_Or,
+ KW_Pretend,
+ KW_Quo,
+ KW_Reference,
+ KW_Rem,
+ KW_Repeat,
+ KW_Return,
+ KW_Rule,
+ KW_Select,
+ KW_Then,
+ KW_Throw,
+ KW_To,
+ KW_Try,
+ KW_Where,
+ KW_While,
+ KW_With,
+ KW_Yield,
+
+    KW_ALPHA_LIMIT,
+    KW_SYMBOL_START = KW_ALPHA_LIMIT,
+
+ KW_Quote = KW_SYMBOL_START,
+ KW_Grave,
+ KW_Ampersand,
+ KW_Comma,
+ KW_Semicolon,
+ KW_Dollar,
+ KW_Sharp,
+ KW_At,
+
+ KW_Assign,
+ KW_Colon,
+ KW_ColonStar,
+ KW_2Colon,
+
+ KW_Star,
+ KW_2Star,
+
+ KW_Dot,
+ KW_2Dot,
+
+ KW_EQ,
+ KW_2EQ,
+ KW_MArrow,
+ KW_Implies,
+
+ KW_GT,
+ KW_2GT,
+ KW_GE,
+
+ KW_LT,
+ KW_2LT,
+ KW_LE,
+ KW_LArrow,
+
+ KW_Hat,
+ KW_HatE,
+
+ KW_Tilde,
+ KW_TildeE,
+
+ KW_Plus,
+ KW_PlusMinus,
+ KW_MapsTo,
+ KW_MapsToStar,
+
+ KW_Minus,
+ KW_RArrow,
+ KW_MapStar,
+
+ KW_Slash,
+ KW_Wedge,
+
+ KW_Backslash,
+ KW_Vee,
+
+ KW_OBrack,
+ KW_OBBrack,
+ KW_OCurly,
+ KW_OBCurly,
+ KW_OParen,
+ KW_OBParen,
+
+ KW_CBrack,
+ KW_CCurly,
+ KW_CParen,
+
+ KW_Bar,
+ KW_CBBrack,
+ KW_CBCurly,
+ KW_CBParen,
+ KW_2Bar,
+
+    KW_SYMBOL_LIMIT,
+    KW_INTERNAL_START = KW_SYMBOL_LIMIT,
+
+ KW_NewLine = KW_INTERNAL_START,
+
+ KW_StartPile,
+ KW_EndPile,
+
+ KW_SetTab,
+ KW_BackSet,
+ KW_BackTab,
+
+ KW_Juxtapose,
+
+    KW_INTERNAL_LIMIT,
+    TK_LIMIT = KW_INTERNAL_LIMIT
+};
+
+typedef enum tokenTag TokenTag;
+
+
+
+
+
+struct token {
+ UByte tag;
+ UByte extra;
+ SrcPos pos, end;
+ union {
+  String str;
+  Symbol sym;
+ } val;
+};
+# 230 "./token.h"
+extern Token tokNew (SrcPos pos,SrcPos end,TokenTag t,...);
+extern void tokFree (Token);
+extern Token tokCopy (Token);
+extern int tokPrint (FILE *, Token);
+extern int toklistPrint (FILE *, TokenList);
+
+
+
+
+extern void keyInit (void);
+extern String keyString (TokenTag t);
+extern TokenTag keyTag (String);
+extern TokenTag keyLongest (String);
+extern Bool keyIsDisabled (TokenTag);
+extern void keySetDisabled (TokenTag, Bool);
+
+
+
+
+struct tok_info {
+ TokenTag tag;
+ Symbol sym;
+ String str;
+ UByte hasString;
+ UByte isComment;
+ UByte isOpener;
+ UByte isCloser;
+ UByte isFollower;
+ UByte isLangword;
+ UByte isLeftAssoc;
+ UByte isMaybeInfix;
+ UByte precedence;
+ UByte isDisabled;
+};
+
+extern struct tok_info tokInfoTable[];
+# 14 "./absyn.h" 2
+# 22 "./absyn.h"
+enum abSynTag {
+    AB_START,
+    AB_SYM_START = AB_START,
+
+ AB_Id = AB_SYM_START,
+ AB_IdSy,
+ AB_Blank,
+
+    AB_SYM_LIMIT,
+
+    AB_DOC_START = AB_SYM_LIMIT,
+
+ AB_DocText = AB_DOC_START,
+
+    AB_DOC_LIMIT,
+
+    AB_STR_START = AB_DOC_LIMIT,
+
+ AB_LitInteger = AB_STR_START,
+ AB_LitFloat,
+ AB_LitString,
+
+    AB_STR_LIMIT,
+    AB_NODE_START = AB_STR_LIMIT,
+
+ AB_Add = AB_NODE_START,
+ AB_And,
+ AB_Apply,
+ AB_Assert,
+ AB_Assign,
+ AB_Break,
+ AB_Builtin,
+ AB_CoerceTo,
+ AB_Collect,
+ AB_Comma,
+ AB_Declare,
+ AB_Default,
+ AB_Define,
+ AB_DDefine,
+ AB_Delay,
+ AB_Do,
+ AB_Documented,
+ AB_Except,
+ AB_Exit,
+ AB_Export,
+ AB_Extend,
+ AB_Fix,
+ AB_Fluid,
+ AB_For,
+ AB_ForeignImport,
+ AB_ForeignExport,
+ AB_Free,
+ AB_Generate,
+ AB_Goto,
+ AB_Has,
+ AB_Hide,
+ AB_If,
+ AB_Import,
+ AB_Inline,
+ AB_Iterate,
+ AB_Label,
+ AB_Lambda,
+ AB_Let,
+ AB_Local,
+ AB_Macro,
+ AB_MDefine,
+ AB_MLambda,
+ AB_Never,
+ AB_Not,
+ AB_Nothing,
+ AB_Or,
+ AB_Paren,
+ AB_PLambda,
+ AB_PretendTo,
+ AB_Qualify,
+ AB_Quote,
+ AB_Raise,
+ AB_Reference,
+ AB_Repeat,
+ AB_RestrictTo,
+ AB_Return,
+ AB_Select,
+ AB_Sequence,
+ AB_Test,
+ AB_Try,
+ AB_Unit,
+ AB_Where,
+ AB_While,
+ AB_With,
+ AB_Yield,
+
+    AB_NODE_LIMIT,
+    AB_LIMIT = AB_NODE_LIMIT
+};
+
+typedef enum abSynTag AbSynTag;
+# 208 "./absyn.h"
+extern AbSyn __abNewTest (SrcPos, AbSyn);
+# 220 "./absyn.h"
+enum ab_use {
+ AB_Use_Declaration,
+ AB_Use_Type,
+ AB_Use_Label,
+ AB_Use_Assign,
+ AB_Use_Define,
+ AB_Use_Value,
+ AB_Use_RetValue,
+ AB_Use_NoValue,
+ AB_Use_Iterator,
+ AB_Use_Default,
+ AB_Use_Except,
+ AB_Use_Elided,
+ AB_Use_LIMIT
+};
+
+typedef enum ab_use AbUse;
+
+
+
+
+
+enum ab_state {
+ AB_State_AbSyn,
+ AB_State_HasPoss,
+ AB_State_HasUnique,
+ AB_State_Error,
+ AB_State_LIMIT
+};
+
+typedef enum ab_state AbState;
+
+
+
+
+
+typedef ULong AbEmbed;
+# 286 "./absyn.h"
+struct abSeman {
+ Doc comment;
+ Stab stab;
+ int defnIdx;
+ Syme syme;
+ TForm tform;
+ AbSyn implicit;
+ AbEmbed embed;
+ SImpl impl;
+ SymeList self;
+};
+
+typedef struct abSeman *AbSeman;
+
+
+
+
+
+struct abHdr {
+ UByte tag;
+ UByte use;
+ UByte state;
+
+ Length argc;
+ SrcPosStack pos;
+
+ AbSeman seman;
+
+ union {
+  TPoss poss;
+  TForm unique;
+ } type;
+};
+
+struct abGen {
+ struct abHdr hdr;
+ union {
+  Symbol sym;
+  Doc doc;
+  String str;
+  AbSyn argv[10];
+ } data;
+};
+
+
+
+
+
+struct abBlank {
+ struct abHdr hdr;
+ Symbol sym;
+};
+
+struct abId {
+ struct abHdr hdr;
+ Symbol sym;
+};
+
+struct abIdSy {
+ struct abHdr hdr;
+ Symbol sym;
+};
+
+struct abDocText {
+ struct abHdr hdr;
+ Doc doc;
+};
+
+struct abLitInteger {
+ struct abHdr hdr;
+ String str;
+};
+
+struct abLitFloat {
+ struct abHdr hdr;
+ String str;
+};
+
+struct abLitString {
+ struct abHdr hdr;
+ String str;
+};
+
+
+
+
+
+struct abAdd {
+ struct abHdr hdr;
+ AbSyn base;
+ AbSyn capsule;
+};
+
+struct abAnd {
+ struct abHdr hdr;
+ AbSyn argv[10];
+};
+
+struct abApply {
+ struct abHdr hdr;
+ AbSyn op;
+ AbSyn argv[10];
+};
+
+struct abAssert {
+ struct abHdr hdr;
+ AbSyn test;
+};
+
+struct abAssign {
+ struct abHdr hdr;
+ AbSyn lhs;
+ AbSyn rhs;
+};
+
+struct abBreak {
+ struct abHdr hdr;
+ AbSyn label;
+};
+
+struct abBuiltin {
+ struct abHdr hdr;
+ AbSyn what;
+};
+
+struct abDeclare {
+ struct abHdr hdr;
+ AbSyn id;
+ AbSyn type;
+};
+
+struct abDo {
+ struct abHdr hdr;
+ AbSyn expr;
+};
+
+struct abDocumented {
+ struct abHdr hdr;
+ AbSyn expr;
+ AbSyn doc;
+};
+
+struct abCoerceTo {
+ struct abHdr hdr;
+ AbSyn expr;
+ AbSyn type;
+};
+
+struct abCollect {
+ struct abHdr hdr;
+ AbSyn body;
+ AbSyn iterv[10];
+};
+
+struct abComma {
+ struct abHdr hdr;
+ AbSyn argv[10];
+};
+
+struct abDefault {
+ struct abHdr hdr;
+ AbSyn body;
+};
+
+struct abDefine {
+ struct abHdr hdr;
+ AbSyn lhs;
+ AbSyn rhs;
+};
+
+struct abDDefine {
+ struct abHdr hdr;
+ AbSyn body;
+};
+
+struct abExcept {
+ struct abHdr hdr;
+ AbSyn type;
+ AbSyn except;
+};
+
+struct abExit {
+ struct abHdr hdr;
+ AbSyn test;
+ AbSyn value;
+};
+
+struct abExport {
+ struct abHdr hdr;
+ AbSyn what;
+ AbSyn origin;
+ AbSyn destination;
+};
+
+struct abExtend {
+ struct abHdr hdr;
+ AbSyn body;
+};
+
+struct abFix {
+ struct abHdr hdr;
+ AbSyn function;
+};
+
+struct abFluid {
+ struct abHdr hdr;
+ AbSyn argv[10];
+};
+
+struct abFor {
+ struct abHdr hdr;
+ AbSyn lhs;
+ AbSyn whole;
+ AbSyn test;
+};
+
+struct abForeignImport {
+ struct abHdr hdr;
+ AbSyn what;
+ AbSyn origin;
+};
+
+struct abForeignExport {
+ struct abHdr hdr;
+ AbSyn what;
+ AbSyn dest;
+};
+
+struct abFree {
+ struct abHdr hdr;
+ AbSyn argv[10];
+};
+
+struct abGenerate {
+ struct abHdr hdr;
+ AbSyn count;
+ AbSyn body;
+};
+
+struct abGoto {
+ struct abHdr hdr;
+ AbSyn label;
+};
+
+struct abHas {
+ struct abHdr hdr;
+ AbSyn expr;
+ AbSyn property;
+};
+
+struct abHide {
+ struct abHdr hdr;
+ AbSyn type;
+};
+
+struct abHook {
+ struct abHdr hdr;
+ AbSyn expr;
+};
+
+struct abIf {
+ struct abHdr hdr;
+ AbSyn test;
+ AbSyn thenAlt;
+ AbSyn elseAlt;
+};
+
+struct abImport {
+ struct abHdr hdr;
+ AbSyn what;
+ AbSyn origin;
+};
+
+struct abInline {
+ struct abHdr hdr;
+ AbSyn what;
+ AbSyn origin;
+};
+
+struct abIterate {
+ struct abHdr hdr;
+ AbSyn label;
+};
+
+struct abLabel {
+ struct abHdr hdr;
+ AbSyn label;
+ AbSyn expr;
+};
+
+struct abLambda {
+ struct abHdr hdr;
+ AbSyn param;
+ AbSyn rtype;
+ AbSyn body;
+};
+
+struct abLet {
+ struct abHdr hdr;
+ AbSyn context;
+ AbSyn expr;
+};
+
+struct abLocal {
+ struct abHdr hdr;
+ AbSyn argv[10];
+};
+
+struct abMacro {
+ struct abHdr hdr;
+ AbSyn expr;
+};
+
+struct abMDefine {
+ struct abHdr hdr;
+ AbSyn lhs;
+ AbSyn rhs;
+};
+
+struct abMLambda {
+ struct abHdr hdr;
+ AbSyn param;
+ AbSyn body;
+};
+
+struct abNever {
+ struct abHdr hdr;
+};
+
+struct abNot {
+ struct abHdr hdr;
+ AbSyn expr;
+};
+
+struct abNothing {
+ struct abHdr hdr;
+};
+
+struct abOr {
+ struct abHdr hdr;
+ AbSyn argv[10];
+};
+
+struct abParen {
+ struct abHdr hdr;
+ AbSyn expr;
+};
+
+struct abPLambda {
+ struct abHdr hdr;
+ AbSyn param;
+ AbSyn rtype;
+ AbSyn body;
+};
+
+struct abPretendTo {
+ struct abHdr hdr;
+ AbSyn expr;
+ AbSyn type;
+};
+
+struct abQualify {
+ struct abHdr hdr;
+ AbSyn what;
+ AbSyn origin;
+};
+
+struct abRaise {
+ struct abHdr hdr;
+ AbSyn expr;
+};
+
+struct abReference {
+ struct abHdr hdr;
+ AbSyn body;
+};
+
+struct abRepeat {
+ struct abHdr hdr;
+ AbSyn body;
+ AbSyn iterv[10];
+};
+
+struct abRestrictTo {
+ struct abHdr hdr;
+ AbSyn expr;
+ AbSyn type;
+};
+
+struct abRetractTo {
+ struct abHdr hdr;
+ AbSyn expr;
+ AbSyn type;
+};
+
+struct abReturn {
+ struct abHdr hdr;
+ AbSyn value;
+};
+
+struct abSelect {
+ struct abHdr hdr;
+ AbSyn testPart;
+ AbSyn alternatives;
+};
+
+struct abSequence {
+ struct abHdr hdr;
+ AbSyn argv[10];
+};
+
+struct abTest {
+ struct abHdr hdr;
+ AbSyn cond;
+};
+
+struct abTry {
+ struct abHdr hdr;
+ AbSyn expr;
+ AbSyn id;
+ AbSyn except;
+ AbSyn always;
+};
+
+struct abWhere {
+ struct abHdr hdr;
+ AbSyn context;
+ AbSyn expr;
+};
+
+struct abWhile {
+ struct abHdr hdr;
+ AbSyn test;
+};
+
+struct abWith {
+ struct abHdr hdr;
+ AbSyn base;
+ AbSyn within;
+};
+
+struct abYield {
+ struct abHdr hdr;
+ AbSyn value;
+};
+
+
+
+
+
+union abSyn {
+
+
+
+ struct abHdr abHdr;
+ struct abGen abGen;
+
+
+
+
+
+
+ struct abBlank abBlank;
+ struct abId abId;
+ struct abIdSy abIdSy;
+
+ struct abDocText abDocText;
+ struct abLitInteger abLitInteger;
+ struct abLitString abLitString;
+ struct abLitFloat abLitFloat;
+
+
+ struct abAdd abAdd;
+ struct abAnd abAnd;
+ struct abApply abApply;
+ struct abAssert abAssert;
+ struct abAssign abAssign;
+ struct abBreak abBreak;
+ struct abBuiltin abBuiltin;
+ struct abDeclare abDeclare;
+ struct abCoerceTo abCoerceTo;
+ struct abCollect abCollect;
+ struct abComma abComma;
+ struct abDefault abDefault;
+ struct abDefine abDefine;
+ struct abDDefine abDDefine;
+ struct abDo abDo;
+ struct abDocumented abDocumented;
+ struct abExcept abExcept;
+ struct abExit abExit;
+ struct abExport abExport;
+ struct abExtend abExtend;
+ struct abFix abFix;
+ struct abFluid abFluid;
+ struct abFor abFor;
+ struct abForeignImport abForeignImport;
+ struct abForeignExport abForeignExport;
+ struct abFree abFree;
+ struct abGenerate abGenerate;
+ struct abGoto abGoto;
+ struct abHas abHas;
+ struct abHide abHide;
+ struct abHook abHook;
+ struct abIf abIf;
+ struct abImport abImport;
+ struct abInline abInline;
+ struct abIterate abIterate;
+ struct abLabel abLabel;
+ struct abLambda abLambda;
+ struct abLet abLet;
+ struct abLocal abLocal;
+ struct abMacro abMacro;
+ struct abMDefine abMDefine;
+ struct abMLambda abMLambda;
+ struct abNever abNever;
+ struct abNot abNot;
+ struct abNothing abNothing;
+ struct abOr abOr;
+ struct abParen abParen;
+ struct abPLambda abPLambda;
+ struct abPretendTo abPretendTo;
+ struct abQualify abQualify;
+ struct abRaise abRaise;
+ struct abReference abReference;
+ struct abRepeat abRepeat;
+ struct abRestrictTo abRestrictTo;
+ struct abRetractTo abRetractTo;
+ struct abReturn abReturn;
+ struct abSelect abSelect;
+ struct abSequence abSequence;
+ struct abTest abTest;
+ struct abTry abTry;
+ struct abWhere abWhere;
+ struct abWhile abWhile;
+ struct abWith abWith;
+ struct abYield abYield;
+};
+# 831 "./absyn.h"
+struct ab_info {
+ AbSynTag tag;
+ Hash hash;
+ SExpr sxsym;
+ String str;
+ TokenTag tokenTag;
+};
+
+extern struct ab_info abInfoTable[];
+# 948 "./absyn.h"
+extern AbSyn abNewEmpty (AbSynTag t, Length argc);
+extern void abFree (AbSyn);
+extern void abFreeNode (AbSyn);
+
+extern AbSyn abNew (AbSynTag t, SrcPos, Length argc, ...);
+extern AbSyn abNewOfList (AbSynTag t, SrcPos, AbSynList);
+extern AbSyn abNewOfOpAndList (AbSynTag t, SrcPos,AbSyn op,AbSynList);
+extern AbSyn abNewOfToken (AbSynTag t, Token);
+
+extern AbSyn abNewAndAll (SrcPos, AbSynList);
+extern AbSyn abNewOrAll (SrcPos, AbSynList);
+
+extern AbSyn abCopy (AbSyn);
+extern AbSyn abReposition (AbSyn, SrcPos pos, SrcPos end);
+extern AbSyn abMarkAsMacroExpanded (AbSyn);
+extern Bool abContains (AbSyn, AbSyn);
+extern Bool abEqual (AbSyn, AbSyn);
+extern Bool abEqualModDeclares (AbSyn, AbSyn);
+extern Hash abHash (AbSyn);
+extern Hash abHashSefo (AbSyn);
+extern Hash abHashList (AbSynList);
+extern Hash abHashModDeclares (AbSyn);
+extern void abSubSymbol (AbSyn, Symbol, Symbol);
+extern AbSyn abFrSyme (Syme) __attribute__((nonnull (1)));
+
+extern int abPrint (FILE *, AbSyn);
+extern int abPrintDb (AbSyn);
+extern int abPrintClipped (FILE *, AbSyn, int maxNodes);
+extern int abPrintClippedDb (AbSyn, int maxNodes);
+extern int abOStreamPrint (OStream, AbSyn ab);
+
+extern SExpr abToSExpr (AbSyn);
+extern SExpr abToSExprElided (AbSyn);
+extern AbSyn abFrSExpr (SExpr);
+
+extern AbSyn abRdSExpr (FILE *, FileName *, int *lno);
+extern int abWrSExpr (FILE *, AbSyn, ULong sxioMode);
+
+extern int abToBuffer (Buffer buf, AbSyn ab);
+extern AbSyn abFrBuffer (Buffer buf);
+
+extern void abTransferSemantics (AbSyn from, AbSyn to);
+extern AbSeman abNewSemantics (void);
+
+extern Doc abSetComment (AbSyn, Doc);
+extern Stab abSetStab (AbSyn, Stab);
+extern Syme abSetSyme (AbSyn, Syme);
+extern void abSetSelf (AbSyn, SymeList);
+extern TForm abSetTForm (AbSyn, TForm);
+extern AbSyn abSetImplicit (AbSyn, AbSyn);
+extern AbEmbed abSetTContext (AbSyn, AbEmbed);
+extern AbEmbed abAddTContext (AbSyn, AbEmbed);
+extern void abSetDefineIdx (AbSyn, int);
+extern void abSetImpl (AbSyn, SImpl);
+
+extern TPoss abResetTPoss (AbSyn, TPoss);
+extern TPoss abReferTPoss (AbSyn);
+# 1013 "./absyn.h"
+extern Length abTreeHeight (AbSyn);
+extern SrcPos abEnd (AbSyn);
+extern void abSetEnd (AbSyn, SrcPos);
+extern void abPosNodeSpan (AbSyn, AbSyn *pmin, AbSyn *pmax);
+extern void abPosSpan (AbSyn, SrcPos *pmin, SrcPos *pmax);
+
+
+
+
+
+extern Bool abHasSymbol (AbSyn, Symbol);
+
+
+
+
+extern AbSyn abContainer (AbSyn root, SrcPos pos);
+
+
+
+
+
+extern AbSyn abSupremum (AbSyn root, AbSyn a, AbSyn b,
+      Bool (*eql)(AbSyn, AbSyn));
+
+
+
+
+
+extern AIntList abPathToNode (AbSyn root, AbSyn node,
+      Bool (*eql)(AbSyn, AbSyn),
+      int *plen, AIntList revPathSoFar);
+# 1055 "./absyn.h"
+extern AbSyn abNewNofix (SrcPos pos, AbSyn op);
+extern AbSyn abNewInfix (SrcPos pos, AbSyn op, AbSyn a, AbSyn b);
+extern AbSyn abNewPrefix (SrcPos pos, AbSyn op, AbSyn a);
+extern AbSyn abNewPostfix (SrcPos pos, AbSyn op, AbSyn a);
+extern AbSyn abNewMatchfix (SrcPos pos, AbSyn op, AbSyn a);
+
+
+
+
+
+typedef AbSyn (*AbSynGetter) (AbSyn, Length);
+
+
+
+
+
+extern AbSyn abArgf (AbSyn ab, Length i);
+
+
+
+
+
+extern AbSyn abThisArgf (AbSyn ab, Length i);
+
+
+
+
+
+extern AbSyn abForIterArgf (AbSyn ab, Length i);
+
+
+
+
+extern AbSyn abSetArgf (AbSyn ab, Length i);
+
+
+
+
+extern AbSyn abDefineeId (AbSyn ab);
+extern AbSyn abDefineeIdOrElse (AbSyn ab, AbSyn failure);
+extern AbSyn abDefineeType (AbSyn ab);
+extern AbSyn abDefineeTypeOrElse (AbSyn ab, AbSyn failed);
+
+
+
+
+
+extern AbSyn abApplyArgf (AbSyn app, Length i);
+
+
+
+
+
+extern AbSyn abNewApplyOfComma (AbSyn op, AbSyn arg);
+
+
+
+
+
+extern AbSyn abNewApplyArg (AbSyn app);
+
+
+
+
+
+extern AbSyn abNewApplyDeclaredArg (AbSyn app);
+
+
+
+
+
+extern AbSyn abCopyApplyArg (AbSyn app);
+
+
+
+
+
+extern AbSyn abOneOrNewOfList (AbSynTag t, AbSynList args);
+
+
+
+extern AbSyn abNewDefineLhs (Symbol sym, AbSynList params);
+
+
+
+extern AbSyn abNewDocTextOfList (TokenList);
+# 102 "./axlobs.h" 2
+# 1 "./foam.h" 1
+# 20 "./foam.h"
+enum foamTag {
+ FOAM_START,
+
+
+
+
+  FOAM_DATA_START = FOAM_START,
+
+   FOAM_Nil = FOAM_DATA_START,
+   FOAM_Char,
+   FOAM_Bool,
+   FOAM_Byte,
+   FOAM_HInt,
+   FOAM_SInt,
+   FOAM_SFlo,
+   FOAM_DFlo,
+   FOAM_Word,
+   FOAM_Arb,
+
+   FOAM_Int8,
+   FOAM_Int16,
+   FOAM_Int32,
+   FOAM_Int64,
+   FOAM_Int128,
+
+  FOAM_DATA_LIMIT,
+  FOAM_CONTROL_START = FOAM_DATA_LIMIT,
+
+   FOAM_NOp = FOAM_CONTROL_START,
+   FOAM_BVal,
+   FOAM_Ptr,
+   FOAM_CProg,
+   FOAM_CEnv,
+   FOAM_Loose,
+   FOAM_EEnsure,
+   FOAM_EInfo,
+   FOAM_Kill,
+   FOAM_Free,
+   FOAM_Return,
+   FOAM_Cast,
+   FOAM_ANew,
+   FOAM_RRNew,
+   FOAM_RRec,
+   FOAM_Clos,
+   FOAM_Set,
+   FOAM_Def,
+   FOAM_AElt,
+   FOAM_If,
+   FOAM_Goto,
+   FOAM_Throw,
+   FOAM_Catch,
+   FOAM_Protect,
+   FOAM_Unit,
+   FOAM_PushEnv,
+   FOAM_PopEnv,
+   FOAM_MFmt,
+   FOAM_RRFmt,
+                 FOAM_JavaObj,
+
+  FOAM_CONTROL_LIMIT,
+
+
+
+  FOAM_VECTOR_START = FOAM_CONTROL_LIMIT,
+
+   FOAM_Unimp = FOAM_VECTOR_START,
+   FOAM_GDecl,
+   FOAM_Decl,
+   FOAM_BInt,
+
+  FOAM_VECTOR_LIMIT,
+  FOAM_INDEX_START = FOAM_VECTOR_LIMIT,
+
+   FOAM_Par = FOAM_INDEX_START,
+   FOAM_Loc,
+   FOAM_Glo,
+   FOAM_Fluid,
+   FOAM_Const,
+   FOAM_Env,
+   FOAM_EEnv,
+   FOAM_RNew,
+   FOAM_PRef,
+   FOAM_TRNew,
+   FOAM_RRElt,
+   FOAM_Label,
+
+  FOAM_INDEX_LIMIT,
+  FOAM_MULTINT_START = FOAM_INDEX_LIMIT,
+
+   FOAM_Lex = FOAM_MULTINT_START,
+   FOAM_RElt,
+   FOAM_IRElt,
+   FOAM_TRElt,
+   FOAM_EElt,
+   FOAM_CFCall,
+   FOAM_OFCall,
+
+  FOAM_MULTINT_LIMIT,
+  FOAM_NARY_START = FOAM_MULTINT_LIMIT,
+
+   FOAM_DDecl = FOAM_NARY_START,
+   FOAM_DFluid,
+   FOAM_DEnv,
+   FOAM_DDef,
+   FOAM_DFmt,
+   FOAM_Rec,
+   FOAM_Arr,
+   FOAM_TR,
+   FOAM_Select,
+   FOAM_PCall,
+   FOAM_BCall,
+   FOAM_CCall,
+   FOAM_OCall,
+   FOAM_Seq,
+   FOAM_Values,
+   FOAM_Prog,
+
+  FOAM_NARY_LIMIT,
+
+ FOAM_LIMIT = FOAM_NARY_LIMIT
+};
+
+typedef enum foamTag FoamTag;
+
+
+enum foamBValTag {
+ FOAM_BVAL_START,
+  FOAM_BVal_BoolFalse = FOAM_BVAL_START,
+  FOAM_BVal_BoolTrue,
+  FOAM_BVal_BoolNot,
+  FOAM_BVal_BoolAnd,
+  FOAM_BVal_BoolOr,
+  FOAM_BVal_BoolEQ,
+  FOAM_BVal_BoolNE,
+
+  FOAM_BVal_CharSpace,
+  FOAM_BVal_CharNewline,
+  FOAM_BVal_CharTab,
+  FOAM_BVal_CharMin,
+  FOAM_BVal_CharMax,
+  FOAM_BVal_CharIsDigit,
+  FOAM_BVal_CharIsLetter,
+  FOAM_BVal_CharEQ,
+  FOAM_BVal_CharNE,
+  FOAM_BVal_CharLT,
+  FOAM_BVal_CharLE,
+  FOAM_BVal_CharLower,
+  FOAM_BVal_CharUpper,
+  FOAM_BVal_CharOrd,
+  FOAM_BVal_CharNum,
+
+  FOAM_BVal_SFlo0,
+  FOAM_BVal_SFlo1,
+  FOAM_BVal_SFloMin,
+  FOAM_BVal_SFloMax,
+  FOAM_BVal_SFloEpsilon,
+                FOAM_BVal_SFloIsZero,
+                FOAM_BVal_SFloIsNeg,
+                FOAM_BVal_SFloIsPos,
+  FOAM_BVal_SFloEQ,
+  FOAM_BVal_SFloNE,
+  FOAM_BVal_SFloLT,
+  FOAM_BVal_SFloLE,
+  FOAM_BVal_SFloNegate,
+  FOAM_BVal_SFloPrev,
+  FOAM_BVal_SFloNext,
+  FOAM_BVal_SFloPlus,
+  FOAM_BVal_SFloMinus,
+  FOAM_BVal_SFloTimes,
+  FOAM_BVal_SFloTimesPlus,
+  FOAM_BVal_SFloDivide,
+  FOAM_BVal_SFloRPlus,
+  FOAM_BVal_SFloRMinus,
+  FOAM_BVal_SFloRTimes,
+  FOAM_BVal_SFloRTimesPlus,
+  FOAM_BVal_SFloRDivide,
+  FOAM_BVal_SFloDissemble,
+  FOAM_BVal_SFloAssemble,
+
+  FOAM_BVal_DFlo0,
+  FOAM_BVal_DFlo1,
+  FOAM_BVal_DFloMin,
+  FOAM_BVal_DFloMax,
+  FOAM_BVal_DFloEpsilon,
+                FOAM_BVal_DFloIsZero,
+                FOAM_BVal_DFloIsNeg,
+                FOAM_BVal_DFloIsPos,
+  FOAM_BVal_DFloEQ,
+  FOAM_BVal_DFloNE,
+  FOAM_BVal_DFloLT,
+  FOAM_BVal_DFloLE,
+  FOAM_BVal_DFloNegate,
+  FOAM_BVal_DFloPrev,
+  FOAM_BVal_DFloNext,
+  FOAM_BVal_DFloPlus,
+  FOAM_BVal_DFloMinus,
+  FOAM_BVal_DFloTimes,
+  FOAM_BVal_DFloTimesPlus,
+  FOAM_BVal_DFloDivide,
+  FOAM_BVal_DFloRPlus,
+  FOAM_BVal_DFloRMinus,
+  FOAM_BVal_DFloRTimes,
+  FOAM_BVal_DFloRTimesPlus,
+  FOAM_BVal_DFloRDivide,
+  FOAM_BVal_DFloDissemble,
+  FOAM_BVal_DFloAssemble,
+
+  FOAM_BVal_Byte0,
+  FOAM_BVal_Byte1,
+  FOAM_BVal_ByteMin,
+  FOAM_BVal_ByteMax,
+
+  FOAM_BVal_HInt0,
+  FOAM_BVal_HInt1,
+  FOAM_BVal_HIntMin,
+  FOAM_BVal_HIntMax,
+
+  FOAM_BVal_SInt0,
+  FOAM_BVal_SInt1,
+  FOAM_BVal_SIntMin,
+  FOAM_BVal_SIntMax,
+                FOAM_BVal_SIntIsZero,
+                FOAM_BVal_SIntIsNeg,
+                FOAM_BVal_SIntIsPos,
+  FOAM_BVal_SIntIsEven,
+  FOAM_BVal_SIntIsOdd,
+  FOAM_BVal_SIntEQ,
+  FOAM_BVal_SIntNE,
+  FOAM_BVal_SIntLT,
+  FOAM_BVal_SIntLE,
+  FOAM_BVal_SIntNegate,
+  FOAM_BVal_SIntPrev,
+  FOAM_BVal_SIntNext,
+  FOAM_BVal_SIntPlus,
+  FOAM_BVal_SIntMinus,
+  FOAM_BVal_SIntTimes,
+  FOAM_BVal_SIntTimesPlus,
+  FOAM_BVal_SIntMod,
+  FOAM_BVal_SIntQuo,
+  FOAM_BVal_SIntRem,
+  FOAM_BVal_SIntDivide,
+  FOAM_BVal_SIntGcd,
+  FOAM_BVal_SIntPlusMod,
+  FOAM_BVal_SIntMinusMod,
+  FOAM_BVal_SIntTimesMod,
+  FOAM_BVal_SIntTimesModInv,
+  FOAM_BVal_SIntLength,
+  FOAM_BVal_SIntShiftUp,
+  FOAM_BVal_SIntShiftDn,
+  FOAM_BVal_SIntBit,
+  FOAM_BVal_SIntNot,
+  FOAM_BVal_SIntAnd,
+  FOAM_BVal_SIntOr,
+  FOAM_BVal_SIntXOr,
+  FOAM_BVal_SIntHashCombine,
+
+  FOAM_BVal_WordTimesDouble,
+  FOAM_BVal_WordDivideDouble,
+  FOAM_BVal_WordPlusStep,
+  FOAM_BVal_WordTimesStep,
+
+  FOAM_BVal_BInt0,
+  FOAM_BVal_BInt1,
+                FOAM_BVal_BIntIsZero,
+                FOAM_BVal_BIntIsNeg,
+                FOAM_BVal_BIntIsPos,
+  FOAM_BVal_BIntIsEven,
+  FOAM_BVal_BIntIsOdd,
+  FOAM_BVal_BIntIsSingle,
+  FOAM_BVal_BIntEQ,
+  FOAM_BVal_BIntNE,
+  FOAM_BVal_BIntLT,
+  FOAM_BVal_BIntLE,
+  FOAM_BVal_BIntNegate,
+  FOAM_BVal_BIntPrev,
+  FOAM_BVal_BIntNext,
+  FOAM_BVal_BIntPlus,
+  FOAM_BVal_BIntMinus,
+  FOAM_BVal_BIntTimes,
+  FOAM_BVal_BIntTimesPlus,
+  FOAM_BVal_BIntMod,
+  FOAM_BVal_BIntQuo,
+  FOAM_BVal_BIntRem,
+  FOAM_BVal_BIntDivide,
+  FOAM_BVal_BIntGcd,
+  FOAM_BVal_BIntSIPower,
+  FOAM_BVal_BIntBIPower,
+         FOAM_BVal_BIntPowerMod,
+  FOAM_BVal_BIntLength,
+  FOAM_BVal_BIntShiftUp,
+  FOAM_BVal_BIntShiftDn,
+  FOAM_BVal_BIntShiftRem,
+  FOAM_BVal_BIntBit,
+
+  FOAM_BVal_PtrNil,
+  FOAM_BVal_PtrIsNil,
+  FOAM_BVal_PtrMagicEQ,
+  FOAM_BVal_PtrEQ,
+  FOAM_BVal_PtrNE,
+
+  FOAM_BVal_FormatSFlo,
+  FOAM_BVal_FormatDFlo,
+  FOAM_BVal_FormatSInt,
+  FOAM_BVal_FormatBInt,
+
+  FOAM_BVal_ScanSFlo,
+  FOAM_BVal_ScanDFlo,
+  FOAM_BVal_ScanSInt,
+  FOAM_BVal_ScanBInt,
+
+  FOAM_BVal_SFloToDFlo,
+  FOAM_BVal_DFloToSFlo,
+  FOAM_BVal_ByteToSInt,
+  FOAM_BVal_SIntToByte,
+  FOAM_BVal_HIntToSInt,
+  FOAM_BVal_SIntToHInt,
+  FOAM_BVal_SIntToBInt,
+  FOAM_BVal_BIntToSInt,
+  FOAM_BVal_SIntToSFlo,
+  FOAM_BVal_SIntToDFlo,
+  FOAM_BVal_BIntToSFlo,
+  FOAM_BVal_BIntToDFlo,
+  FOAM_BVal_PtrToSInt,
+  FOAM_BVal_SIntToPtr,
+
+  FOAM_BVal_ArrToSFlo,
+  FOAM_BVal_ArrToDFlo,
+  FOAM_BVal_ArrToSInt,
+  FOAM_BVal_ArrToBInt,
+
+  FOAM_BVal_PlatformRTE,
+  FOAM_BVal_PlatformOS,
+  FOAM_BVal_Halt,
+
+  FOAM_BVal_RoundZero,
+  FOAM_BVal_RoundNearest,
+  FOAM_BVal_RoundUp,
+  FOAM_BVal_RoundDown,
+  FOAM_BVal_RoundDontCare,
+
+  FOAM_BVal_SFloTruncate,
+  FOAM_BVal_SFloFraction,
+  FOAM_BVal_SFloRound,
+
+  FOAM_BVal_DFloTruncate,
+  FOAM_BVal_DFloFraction,
+  FOAM_BVal_DFloRound,
+
+  FOAM_BVal_StoForceGC,
+  FOAM_BVal_StoInHeap,
+  FOAM_BVal_StoIsWritable,
+  FOAM_BVal_StoMarkObject,
+  FOAM_BVal_StoRecode,
+  FOAM_BVal_StoNewObject,
+  FOAM_BVal_StoATracer,
+  FOAM_BVal_StoCTracer,
+  FOAM_BVal_StoShow,
+  FOAM_BVal_StoShowArgs,
+
+  FOAM_BVal_TypeInt8,
+  FOAM_BVal_TypeInt16,
+  FOAM_BVal_TypeInt32,
+  FOAM_BVal_TypeInt64,
+  FOAM_BVal_TypeInt128,
+
+  FOAM_BVal_TypeNil,
+  FOAM_BVal_TypeChar,
+  FOAM_BVal_TypeBool,
+  FOAM_BVal_TypeByte,
+  FOAM_BVal_TypeHInt,
+  FOAM_BVal_TypeSInt,
+  FOAM_BVal_TypeBInt,
+  FOAM_BVal_TypeSFlo,
+  FOAM_BVal_TypeDFlo,
+  FOAM_BVal_TypeWord,
+  FOAM_BVal_TypeClos,
+  FOAM_BVal_TypePtr,
+  FOAM_BVal_TypeRec,
+  FOAM_BVal_TypeArr,
+  FOAM_BVal_TypeTR,
+
+  FOAM_BVal_RawRepSize,
+
+  FOAM_BVal_SizeOfInt8,
+  FOAM_BVal_SizeOfInt16,
+  FOAM_BVal_SizeOfInt32,
+  FOAM_BVal_SizeOfInt64,
+  FOAM_BVal_SizeOfInt128,
+
+  FOAM_BVal_SizeOfNil,
+  FOAM_BVal_SizeOfChar,
+  FOAM_BVal_SizeOfBool,
+  FOAM_BVal_SizeOfByte,
+  FOAM_BVal_SizeOfHInt,
+  FOAM_BVal_SizeOfSInt,
+  FOAM_BVal_SizeOfBInt,
+  FOAM_BVal_SizeOfSFlo,
+  FOAM_BVal_SizeOfDFlo,
+  FOAM_BVal_SizeOfWord,
+  FOAM_BVal_SizeOfClos,
+  FOAM_BVal_SizeOfPtr,
+  FOAM_BVal_SizeOfRec,
+  FOAM_BVal_SizeOfArr,
+  FOAM_BVal_SizeOfTR,
+
+  FOAM_BVal_ListNil,
+  FOAM_BVal_ListEmptyP,
+  FOAM_BVal_ListHead,
+  FOAM_BVal_ListTail,
+  FOAM_BVal_ListCons,
+
+  FOAM_BVal_NewExportTable,
+  FOAM_BVal_AddToExportTable,
+  FOAM_BVal_FreeExportTable,
+
+  FOAM_BVal_ssaPhi,
+
+ FOAM_BVAL_LIMIT
+};
+
+
+enum foamProtoTag {
+   FOAM_PROTO_START,
+ FOAM_Proto_Foam = FOAM_PROTO_START,
+ FOAM_Proto_Fortran,
+ FOAM_Proto_C,
+ FOAM_Proto_Java,
+ FOAM_Proto_JavaConstructor,
+ FOAM_Proto_JavaMethod,
+ FOAM_Proto_Lisp,
+ FOAM_Proto_Init,
+ FOAM_Proto_Include,
+ FOAM_Proto_Other,
+   FOAM_PROTO_LIMIT
+};
+
+enum foamDDeclTag {
+ FOAM_DDecl_LocalEnv,
+ FOAM_DDecl_NonLocalEnv,
+ FOAM_DDecl_Param,
+ FOAM_DDecl_Local,
+ FOAM_DDecl_Fluid,
+ FOAM_DDecl_Multi,
+ FOAM_DDecl_Union,
+ FOAM_DDecl_Record,
+ FOAM_DDecl_TrailingArray,
+ FOAM_DDecl_Consts,
+ FOAM_DDecl_Global,
+ FOAM_DDecl_FortranSig,
+ FOAM_DDecl_CSig,
+ FOAM_DDecl_JavaSig,
+ FOAM_DDecl_JavaClass,
+   FOAM_DDECL_LIMIT
+};
+
+enum foamGDeclDirTag {
+ FOAM_GDecl_Export,
+ FOAM_GDecl_Import
+};
+
+typedef enum foamBValTag FoamBValTag;
+typedef enum foamProtoTag FoamProtoTag;
+typedef enum foamDDeclTag FoamDDeclTag;
+typedef enum foamGDeclDirTag FoamGDeclDirTag;
+
+enum foamHaltCode {
+ FOAM_Halt_BadDependentType = 101,
+ FOAM_Halt_NeverReached = 102,
+ FOAM_Halt_BadUnionCase = 103,
+ FOAM_Halt_AssertFailed = 104,
+ FOAM_Halt_BadFortranRecursion = 105,
+ FOAM_Halt_BadPointerWrite = 106
+};
+# 504 "./foam.h"
+struct foamHdr {
+ UByte tag;
+ UByte mark;
+ UByte dvMark;
+ SrcPos pos;
+ union {
+  OptInfo opt;
+  Bool pure;
+  Bool fixed;
+  Symbol sym;
+  Bool lazy;
+   int defNo;
+   UdInfoList defList;
+  ExpInfo expInfo;
+                InvInfo invInfo;
+
+  FoamUses fuses;
+
+ } info;
+ int defnId;
+ Syme syme;
+ Length argc;
+};
+
+struct foamGen {
+ struct foamHdr hdr;
+ union {
+  Foam code;
+  AInt data;
+  String str;
+  BInt bint;
+  SFloat sfloat;
+ } argv[10];
+};
+
+
+
+
+struct foamNil {
+ struct foamHdr hdr;
+};
+
+
+
+
+struct foamChar {
+ struct foamHdr hdr;
+ AInt CharData;
+};
+
+
+
+
+struct foamBool {
+ struct foamHdr hdr;
+ AInt BoolData;
+};
+
+
+
+
+struct foamByte {
+ struct foamHdr hdr;
+ AInt ByteData;
+};
+
+
+
+
+struct foamHInt {
+ struct foamHdr hdr;
+ AInt HIntData;
+};
+
+
+
+
+struct foamSInt {
+ struct foamHdr hdr;
+ AInt SIntData;
+};
+extern Foam foamSIntReduce(Foam foam);
+
+
+
+struct foamBInt {
+ struct foamHdr hdr;
+ BInt BIntData;
+};
+
+extern Foam foamNewSFlo(SFloat);
+
+
+struct foamSFlo {
+ struct foamHdr hdr;
+ SFloat SFloData;
+};
+
+extern Foam foamNewDFlo(DFloat);
+
+
+struct foamDFlo {
+ struct foamHdr hdr;
+ DFloat DFloData;
+};
+
+struct foamWord {
+ struct foamHdr hdr;
+ AInt data;
+};
+
+struct foamArb {
+ struct foamHdr hdr;
+ AInt data[2];
+};
+
+struct foamArr {
+ struct foamHdr hdr;
+ AInt baseType;
+ AInt eltv[10];
+};
+
+extern String foamArrToString(Foam);
+
+struct foamRec {
+ struct foamHdr hdr;
+ AInt format;
+ Foam eltv[10];
+};
+
+struct foamRRec {
+ struct foamHdr hdr;
+ AInt nargs;
+ Foam fmt;
+ Foam values;
+};
+# 651 "./foam.h"
+extern Foam foamNewProgEmpty(void);
+
+struct foamProg {
+ struct foamHdr hdr;
+ AInt endOffset;
+ AInt nLabels;
+ AInt retType;
+ AInt format;
+ AInt infoBits;
+
+ AInt size;
+ AInt time;
+ AInt auxInfo;
+
+
+
+
+ Foam params;
+
+ Foam locals;
+ Foam fluids;
+ Foam levels;
+ Foam body;
+};
+
+
+
+struct foamClos {
+ struct foamHdr hdr;
+ Foam env;
+ Foam prog;
+};
+
+
+
+
+
+extern Bool foamGDeclIsImport(Foam);
+extern Bool foamGDeclIsExport(Foam);
+extern Bool foamGDeclIsExportOf(AInt, Foam);
+
+struct foamGDecl {
+ struct foamHdr hdr;
+ AInt type;
+ String id;
+ AInt rtype;
+ AInt format;
+ AInt dir;
+ AInt protocol;
+};
+
+
+
+
+struct foamDecl {
+ struct foamHdr hdr;
+ AInt type;
+ String id;
+ AInt symeIndex;
+ AInt format;
+};
+
+
+extern Foam foamNewDDecl(AInt usage, ...);
+extern Foam foamNewDDeclOfList(AInt usage, FoamList args);
+
+struct foamDDecl {
+ struct foamHdr hdr;
+ AInt usage;
+ Foam argv[10];
+};
+
+
+
+
+
+struct foamDFluid {
+ struct foamHdr hdr;
+ AInt argv[10];
+};
+
+
+
+struct foamDEnv {
+ struct foamHdr hdr;
+ AInt argv[10];
+};
+
+
+
+struct foamDFmt {
+ struct foamHdr hdr;
+ Foam argv[10];
+};
+
+
+
+
+struct foamDef {
+ struct foamHdr hdr;
+ Foam lhs;
+ Foam rhs;
+};
+
+struct foamDDef {
+ struct foamHdr hdr;
+ Foam argv[10];
+};
+
+
+
+struct foamPar {
+ struct foamHdr hdr;
+ AInt index;
+};
+
+
+
+
+
+struct foamLoc {
+ struct foamHdr hdr;
+ AInt index;
+};
+
+
+
+
+struct foamLex {
+ struct foamHdr hdr;
+ AInt level;
+ AInt index;
+};
+
+
+
+struct foamGlo {
+ struct foamHdr hdr;
+ AInt index;
+};
+
+
+
+struct foamConst {
+ struct foamHdr hdr;
+ AInt index;
+};
+
+
+
+struct foamFluid {
+ struct foamHdr hdr;
+ AInt index;
+};
+
+
+
+struct foamEnv {
+ struct foamHdr hdr;
+ AInt level;
+};
+
+
+
+struct foamEEnv {
+ struct foamHdr hdr;
+ AInt level;
+ Foam env;
+};
+
+
+
+struct foamPRef {
+ struct foamHdr hdr;
+ AInt idx;
+ Foam prog;
+};
+
+
+
+struct foamLabel {
+ struct foamHdr hdr;
+ AInt label;
+};
+
+
+
+struct foamPtr {
+ struct foamHdr hdr;
+ Foam val;
+};
+
+
+
+struct foamCProg {
+ struct foamHdr hdr;
+ Foam prog;
+};
+
+
+
+struct foamCEnv {
+ struct foamHdr hdr;
+ Foam env;
+};
+
+
+
+struct foamLoose {
+ struct foamHdr hdr;
+ Foam loc;
+};
+
+
+
+struct foamEEnsure {
+ struct foamHdr hdr;
+ Foam env;
+};
+
+
+
+struct foamEInfo {
+ struct foamHdr hdr;
+ Foam env;
+};
+
+
+
+struct foamAElt {
+ struct foamHdr hdr;
+ AInt baseType;
+ Foam index;
+ Foam expr;
+};
+
+
+
+struct foamRRNew {
+ struct foamHdr hdr;
+ AInt argc;
+ Foam fmt;
+};
+
+
+
+
+struct foamRRElt {
+ struct foamHdr hdr;
+ AInt field;
+ Foam fmt;
+ Foam data;
+};
+
+
+
+
+struct foamRRFmt {
+ struct foamHdr hdr;
+ Foam fmt;
+};
+
+
+
+
+struct foamRElt {
+ struct foamHdr hdr;
+ AInt format;
+ Foam expr;
+ AInt field;
+};
+
+
+
+struct foamIRElt {
+ struct foamHdr hdr;
+ AInt format;
+ Foam expr;
+ AInt field;
+};
+
+
+
+struct foamTRElt {
+ struct foamHdr hdr;
+ AInt format;
+ Foam expr;
+ Foam index;
+ AInt field;
+};
+
+
+
+struct foamEElt {
+ struct foamHdr hdr;
+ AInt env;
+ Foam ref;
+ AInt level;
+ AInt lex;
+};
+
+
+
+
+struct foamBVal {
+ struct foamHdr hdr;
+ AInt builtinTag;
+};
+
+
+
+
+struct foamUnimp {
+ struct foamHdr hdr;
+ String str;
+};
+
+
+
+
+struct foamNOp {
+ struct foamHdr hdr;
+};
+
+
+
+struct foamSet {
+ struct foamHdr hdr;
+ Foam lhs;
+ Foam rhs;
+};
+
+
+
+struct foamIf {
+ struct foamHdr hdr;
+ Foam test;
+ AInt label;
+};
+
+extern Foam foamNewSeq(Foam arg0, ...);
+
+struct foamSeq {
+ struct foamHdr hdr;
+ Foam argv[10];
+};
+
+
+
+struct foamANew {
+ struct foamHdr hdr;
+ AInt eltType;
+ Foam size;
+};
+
+
+
+struct foamRNew {
+ struct foamHdr hdr;
+ AInt format;
+};
+
+
+
+struct foamTRNew {
+ struct foamHdr hdr;
+ AInt format;
+ Foam size;
+};
+
+
+
+struct foamCast {
+ struct foamHdr hdr;
+ AInt type;
+ Foam expr;
+};
+
+extern Foam foamNewPCall(AInt protocol, AInt type, Foam op, ...);
+extern Foam foamNewPCallOfList(AInt protocol, AInt type, Foam op, FoamList args);
+
+struct foamPCall {
+ struct foamHdr hdr;
+ AInt protocol;
+ AInt type;
+ Foam op;
+ Foam argv[10];
+};
+
+
+
+
+extern Foam foamNewBCall(AInt op, ...);
+
+
+
+
+struct foamBCall {
+ struct foamHdr hdr;
+ AInt op;
+ Foam argv[10];
+};
+
+
+
+
+struct foamCCall {
+ struct foamHdr hdr;
+ AInt type;
+ Foam op;
+ Foam argv[10];
+};
+
+
+
+extern Foam foamNewCCall(AInt type, Foam foam, ...);
+extern Foam foamNewCCallOfList(AInt type, Foam op, FoamList args);
+
+struct foamOCall {
+ struct foamHdr hdr;
+ AInt type;
+ Foam op;
+ Foam env;
+ Foam argv[10];
+};
+
+
+
+
+struct foamCFCall {
+ struct foamHdr hdr;
+ Foam clos;
+ AInt fmt;
+ AInt retFmt;
+ Foam argsPtr;
+};
+
+
+
+
+struct foamOFCall {
+ struct foamHdr hdr;
+ Foam prog;
+ Foam env;
+ AInt fmt;
+ AInt retFmt;
+ Foam argsPtr;
+};
+
+
+
+
+struct foamSelect {
+ struct foamHdr hdr;
+ Foam op;
+ AInt argv[10];
+};
+
+
+
+struct foamUnit {
+ struct foamHdr hdr;
+ Foam formats;
+ Foam defs;
+};
+
+
+
+
+
+struct foamPushEnv {
+ struct foamHdr hdr;
+ AInt format;
+ Foam parent;
+};
+
+
+
+struct foamPopEnv {
+ struct foamHdr hdr;
+};
+
+
+
+struct foamMFmt {
+ struct foamHdr hdr;
+ AInt format;
+ Foam value;
+};
+
+
+struct foamValues {
+ struct foamHdr hdr;
+ Foam argv[10];
+};
+
+struct foamKill {
+ struct foamHdr hdr;
+ Foam place;
+};
+
+
+
+struct foamFree {
+ struct foamHdr hdr;
+ Foam place;
+};
+
+
+
+struct foamGoto {
+ struct foamHdr hdr;
+ AInt label;
+};
+
+
+
+struct foamThrow {
+ struct foamHdr hdr;
+ Foam tag;
+ Foam val;
+};
+
+
+
+struct foamCatch {
+ struct foamHdr hdr;
+ Foam ref;
+ Foam expr;
+};
+
+
+
+struct foamProtect {
+ struct foamHdr hdr;
+ Foam val;
+ Foam expr;
+ Foam after;
+};
+
+
+
+struct foamReturn {
+ struct foamHdr hdr;
+ Foam value;
+};
+
+
+union foam {
+ struct foamHdr hdr;
+ struct foamGen foamGen;
+
+ struct foamNil foamNil;
+ struct foamChar foamChar;
+ struct foamBool foamBool;
+ struct foamByte foamByte;
+ struct foamHInt foamHInt;
+ struct foamSInt foamSInt;
+ struct foamBInt foamBInt;
+ struct foamSFlo foamSFlo;
+ struct foamDFlo foamDFlo;
+ struct foamWord foamWord;
+ struct foamArb foamArb;
+ struct foamArr foamArr;
+ struct foamRec foamRec;
+ struct foamRRec foamRRec;
+ struct foamProg foamProg;
+ struct foamClos foamClos;
+
+ struct foamDecl foamDecl;
+ struct foamGDecl foamGDecl;
+ struct foamDDecl foamDDecl;
+ struct foamDFluid foamDFluid;
+ struct foamDEnv foamDEnv;
+ struct foamDFmt foamDFmt;
+ struct foamDef foamDef;
+ struct foamDDef foamDDef;
+
+ struct foamPar foamPar;
+ struct foamLoc foamLoc;
+ struct foamLex foamLex;
+ struct foamGlo foamGlo;
+ struct foamFluid foamFluid;
+ struct foamConst foamConst;
+ struct foamEnv foamEnv;
+ struct foamEEnv foamEEnv;
+ struct foamPRef foamPRef;
+ struct foamLabel foamLabel;
+ struct foamPtr foamPtr;
+ struct foamCProg foamCProg;
+ struct foamCEnv foamCEnv;
+ struct foamLoose foamLoose;
+ struct foamEEnsure foamEEnsure;
+ struct foamEInfo foamEInfo;
+ struct foamAElt foamAElt;
+ struct foamRElt foamRElt;
+ struct foamRRElt foamRRElt;
+ struct foamIRElt foamIRElt;
+ struct foamTRElt foamTRElt;
+ struct foamEElt foamEElt;
+ struct foamBVal foamBVal;
+
+ struct foamUnimp foamUnimp;
+ struct foamNOp foamNOp;
+ struct foamSet foamSet;
+ struct foamIf foamIf;
+ struct foamSeq foamSeq;
+ struct foamSelect foamSelect;
+ struct foamANew foamANew;
+ struct foamRNew foamRNew;
+ struct foamRRNew foamRRNew;
+ struct foamTRNew foamTRNew;
+ struct foamCast foamCast;
+ struct foamPCall foamPCall;
+ struct foamBCall foamBCall;
+ struct foamCCall foamCCall;
+ struct foamOCall foamOCall;
+ struct foamCFCall foamCFCall;
+ struct foamOFCall foamOFCall;
+ struct foamPushEnv foamPushEnv;
+ struct foamPopEnv foamPopEnv;
+ struct foamMFmt foamMFmt;
+ struct foamRRFmt foamRRFmt;
+ struct foamValues foamValues;
+
+ struct foamUnit foamUnit;
+
+ struct foamKill foamKill;
+ struct foamFree foamFree;
+ struct foamGoto foamGoto;
+ struct foamThrow foamThrow;
+ struct foamCatch foamCatch;
+ struct foamProtect foamProtect;
+ struct foamReturn foamReturn;
+};
+# 1297 "./foam.h"
+struct foam_info {
+ FoamTag tag;
+ SExpr sxsym;
+ String str;
+ short argc;
+ String argf;
+ int properties;
+};
+
+
+
+
+struct foamBVal_info {
+ FoamBValTag tag;
+ SExpr sxsym;
+ String str;
+ UByte hasSideFx;
+ UByte argCount;
+ UByte argTypes[5];
+ UByte retType;
+ UByte retCount;
+ UByte retTypes[4];
+};
+
+struct foamProto_info {
+ FoamProtoTag tag;
+ SExpr sxsym;
+ String str;
+ FoamProtoTag base;
+};
+
+struct foamDDecl_info {
+ FoamDDeclTag tag;
+ SExpr sxsym;
+ String str;
+};
+
+extern struct foam_info foamInfoTable[];
+extern struct foamBVal_info foamBValInfoTable[];
+extern struct foamProto_info foamProtoInfoTable[];
+extern struct foamDDecl_info foamDDeclInfoTable[];
+# 1496 "./foam.h"
+extern void foamInit (void);
+
+extern Foam foamNewEmpty (FoamTag t, Length argc);
+extern Foam foamNew (FoamTag t, Length argc, ...);
+extern Foam foamNewOfList (FoamTag t, FoamList);
+extern Foam foamNewOfList1 (FoamTag t, AInt, FoamList);
+
+extern SrcPos foamDefaultPosition;
+
+extern void foamFree (Foam);
+extern Foam foamCopy (Foam);
+extern Length foamNodeCount (Foam);
+
+extern int foamNaryStart (FoamTag);
+
+extern Bool foamEqual (Foam, Foam);
+extern Bool foamEqualModBuffer(Foam, Foam);
+extern Hash foamHash (Foam);
+
+extern void foamFreeNode (Foam);
+extern Foam foamCopyNode (Foam);
+
+extern Bool foamAuditAll (Foam, UShort);
+extern Bool foamAudit (Foam);
+extern void foamAuditDecl (Foam);
+extern void foamAuditSetAll(void);
+extern int foamTagLimit (void);
+extern int foamTagSpanLength(void);
+
+extern Bool foamIsRef (Foam);
+
+extern int foamPrint (FILE *, Foam);
+extern int foamPrintDb (Foam);
+extern void foamDumpToFile (Foam, String);
+
+
+
+
+extern int foamWrSExpr (FILE *, Foam, ULong sxioMode);
+extern Foam foamRdSExpr (FILE *, FileName *, int *lno);
+
+extern SExpr foamToSExpr (Foam);
+extern Foam foamFrSExpr (SExpr);
+
+extern String foamToString (Foam);
+extern Foam foamFrString (String);
+
+extern int foamToBuffer (Buffer, Foam);
+extern Foam foamFrBuffer (Buffer);
+extern Bool foamVerifyBuffer(Buffer, Foam);
+
+extern void foamPosToBuffer (Buffer, Foam);
+extern void foamPosFrBuffer (Buffer, Foam);
+
+extern void foamPosBufPrint (FILE *, Buffer);
+
+extern Foam foamFormatsFrBuffer (Buffer);
+extern Foam foamConstFrBuffer (Buffer, int);
+extern Length foamConstcFrBuffer (Buffer);
+extern void foamConstvFrBuffer (Buffer, Length, int *);
+extern void foamConstvFrFoam (Foam, Length, Foam *);
+
+extern Foam foamGetProgHdrFrBuffer (Buffer, int);
+
+
+
+
+
+extern FoamTag foamExprType (Foam, Foam, Foam, FoamBox, FoamBox,
+      AInt *);
+extern FoamTag foamExprType0 (Foam expr, Foam prog, Foam formats, FoamBox locals,
+      FoamBox formatBox, AInt *extra);
+extern FoamTag foamExprTypeG0 (Foam, Foam, Foam, FoamBox, FoamBox,
+      FoamBox, AInt *);
+typedef Foam (*FoamExprTypeCallback)(void *, Foam);
+extern FoamTag foamExprTypeCB(Foam expr, AInt *extra, FoamExprTypeCallback callback, void *arg);
+
+extern int foamCountSubtreesOfKind(Foam foam, FoamTag kind);
+
+extern Bool foamTypeIsVoid(Foam fmts, FoamTag type, AInt fmt);
+extern Bool foamTypeIsMulti(Foam fmts, FoamTag type, AInt fmt);
+extern Bool foamTypeIsValue(Foam fmts, FoamTag type, AInt fmt);
+
+extern Foam foamNeutralValue(FoamTag foam);
+# 1599 "./foam.h"
+extern Bool foamProgHasMultiAssign(Foam prog);
+extern Bool foamIsMultiAssign(Foam prog);
+
+extern Bool foamDeclEqual(Foam, Foam);
+
+extern int foamSeqNextReachable(Foam seq, int index);
+# 1617 "./foam.h"
+extern Foam foamNotThis (Foam);
+extern Bool foamIsData (Foam);
+extern Bool foamHasSideEffect (Foam);
+extern Bool foamIsControlFlow (Foam);
+
+typedef Bool (*FoamTestFn)(Foam f);
+extern Foam foamFindFirst(FoamTestFn testFn, Foam foam);
+
+Foam foamCastIfNeeded(FoamTag wanted, FoamTag actual, Foam foam);
+# 103 "./axlobs.h" 2
+# 128 "./axlobs.h"
+struct ob_info {
+ UByte code;
+ String str;
+ Bool hasPtrs;
+};
+
+extern struct ob_info obInfo[];
+
+extern void obInit (void);
+extern int obPrint (FILE *, Pointer);
+# 2 "test/test_bitv.c" 2
+# 1 "./bitv.h" 1
+# 14 "./bitv.h"
+typedef ULong BitvWord;
+
+typedef BitvWord *Bitv;
+
+struct _BitvClass {
+
+ Length nbits;
+ Length nwords;
+
+};
+
+typedef struct _BitvClass * BitvClass;
+
+
+
+
+
+
+extern BitvClass bitvClassCreate (int nbits);
+extern void bitvClassDestroy(BitvClass);
+
+
+
+
+extern Bitv bitvNew (BitvClass);
+extern void bitvFree (Bitv);
+extern Bitv bitvResize (BitvClass, BitvClass, Bitv);
+extern Bitv * bitvManyNew (BitvClass, Length n);
+extern void bitvManyFree (Bitv *);
+
+extern int bitvPrint (FILE *, BitvClass, Bitv);
+extern String bitvToString (BitvClass, Bitv);
+extern int bitvPrintDb (BitvClass, Bitv);
+extern Bool bitvEqual (BitvClass, Bitv, Bitv);
+extern int bitvMax (BitvClass, Bitv);
+extern int bitvCount (BitvClass, Bitv);
+extern int bitvCountTo (BitvClass, Bitv, int n);
+
+
+
+
+extern void bitvSetAll (BitvClass, Bitv r);
+extern void bitvClearAll (BitvClass, Bitv r);
+
+extern int bitvTest (BitvClass, Bitv r, int ix);
+extern void bitvSet (BitvClass, Bitv r, int ix);
+extern void bitvClear (BitvClass, Bitv r, int ix);
+
+extern void bitvCopy (BitvClass, Bitv r, Bitv a);
+extern void bitvNot (BitvClass, Bitv r, Bitv a);
+extern void bitvAnd (BitvClass, Bitv r, Bitv a, Bitv b);
+extern void bitvOr (BitvClass, Bitv r, Bitv a, Bitv b);
+extern void bitvMinus (BitvClass, Bitv r, Bitv a, Bitv b);
+
+
+
+
+extern int bitvUnique1IndexInRange(BitvClass, Bitv, int org, int lim);
+extern Bitv bitvFromInt(BitvClass, int);
+extern int bitvToInt(BitvClass, Bitv);
+# 3 "test/test_bitv.c" 2
+# 1 "./foam.h" 1
+# 4 "test/test_bitv.c" 2
+# 1 "test/testlib.h" 1
+
+
+
+# 1 "./cport.h" 1
+# 5 "test/testlib.h" 2
+
+void testStringEqual(String testName, String s1, String s2);
+void testPointerEqual(String testName, void *, void *);
+void testIntEqual(String testName, int s1, int s2);
+void testAIntEqual(String testName, AInt s1, AInt s2);
+void testIntIsNotZero(String testName, int s1);
+
+void testTrue(String testName, Bool flg);
+void testFalse(String testName, Bool flg);
+
+void testIsNull(String testName, void *p);
+void testIsNotNull(String testName, void *p);
+
+void testShowSummary();
+int testAllPassed();
+
+void showTest(char *name, void (*fn)(void));
+
+void init(void);
+void fini(void);
+void initFile(void);
+void finiFile(void);
+# 5 "test/test_bitv.c" 2
+# 1 "./bigint.h" 1
+# 14 "./bigint.h"
+typedef UNotAsLong BIntS;
+
+
+struct bint {
+ Bool isNeg;
+ Length placea;
+ Length placec;
+ BIntS placev[10];
+};
+
+
+
+
+typedef BInt (*BIntHandler)(int, ...);
+extern BIntHandler bintSetHandler(BIntHandler);
+
+
+
+
+extern Length uintLength (unsigned long);
+extern Length intLength (long);
+
+extern Bool uintBit (unsigned long, Length);
+extern Bool intBit (long , Length);
+
+
+
+
+extern int bintPrint (FILE *, BInt);
+extern int bintPrint2 (FILE *, BInt);
+extern int bintPrint16 (FILE *, BInt);
+
+extern int bintStringSize (BInt);
+extern String bintIntoString (String, BInt);
+
+extern String bintToString (BInt);
+extern BInt bintFrString (String);
+extern BInt bintScanFrString (String, String *);
+extern ULong bintScanIIntFrString (String, Length, ULong);
+extern BInt bintRadixScanFrString (String, String *);
+
+extern void bintToPlacevS (BInt, int *, U16 **);
+extern void bintReleasePlacevS (U16 *);
+
+
+
+
+extern BInt bintAllocPlaces (Length);
+extern BInt bintAlloc (Length);
+extern void bintFree (BInt);
+
+extern BInt bintNew (long);
+extern BInt bintCopy (BInt);
+extern BInt bintFrPlacev (Bool, Length, BIntS *);
+extern BInt bintFrPlacevS (Bool, Length, U16 *);
+
+
+
+
+extern Bool bintIsSmall (BInt);
+extern long bintSmall (BInt);
+
+
+
+
+extern BInt bint0;
+extern BInt bint1;
+
+extern Bool bintIsNeg (BInt a);
+extern Bool bintIsZero (BInt a);
+extern Bool bintIsPos (BInt a);
+
+extern Bool bintEQ (BInt a, BInt b);
+extern Bool bintLT (BInt a, BInt b);
+extern Bool bintGT (BInt a, BInt b);
+
+
+
+
+extern BInt bintAbs (BInt a);
+extern BInt bintNegate (BInt a);
+extern BInt bintPlus (BInt a, BInt b);
+extern BInt bintMinus (BInt a, BInt b);
+extern BInt bintTimes (BInt a, BInt b);
+extern BInt bintDivide (BInt *r,BInt a,BInt b);
+extern BInt bintGcd (BInt a, BInt b);
+extern BInt bintMod (BInt a, BInt b);
+
+extern Length bintLength (BInt a);
+extern Bool bintBit (BInt a, Length ix);
+extern BInt bintShift (BInt a, int n);
+extern BInt bintShiftRem (BInt, int);
+
+
+extern BInt xintNegate (BInt a);
+extern BInt xintPlus (BInt a, BInt b);
+extern BInt xintMinus (BInt a, BInt b);
+extern BInt xintTimes (BInt a, BInt b);
+extern BInt xintDivide (BInt *r,BInt a,BInt b);
+extern BInt xintGcd (BInt a, BInt b);
+extern BInt xintShift (BInt a, int n);
+
+
+
+
+extern BInt xintStoreI (long n);
+extern BInt xintStore (BInt a);
+extern BInt xintImmedIfCan (BInt a);
+extern BInt xintCopyInI (BInt a, long n);
+extern BInt xintNeeds (BInt a, Length bitc);
+
+
+
+
+extern void iintAbs (BInt r, BInt a);
+extern void iintNegate (BInt r, BInt a);
+extern void iintPlus (BInt r, BInt a, BInt b);
+extern void iintMinus (BInt r, BInt a, BInt b);
+extern void iintTimes (BInt r, BInt a, BInt b);
+extern void iintDivide (BInt q, BInt r, BInt a,BInt b);
+extern void iintShift (BInt r, BInt b, int n);
+
+extern void iintTimesS (BInt r, BInt a, BIntS b);
+extern void iintTimesPlusS(BInt r, BInt a, BIntS b,BIntS c);
+extern void iintDivideS (BInt q, BIntS*r,BInt a,BIntS b);
+
+extern void xxTestGtDouble(int *, ULong, ULong, ULong, ULong);
+extern void xxPlusStep (ULong *, ULong *, ULong, ULong, ULong);
+extern void xxTimesStep (ULong *, ULong *, ULong, ULong, ULong, ULong);
+
+
+extern void xxTimesDouble (ULong *, ULong *, ULong, ULong);
+extern ULong xxModDouble (ULong, ULong, ULong);
+extern void xxDivideDouble(ULong *, ULong *, ULong *,
+          ULong, ULong, ULong);
+# 6 "test/test_bitv.c" 2
+
+static void testBitvToInt();
+static void testBitvCount();
+static void testBInt();
+
+
+void init(void);
+void fini(void);
+
+void
+bitvTestSuite()
+{
+ init();
+ showTest("testBitvToInt", testBitvToInt);
+ showTest("testBitvCount", testBitvCount);
+ showTest("testBInt", testBInt);
+ fini();
+}
+
+static void
+testBitvToInt()
+{
+ BitvClass clss = bitvClassCreate(10);
+ int i;
+
+ Bitv bitv = bitvFromInt(clss, 0);
+ bitvPrintDb(clss, bitv);
+ testIntEqual("", 0, bitvCount(clss, bitv));
+
+ for (i=0; i<1024; i++) {
+  Bitv bits = bitvFromInt(clss, i);
+  int back = bitvToInt(clss, bits);
+
+  testIntEqual("Should be equal", i, back);
+  bitvFree(bits);
+ }
+
+ for (i=0; i<10; i++) {
+  Bitv bitv = bitvFromInt(clss, 1<<i);
+  testIntEqual("ZZ", 1, bitvCount(clss, bitv));
+  bitvFree(bitv);
+ }
+ for (i=0; i<10; i++) {
+  Bitv bitv = bitvFromInt(clss, (1<<i) - 1);
+  testIntEqual("AA", i, bitvCount(clss, bitv));
+  bitvFree(bitv);
+ }
+ bitvClassDestroy(clss);
+
+}
+
+static void
+testBitvCount()
+{
+ BitvClass clss = bitvClassCreate(10);
+ Bitv bitv = bitvNew(clss);
+ int i;
+ bitvClearAll(clss, bitv);
+ testIntEqual("A", 0, bitvCount(clss, bitv));
+ bitvSetAll(clss, bitv);
+ testIntEqual("B", 10, bitvCount(clss, bitv));
+ for (i=0; i<10; i++) {
+  testIntEqual("C", i, bitvCountTo(clss, bitv, i));
+ }
+ bitvClassDestroy(clss);
+}
+
+static void
+testBInt()
+{
+ testTrue("bint size", sizeof(UNotAsLong) < sizeof(long));
+}
